@@ -16,1523 +16,1833 @@ Definition terms (ts : list tok) (t : pt) : string :=
   digest (show_toks (Some ts)) ++ " " ++ digest (show_pt (Some t)) ++ " " ++ digest (show_pt (parse ts)).
 Definition terms_full (ts : list tok) (t : pt) : string :=
   show_toks (Some ts) ++ nl ++ show_pt (Some t) ++ nl ++ show_pt (parse ts).
-Eval vm_compute in ("<<<M12>>>" ++ check (runes_of_ascii "packet
-    charz //
-{ @rightPad( '0')
-repeat
-    //x
-    Packet//x
-msg_type `" ++ [233]%N ++ runes_of_ascii "`	, } options {repeatCount
-= false falsey  = int64
-}")).
-Eval vm_compute in ("<<<M44>>>" ++ check (runes_of_ascii "
-packet A
-{ repeat lengthOf {
-len ,
-    } , @tag(// trailing space 
-42	) match Header
-    as falsey
-{ [
-""" ++ [128512]%N ++ runes_of_ascii """//
-, ""\n"", 4294967296 ]
-    : Packet
-1 :	falsey,
-""\" ++ [233]%N ++ runes_of_ascii """ // " ++ [128512]%N ++ runes_of_ascii " emoji
-:
-    charz } , zchar[255
-]
-// packet A { u8 x, }
-// trailing space 
-rootA , repeat  char[ 10 ]// `tick` ""quote"" 'q'
-f32a
-// trailing space 
-//x
-,@calculatedFrom(  ""// no comment"") char[ 00 ]trueish@calculatedFrom(
-    // " ++ [27880; 37322]%N ++ runes_of_ascii "
-    ""a\""b"" )`line1
-line2` ,}")).
-Eval vm_compute in ("<<<M76>>>" ++ check (runes_of_ascii "root packet x	{ @calculatedFrom(""a\\"" ) zchar[42 ]float @calculatedFrom(""a\""b""  ) `
-` ,
-    } MetaData o
-    {
-int8
-BodyLength,string len ,
-    string len , float falsey ,T float
-    , }	MetaData pack { /// triple
-charz o
-`// not a comment`	,	float64 f32a `tab	here`  , int32  u8x  `// not a comment` ,char[10 ]
-a1
-, float32 options1  ,
-} // `tick` ""quote"" 'q'")).
-Eval vm_compute in ("<<<T76>>>" ++ terms [mkTok 34 "root" 1 0 false; mkTok 35 "packet" 1 5 false; mkTok 42 "x" 1 12 false; mkTok 2 "{" 1 14 false; mkTok 5 "@calculatedFrom(" 1 16 false; mkTok 31 """a\\""" 1 32 false; mkTok 6 ")" 1 38 false; mkTok 14 "zchar[" 1 40 false; mkTok 30 "42" 1 46 false; mkTok 13 "]" 1 49 false; mkTok 42 "float" 1 50 false; mkTok 5 "@calculatedFrom(" 1 56 false; mkTok 31 """a\""b""" 1 72 false; mkTok 6 ")" 1 80 false; mkTok 43 (string_of_bytes [96; 10; 96]%N) 1 82 false; mkTok 40 "," 2 2 false; mkTok 3 "}" 3 4 false; mkTok 37 "MetaData" 3 6 false; mkTok 42 "o" 3 15 false; mkTok 2 "{" 4 4 false; mkTok 24 "int8" 5 0 false; mkTok 42 "BodyLength" 6 0 false; mkTok 40 "," 6 10 false; mkTok 15 "string" 6 11 false; mkTok 42 "len" 6 18 false; mkTok 40 "," 6 22 false; mkTok 15 "string" 7 4 false; mkTok 42 "len" 7 11 false; mkTok 40 "," 7 15 false; mkTok 42 "float" 7 17 false; mkTok 42 "falsey" 7 23 false; mkTok 40 "," 7 30 false; mkTok 42 "T" 7 31 false; mkTok 42 "float" 7 33 false; mkTok 40 "," 8 4 false; mkTok 3 "}" 8 6 false; mkTok 37 "MetaData" 8 8 false; mkTok 42 "pack" 8 17 false; mkTok 2 "{" 8 22 false; mkTok 44 "/// triple" 8 24 true; mkTok 42 "charz" 9 0 false; mkTok 42 "o" 9 6 false; mkTok 43 "`// not a comment`" 10 0 false; mkTok 40 "," 10 19 false; mkTok 29 "float64" 10 21 false; mkTok 42 "f32a" 10 29 false; mkTok 43 (string_of_bytes [96; 116; 97; 98; 9; 104; 101; 114; 101; 96]%N) 10 34 false; mkTok 40 "," 10 46 false; mkTok 26 "int32" 10 48 false; mkTok 42 "u8x" 10 55 false; mkTok 43 "`// not a comment`" 10 60 false; mkTok 40 "," 10 79 false; mkTok 12 "char[" 10 80 false; mkTok 30 "10" 10 85 false; mkTok 13 "]" 10 88 false; mkTok 42 "a1" 11 0 false; mkTok 40 "," 12 0 false; mkTok 28 "float32" 12 2 false; mkTok 42 "options1" 12 10 false; mkTok 40 "," 12 20 false; mkTok 3 "}" 13 0 false; mkTok 44 "// `tick` ""quote"" 'q'" 13 2 true; mkTok 0 "<EOF>" 13 23 false] (mkPacket (mkPtok 34 "root" 1 0 0) (Some (mkPtok 3 "}" 13 0 60)) [(DPacket (mkPacketDef (mkSpan (mkPtok 34 "root" 1 0 0) (mkPtok 3 "}" 3 4 16)) (Some (mkPtok 34 "root" 1 0 0)) (mkPtok 35 "packet" 1 5 1) (mkPtok 42 "x" 1 12 2) (mkPtok 2 "{" 1 14 3) [(mkFieldWithAttr (mkSpan (mkPtok 5 "@calculatedFrom(" 1 16 4) (mkPtok 40 "," 2 2 15)) [(FACalculatedFrom (mkSpan (mkPtok 5 "@calculatedFrom(" 1 16 4) (mkPtok 6 ")" 1 38 6)) (mkCalculatedFrom (mkSpan (mkPtok 5 "@calculatedFrom(" 1 16 4) (mkPtok 6 ")" 1 38 6)) (mkPtok 5 "@calculatedFrom(" 1 16 4) (mkPtok 31 """a\\""" 1 32 5) (mkPtok 6 ")" 1 38 6)))] (CheckSumField (mkSpan (mkPtok 14 "zchar[" 1 40 7) (mkPtok 40 "," 2 2 15)) (mkChecksumFieldDecl (mkSpan (mkPtok 14 "zchar[" 1 40 7) (mkPtok 40 "," 2 2 15)) (Some (TyFixed (mkSpan (mkPtok 14 "zchar[" 1 40 7) (mkPtok 13 "]" 1 49 9)) (mkFixedString (mkSpan (mkPtok 14 "zchar[" 1 40 7) (mkPtok 13 "]" 1 49 9)) (mkPtok 14 "zchar[" 1 40 7) (mkPtok 30 "42" 1 46 8) (mkPtok 13 "]" 1 49 9)))) (mkPtok 42 "float" 1 50 10) (mkCalculatedFrom (mkSpan (mkPtok 5 "@calculatedFrom(" 1 56 11) (mkPtok 6 ")" 1 80 13)) (mkPtok 5 "@calculatedFrom(" 1 56 11) (mkPtok 31 """a\""b""" 1 72 12) (mkPtok 6 ")" 1 80 13)) (Some (mkPtok 43 (string_of_bytes [96; 10; 96]%N) 1 82 14)) (mkPtok 40 "," 2 2 15))))] (mkPtok 3 "}" 3 4 16))); (DMeta (mkMetaDef (mkSpan (mkPtok 37 "MetaData" 3 6 17) (mkPtok 3 "}" 8 6 35)) (mkPtok 37 "MetaData" 3 6 17) (mkPtok 42 "o" 3 15 18) (mkPtok 2 "{" 4 4 19) [(MIDecl (mkMetaDecl (mkSpan (mkPtok 24 "int8" 5 0 20) (mkPtok 40 "," 6 10 22)) (TyBasic (mkSpan (mkPtok 24 "int8" 5 0 20) (mkPtok 24 "int8" 5 0 20)) (mkBasicType (mkSpan (mkPtok 24 "int8" 5 0 20) (mkPtok 24 "int8" 5 0 20)) (mkPtok 24 "int8" 5 0 20))) (mkPtok 42 "BodyLength" 6 0 21) None (mkPtok 40 "," 6 10 22))); (MIDecl (mkMetaDecl (mkSpan (mkPtok 15 "string" 6 11 23) (mkPtok 40 "," 6 22 25)) (TyDynamic (mkSpan (mkPtok 15 "string" 6 11 23) (mkPtok 15 "string" 6 11 23)) (mkDynamicString (mkSpan (mkPtok 15 "string" 6 11 23) (mkPtok 15 "string" 6 11 23)) (mkPtok 15 "string" 6 11 23))) (mkPtok 42 "len" 6 18 24) None (mkPtok 40 "," 6 22 25))); (MIDecl (mkMetaDecl (mkSpan (mkPtok 15 "string" 7 4 26) (mkPtok 40 "," 7 15 28)) (TyDynamic (mkSpan (mkPtok 15 "string" 7 4 26) (mkPtok 15 "string" 7 4 26)) (mkDynamicString (mkSpan (mkPtok 15 "string" 7 4 26) (mkPtok 15 "string" 7 4 26)) (mkPtok 15 "string" 7 4 26))) (mkPtok 42 "len" 7 11 27) None (mkPtok 40 "," 7 15 28))); (MIRef (mkRefMetaDecl (mkSpan (mkPtok 42 "float" 7 17 29) (mkPtok 40 "," 7 30 31)) (mkPtok 42 "float" 7 17 29) (mkPtok 42 "falsey" 7 23 30) None (mkPtok 40 "," 7 30 31))); (MIRef (mkRefMetaDecl (mkSpan (mkPtok 42 "T" 7 31 32) (mkPtok 40 "," 8 4 34)) (mkPtok 42 "T" 7 31 32) (mkPtok 42 "float" 7 33 33) None (mkPtok 40 "," 8 4 34)))] (mkPtok 3 "}" 8 6 35))); (DMeta (mkMetaDef (mkSpan (mkPtok 37 "MetaData" 8 8 36) (mkPtok 3 "}" 13 0 60)) (mkPtok 37 "MetaData" 8 8 36) (mkPtok 42 "pack" 8 17 37) (mkPtok 2 "{" 8 22 38) [(MIRef (mkRefMetaDecl (mkSpan (mkPtok 42 "charz" 9 0 40) (mkPtok 40 "," 10 19 43)) (mkPtok 42 "charz" 9 0 40) (mkPtok 42 "o" 9 6 41) (Some (mkPtok 43 "`// not a comment`" 10 0 42)) (mkPtok 40 "," 10 19 43))); (MIDecl (mkMetaDecl (mkSpan (mkPtok 29 "float64" 10 21 44) (mkPtok 40 "," 10 46 47)) (TyBasic (mkSpan (mkPtok 29 "float64" 10 21 44) (mkPtok 29 "float64" 10 21 44)) (mkBasicType (mkSpan (mkPtok 29 "float64" 10 21 44) (mkPtok 29 "float64" 10 21 44)) (mkPtok 29 "float64" 10 21 44))) (mkPtok 42 "f32a" 10 29 45) (Some (mkPtok 43 (string_of_bytes [96; 116; 97; 98; 9; 104; 101; 114; 101; 96]%N) 10 34 46)) (mkPtok 40 "," 10 46 47))); (MIDecl (mkMetaDecl (mkSpan (mkPtok 26 "int32" 10 48 48) (mkPtok 40 "," 10 79 51)) (TyBasic (mkSpan (mkPtok 26 "int32" 10 48 48) (mkPtok 26 "int32" 10 48 48)) (mkBasicType (mkSpan (mkPtok 26 "int32" 10 48 48) (mkPtok 26 "int32" 10 48 48)) (mkPtok 26 "int32" 10 48 48))) (mkPtok 42 "u8x" 10 55 49) (Some (mkPtok 43 "`// not a comment`" 10 60 50)) (mkPtok 40 "," 10 79 51))); (MIDecl (mkMetaDecl (mkSpan (mkPtok 12 "char[" 10 80 52) (mkPtok 40 "," 12 0 56)) (TyFixed (mkSpan (mkPtok 12 "char[" 10 80 52) (mkPtok 13 "]" 10 88 54)) (mkFixedString (mkSpan (mkPtok 12 "char[" 10 80 52) (mkPtok 13 "]" 10 88 54)) (mkPtok 12 "char[" 10 80 52) (mkPtok 30 "10" 10 85 53) (mkPtok 13 "]" 10 88 54))) (mkPtok 42 "a1" 11 0 55) None (mkPtok 40 "," 12 0 56))); (MIDecl (mkMetaDecl (mkSpan (mkPtok 28 "float32" 12 2 57) (mkPtok 40 "," 12 20 59)) (TyBasic (mkSpan (mkPtok 28 "float32" 12 2 57) (mkPtok 28 "float32" 12 2 57)) (mkBasicType (mkSpan (mkPtok 28 "float32" 12 2 57) (mkPtok 28 "float32" 12 2 57)) (mkPtok 28 "float32" 12 2 57))) (mkPtok 42 "options1" 12 10 58) None (mkPtok 40 "," 12 20 59)))] (mkPtok 3 "}" 13 0 60)))])).
-Eval vm_compute in ("<<<M108>>>" ++ check (runes_of_ascii "/// triple
-options  { Header = 65535
-    ; calculatedFrom =
-""x y"" trueish = true i8i8 = false metadata // trailing space 
-=	""" ++ [28040; 24687]%N ++ runes_of_ascii """ ;
-}
-")).
-Eval vm_compute in ("<<<M140>>>" ++ check (runes_of_ascii "packet As { options1
-    { i16 o , } , i64 roots ,repeat char[] o
-    `a\` , @calculatedFrom( ""1""//x
-)  repeatCount	@lengthOf(/// triple
-falsey /// triple
-)
-// packet A { u8 x, }
-// " ++ [128512]%N ++ runes_of_ascii " emoji
-`a\` ,
-@lengthOf( stringy ) char[]	As
-`" ++ [233]%N ++ runes_of_ascii "` ,
-asx {match msg_type as
-chars { //	t
-00: metadata
+Eval vm_compute in ("<<<M12>>>" ++ check (runes_of_ascii "options	{
     // `tick` ""quote"" 'q'
-    , }
-    , i8 pack// c
-@calculatedFrom(
-    /// triple
-    ""x y"" )
-// trailing space 
-// a // b
-,//	t
-match u8x as	rootA{
-""1"": a1
-, [
-    // packet A { u8 x, }
-    4294967296 ]
-:msg_type
-//
-//x
-,
-}
-, } // a // b
-, @calculatedFrom(
-""" ++ [233]%N ++ runes_of_ascii "t" ++ [233]%N ++ runes_of_ascii """ ) int16 roots ,
-    @tag(1 )	@leftPad ( '0' ) @rightPad // " ++ [27880; 37322]%N ++ runes_of_ascii "
-( '\x00'
-)i32 asx `tab	here`	,char Logon `u8 x,` // trailing space 
-,  }
-root	packet string_ {// @lengthOf(
-}packet Z9_ { int8 _x
-, repeat u8 uint8x `" ++ [233]%N ++ runes_of_ascii "`
-,
-float64 x_y_z @calculatedFrom(	""x y"" )
-    , @calculatedFrom(	""a\""b"" ) @calculatedFrom( ""a\""b"" )
-    int
-{zchar[255
-] //
-msg_type,  i64_
-    // trailing space 
-    {
-    stringy @lengthOf(x_y_z )
-    , u
-    options1
+    _x// trailing space 
+=""" ++ [28040; 24687]%N ++ runes_of_ascii """ ; }
+")).
+Eval vm_compute in ("<<<M44>>>" ++ check (runes_of_ascii "//x
+options{
+x= ""1"" x= ""x y""
     //
-    `tab	here` ,
-char[0123456789 ] msg_type ,float32
-    Foo `{ , }`
-    , } , } ,  @tag(	0
-)
-    @calculatedFrom( ""CRC32"" ) charz , @tag(
-    // @lengthOf(
-    4294967296 )
-i64 packetx ,  } //	t")).
-Eval vm_compute in ("<<<M172>>>" ++ check (runes_of_ascii "packet x
-{ @lengthOf( x_y_z )
-BodyLength tag // c
-,}
-")).
-Eval vm_compute in ("<<<M204>>>" ++ check (runes_of_ascii "packet	zchar { char[]  i64_,
-    // " ++ [128512]%N ++ runes_of_ascii " emoji
-    @calculatedFrom(	""// no comment"" ) match charz
-    as tag
-{ [""it's""
-, 4294967296
-    ,/// triple
-""a	b""
-    , """ ++ [28040; 24687]%N ++ runes_of_ascii """
-,""" ++ [128512]%N ++ runes_of_ascii """
-    ,  255 ,007 ] // packet A { u8 x, }
-: i64_
-, [	0123456789 ,3
-, 00 ]: // `tick` ""quote"" 'q'
-Packet , [ """ ++ [233]%N ++ runes_of_ascii "t" ++ [233]%N ++ runes_of_ascii """ ]
-:a1 ,	}
-,
-    }
-")).
-Eval vm_compute in ("<<<M236>>>" ++ check (runes_of_ascii "
-root packet
-rootA { } root packet
-// a // b
-// trailing space 
-_x // " ++ [27880; 37322]%N ++ runes_of_ascii "
+    ; calculatedFrom= ""a	b"" calculatedFrom = zchar[
+// c
+// c
+00 ] ;// `tick` ""quote"" 'q'
+_x =false ;
+    } packet Logon // 50% %s
 {
-    i64_, // a // b
-} MetaData options1{ // `tick` ""quote"" 'q'
-a1 float `crlf
-line`
+    } packet
+x_y_z { match
+    f32a as repeatCount { 10// 50% %s
+: zchar , } ,char[] options1`u8 x,`
+    ,} packet options1
+{@calculatedFrom( ""it's""  )@calculatedFrom(""packet"") // " ++ [128512]%N ++ runes_of_ascii " emoji
+repeat string repeatCount ``
+,char[] msg_type ,
+i16 Z9_ @calculatedFrom( ""\n"" // 50% %s
+)	, @leftPad (' ') repeat
+BodyLength calculatedFrom
 ,
-    u8x
-falsey // " ++ [128512]%N ++ runes_of_ascii " emoji
-`" ++ [233]%N ++ runes_of_ascii "`,
-f32a MetaDataX,int64 u8x, } packet f32a {}
-")).
-Eval vm_compute in ("<<<M268>>>" ++ check (runes_of_ascii "
-packet leftPad
-    {}	packet u{@leftPad
-( ' ' )
-    char[65535 ]leftPad, int8
-packetx ,
-string stringy `crlf
-line` ,@leftPad
-( // @lengthOf(
-' ' // " ++ [27880; 37322]%N ++ runes_of_ascii "
-) // " ++ [128512]%N ++ runes_of_ascii " emoji
-i64 x
-@lengthOf( u )
-    `" ++ [28040; 24687; 31867; 22411]%N ++ runes_of_ascii "`	,@lengthOf( pack )
-// a // b
-//
-u64 asx  @lengthOf( repeatCount )
-    `u8 x,` , o A ,}	root packet charz{
-char[]repeatCount
-    //x
-    @lengthOf( tag ) ``
-,
-    repeat pack	`a\` , @calculatedFrom( ""// no comment""
-    //x
-    ) T { string rootA // " ++ [27880; 37322]%N ++ runes_of_ascii "
-@calculatedFrom(""{,}"" )  ,
-    }, repeat As
-    Foo
-, char[
-3] trueish ,@calculatedFrom(""""
-    )@lengthOf(
-metadata)@leftPad ('0'
-/// triple
-//x
-) repeat u64 float `{ , }`
-// " ++ [27880; 37322]%N ++ runes_of_ascii "
-// " ++ [128512]%N ++ runes_of_ascii " emoji
-, stringy {
-// packet A { u8 x, }
-// c
-metadata
-    { u8 f32a `two words` , repeat  char[ 007 ] f32a
-`
-` ,
-    } ,  u32 asx @calculatedFrom(""" ++ [233]%N ++ runes_of_ascii "t" ++ [233]%N ++ runes_of_ascii """
-) ,float64 i8i8 ,//x
-} ,
-// c
-// " ++ [27880; 37322]%N ++ runes_of_ascii "
-match lengthOf as zchar
-    /// triple
-    {
-    00 :o,  } , }")).
-Eval vm_compute in ("<<<M300>>>" ++ check (runes_of_ascii " //	t")).
-Eval vm_compute in ("<<<T300>>>" ++ terms [mkTok 44 (string_of_bytes [47; 47; 9; 116]%N) 1 1 true; mkTok 0 "<EOF>" 1 5 false] (mkPacket (mkPtok 0 "<EOF>" 1 5 1) None [])).
-Eval vm_compute in ("<<<M332>>>" ++ check (runes_of_ascii "packet
-crc { @lengthOf( falsey )Packet /// triple
-`crlf
-line`
-    // trailing space 
-    ,
-}
-")).
-Eval vm_compute in ("<<<M364>>>" ++ check (@nil rune)).
-Eval vm_compute in ("<<<M396>>>" ++ check (runes_of_ascii "
-")).
-Eval vm_compute in ("<<<M428>>>" ++ check (runes_of_ascii "packet body {  @leftPad (
-    ) zchar[
-0 ] metadata , chars {
-repeat
-    // " ++ [128512]%N ++ runes_of_ascii " emoji
-    u8 string_,
-string options1
-    @calculatedFrom( """ ++ [28040; 24687]%N ++ runes_of_ascii """
-    ) , },}")).
-Eval vm_compute in ("<<<M460>>>" ++ check (runes_of_ascii "packet
-rootA {@lengthOf(	A ) @leftPad (
-    '0' )@lengthOf( _x ) char[ 0
-]
-// `tick` ""quote"" 'q'
-// a // b
-len , } root packet
-    _x
-{ @lengthOf( MetaDataX
-) u16 x
-`say ""hi""` , match
-    string_ as Foo{ 42  :
-string_
-    ,
-00: T , },char[]
-trueish ,repeat calculatedFrom // c
-x_y_z , // a // b
-}")).
-Eval vm_compute in ("<<<M492>>>" ++ check (runes_of_ascii "packet chars { i64 pack , }
-")).
-Eval vm_compute in ("<<<M524>>>" ++ check (runes_of_ascii "packet roots { } root packet metadata{ repeat //	t
-float32 int ,	_x @lengthOf(
-    packetx //
-) `
-` , repeat Packet Header
-, @tag( 0 // trailing space 
-)/// triple
-float32 msg_type
-    @calculatedFrom(
-""\" ++ [233]%N ++ runes_of_ascii """// a // b
-)  , char[
-0 ] BodyLength , len
-@calculatedFrom(	""" ++ [28040; 24687]%N ++ runes_of_ascii """ ) // trailing space 
-`tab	here` ,	}
-root packet calculatedFrom
-{ @rightPad ( ' '
-)
-    tag
-@calculatedFrom(""// no comment"")
-    // " ++ [27880; 37322]%N ++ runes_of_ascii "
-    , crc @calculatedFrom(""\" ++ [233]%N ++ runes_of_ascii """ ), @lengthOf( u128
-// a // b
-//x
-) @lengthOf(
-chars)
-repeat
-    lengthOf`tab	here` // a // b
-, @tag( 007)
-    char[]
-    roots , @calculatedFrom(""" ++ [233]%N ++ runes_of_ascii "t" ++ [233]%N ++ runes_of_ascii """ ) repeat zchar[ 0 ] chars `crlf
-line`  , // `tick` ""quote"" 'q'
-@calculatedFrom(""a\\"" )	options1 ,
-    // " ++ [27880; 37322]%N ++ runes_of_ascii "
-    @rightPad ( // " ++ [27880; 37322]%N ++ runes_of_ascii "
-)
-    Z9_ { float32 x_y_z @lengthOf( asx // @lengthOf(
-)
-    , repeat float32 asx , f32 zchar
-`" ++ [28040; 24687; 31867; 22411]%N ++ runes_of_ascii "`
-    , char[ 007 ] Packet
-`a\`
-,
-} ,
-}")).
-Eval vm_compute in ("<<<T524>>>" ++ terms [mkTok 35 "packet" 1 0 false; mkTok 42 "roots" 1 7 false; mkTok 2 "{" 1 13 false; mkTok 3 "}" 1 15 false; mkTok 34 "root" 1 17 false; mkTok 35 "packet" 1 22 false; mkTok 42 "metadata" 1 29 false; mkTok 2 "{" 1 37 false; mkTok 36 "repeat" 1 39 false; mkTok 44 (string_of_bytes [47; 47; 9; 116]%N) 1 46 true; mkTok 28 "float32" 2 0 false; mkTok 42 "int" 2 8 false; mkTok 40 "," 2 12 false; mkTok 42 "_x" 2 14 false; mkTok 7 "@lengthOf(" 2 17 false; mkTok 42 "packetx" 3 4 false; mkTok 44 "//" 3 12 true; mkTok 6 ")" 4 0 false; mkTok 43 (string_of_bytes [96; 10; 96]%N) 4 2 false; mkTok 40 "," 5 2 false; mkTok 36 "repeat" 5 4 false; mkTok 42 "Packet" 5 11 false; mkTok 42 "Header" 5 18 false; mkTok 40 "," 6 0 false; mkTok 9 "@tag(" 6 2 false; mkTok 30 "0" 6 8 false; mkTok 44 "// trailing space " 6 10 true; mkTok 6 ")" 7 0 false; mkTok 44 "/// triple" 7 1 true; mkTok 28 "float32" 8 0 false; mkTok 42 "msg_type" 8 8 false; mkTok 5 "@calculatedFrom(" 9 4 false; mkTok 31 (string_of_bytes [34; 92; 195; 169; 34]%N) 10 0 false; mkTok 44 "// a // b" 10 4 true; mkTok 6 ")" 11 0 false; mkTok 40 "," 11 3 false; mkTok 12 "char[" 11 5 false; mkTok 30 "0" 12 0 false; mkTok 13 "]" 12 2 false; mkTok 42 "BodyLength" 12 4 false; mkTok 40 "," 12 15 false; mkTok 42 "len" 12 17 false; mkTok 5 "@calculatedFrom(" 13 0 false; mkTok 31 (string_of_bytes [34; 230; 182; 136; 230; 129; 175; 34]%N) 13 17 false; mkTok 6 ")" 13 22 false; mkTok 44 "// trailing space " 13 24 true; mkTok 43 (string_of_bytes [96; 116; 97; 98; 9; 104; 101; 114; 101; 96]%N) 14 0 false; mkTok 40 "," 14 11 false; mkTok 3 "}" 14 13 false; mkTok 34 "root" 15 0 false; mkTok 35 "packet" 15 5 false; mkTok 42 "calculatedFrom" 15 12 false; mkTok 2 "{" 16 0 false; mkTok 32 "@rightPad" 16 2 false; mkTok 8 "(" 16 12 false; mkTok 33 "' '" 16 14 false; mkTok 6 ")" 17 0 false; mkTok 42 "tag" 18 4 false; mkTok 5 "@calculatedFrom(" 19 0 false; mkTok 31 """// no comment""" 19 16 false; mkTok 6 ")" 19 31 false; mkTok 44 (string_of_bytes [47; 47; 32; 230; 179; 168; 233; 135; 138]%N) 20 4 true; mkTok 40 "," 21 4 false; mkTok 42 "crc" 21 6 false; mkTok 5 "@calculatedFrom(" 21 10 false; mkTok 31 (string_of_bytes [34; 92; 195; 169; 34]%N) 21 26 false; mkTok 6 ")" 21 31 false; mkTok 40 "," 21 32 false; mkTok 7 "@lengthOf(" 21 34 false; mkTok 42 "u128" 21 45 false; mkTok 44 "// a // b" 22 0 true; mkTok 44 "//x" 23 0 true; mkTok 6 ")" 24 0 false; mkTok 7 "@lengthOf(" 24 2 false; mkTok 42 "chars" 25 0 false; mkTok 6 ")" 25 5 false; mkTok 36 "repeat" 26 0 false; mkTok 42 "lengthOf" 27 4 false; mkTok 43 (string_of_bytes [96; 116; 97; 98; 9; 104; 101; 114; 101; 96]%N) 27 12 false; mkTok 44 "// a // b" 27 23 true; mkTok 40 "," 28 0 false; mkTok 9 "@tag(" 28 2 false; mkTok 30 "007" 28 8 false; mkTok 6 ")" 28 11 false; mkTok 16 "char[]" 29 4 false; mkTok 42 "roots" 30 4 false; mkTok 40 "," 30 10 false; mkTok 5 "@calculatedFrom(" 30 12 false; mkTok 31 (string_of_bytes [34; 195; 169; 116; 195; 169; 34]%N) 30 28 false; mkTok 6 ")" 30 34 false; mkTok 36 "repeat" 30 36 false; mkTok 14 "zchar[" 30 43 false; mkTok 30 "0" 30 50 false; mkTok 13 "]" 30 52 false; mkTok 42 "chars" 30 54 false; mkTok 43 (string_of_bytes [96; 99; 114; 108; 102; 13; 10; 108; 105; 110; 101; 96]%N) 30 60 false; mkTok 40 "," 31 7 false; mkTok 44 "// `tick` ""quote"" 'q'" 31 9 true; mkTok 5 "@calculatedFrom(" 32 0 false; mkTok 31 """a\\""" 32 16 false; mkTok 6 ")" 32 22 false; mkTok 42 "options1" 32 24 false; mkTok 40 "," 32 33 false; mkTok 44 (string_of_bytes [47; 47; 32; 230; 179; 168; 233; 135; 138]%N) 33 4 true; mkTok 32 "@rightPad" 34 4 false; mkTok 8 "(" 34 14 false; mkTok 44 (string_of_bytes [47; 47; 32; 230; 179; 168; 233; 135; 138]%N) 34 16 true; mkTok 6 ")" 35 0 false; mkTok 42 "Z9_" 36 4 false; mkTok 2 "{" 36 8 false; mkTok 28 "float32" 36 10 false; mkTok 42 "x_y_z" 36 18 false; mkTok 7 "@lengthOf(" 36 24 false; mkTok 42 "asx" 36 35 false; mkTok 44 "// @lengthOf(" 36 39 true; mkTok 6 ")" 37 0 false; mkTok 40 "," 38 4 false; mkTok 36 "repeat" 38 6 false; mkTok 28 "float32" 38 13 false; mkTok 42 "asx" 38 21 false; mkTok 40 "," 38 25 false; mkTok 28 "f32" 38 27 false; mkTok 42 "zchar" 38 31 false; mkTok 43 (string_of_bytes [96; 230; 182; 136; 230; 129; 175; 231; 177; 187; 229; 158; 139; 96]%N) 39 0 false; mkTok 40 "," 40 4 false; mkTok 12 "char[" 40 6 false; mkTok 30 "007" 40 12 false; mkTok 13 "]" 40 16 false; mkTok 42 "Packet" 40 18 false; mkTok 43 "`a\`" 41 0 false; mkTok 40 "," 42 0 false; mkTok 3 "}" 43 0 false; mkTok 40 "," 43 2 false; mkTok 3 "}" 44 0 false; mkTok 0 "<EOF>" 44 1 false] (mkPacket (mkPtok 35 "packet" 1 0 0) (Some (mkPtok 3 "}" 44 0 133)) [(DPacket (mkPacketDef (mkSpan (mkPtok 35 "packet" 1 0 0) (mkPtok 3 "}" 1 15 3)) None (mkPtok 35 "packet" 1 0 0) (mkPtok 42 "roots" 1 7 1) (mkPtok 2 "{" 1 13 2) [] (mkPtok 3 "}" 1 15 3))); (DPacket (mkPacketDef (mkSpan (mkPtok 34 "root" 1 17 4) (mkPtok 3 "}" 14 13 48)) (Some (mkPtok 34 "root" 1 17 4)) (mkPtok 35 "packet" 1 22 5) (mkPtok 42 "metadata" 1 29 6) (mkPtok 2 "{" 1 37 7) [(mkFieldWithAttr (mkSpan (mkPtok 36 "repeat" 1 39 8) (mkPtok 40 "," 2 12 12)) [] (MetaField (mkSpan (mkPtok 36 "repeat" 1 39 8) (mkPtok 40 "," 2 12 12)) (Some (mkPtok 36 "repeat" 1 39 8)) (mkMetaDecl (mkSpan (mkPtok 28 "float32" 2 0 10) (mkPtok 40 "," 2 12 12)) (TyBasic (mkSpan (mkPtok 28 "float32" 2 0 10) (mkPtok 28 "float32" 2 0 10)) (mkBasicType (mkSpan (mkPtok 28 "float32" 2 0 10) (mkPtok 28 "float32" 2 0 10)) (mkPtok 28 "float32" 2 0 10))) (mkPtok 42 "int" 2 8 11) None (mkPtok 40 "," 2 12 12)))); (mkFieldWithAttr (mkSpan (mkPtok 42 "_x" 2 14 13) (mkPtok 40 "," 5 2 19)) [] (LengthField (mkSpan (mkPtok 42 "_x" 2 14 13) (mkPtok 40 "," 5 2 19)) (mkLengthFieldDecl (mkSpan (mkPtok 42 "_x" 2 14 13) (mkPtok 40 "," 5 2 19)) None (mkPtok 42 "_x" 2 14 13) (mkLengthOf (mkSpan (mkPtok 7 "@lengthOf(" 2 17 14) (mkPtok 6 ")" 4 0 17)) (mkPtok 7 "@lengthOf(" 2 17 14) (mkPtok 42 "packetx" 3 4 15) (mkPtok 6 ")" 4 0 17)) (Some (mkPtok 43 (string_of_bytes [96; 10; 96]%N) 4 2 18)) (mkPtok 40 "," 5 2 19)))); (mkFieldWithAttr (mkSpan (mkPtok 36 "repeat" 5 4 20) (mkPtok 40 "," 6 0 23)) [] (ObjectField (mkSpan (mkPtok 36 "repeat" 5 4 20) (mkPtok 40 "," 6 0 23)) (Some (mkPtok 36 "repeat" 5 4 20)) (mkPtok 42 "Packet" 5 11 21) (Some (mkPtok 42 "Header" 5 18 22)) None (mkPtok 40 "," 6 0 23))); (mkFieldWithAttr (mkSpan (mkPtok 9 "@tag(" 6 2 24) (mkPtok 40 "," 11 3 35)) [(FATag (mkSpan (mkPtok 9 "@tag(" 6 2 24) (mkPtok 6 ")" 7 0 27)) (mkTagAttr (mkSpan (mkPtok 9 "@tag(" 6 2 24) (mkPtok 6 ")" 7 0 27)) (mkPtok 9 "@tag(" 6 2 24) (mkPtok 30 "0" 6 8 25) (mkPtok 6 ")" 7 0 27)))] (CheckSumField (mkSpan (mkPtok 28 "float32" 8 0 29) (mkPtok 40 "," 11 3 35)) (mkChecksumFieldDecl (mkSpan (mkPtok 28 "float32" 8 0 29) (mkPtok 40 "," 11 3 35)) (Some (TyBasic (mkSpan (mkPtok 28 "float32" 8 0 29) (mkPtok 28 "float32" 8 0 29)) (mkBasicType (mkSpan (mkPtok 28 "float32" 8 0 29) (mkPtok 28 "float32" 8 0 29)) (mkPtok 28 "float32" 8 0 29)))) (mkPtok 42 "msg_type" 8 8 30) (mkCalculatedFrom (mkSpan (mkPtok 5 "@calculatedFrom(" 9 4 31) (mkPtok 6 ")" 11 0 34)) (mkPtok 5 "@calculatedFrom(" 9 4 31) (mkPtok 31 (string_of_bytes [34; 92; 195; 169; 34]%N) 10 0 32) (mkPtok 6 ")" 11 0 34)) None (mkPtok 40 "," 11 3 35)))); (mkFieldWithAttr (mkSpan (mkPtok 12 "char[" 11 5 36) (mkPtok 40 "," 12 15 40)) [] (MetaField (mkSpan (mkPtok 12 "char[" 11 5 36) (mkPtok 40 "," 12 15 40)) None (mkMetaDecl (mkSpan (mkPtok 12 "char[" 11 5 36) (mkPtok 40 "," 12 15 40)) (TyFixed (mkSpan (mkPtok 12 "char[" 11 5 36) (mkPtok 13 "]" 12 2 38)) (mkFixedString (mkSpan (mkPtok 12 "char[" 11 5 36) (mkPtok 13 "]" 12 2 38)) (mkPtok 12 "char[" 11 5 36) (mkPtok 30 "0" 12 0 37) (mkPtok 13 "]" 12 2 38))) (mkPtok 42 "BodyLength" 12 4 39) None (mkPtok 40 "," 12 15 40)))); (mkFieldWithAttr (mkSpan (mkPtok 42 "len" 12 17 41) (mkPtok 40 "," 14 11 47)) [] (CheckSumField (mkSpan (mkPtok 42 "len" 12 17 41) (mkPtok 40 "," 14 11 47)) (mkChecksumFieldDecl (mkSpan (mkPtok 42 "len" 12 17 41) (mkPtok 40 "," 14 11 47)) None (mkPtok 42 "len" 12 17 41) (mkCalculatedFrom (mkSpan (mkPtok 5 "@calculatedFrom(" 13 0 42) (mkPtok 6 ")" 13 22 44)) (mkPtok 5 "@calculatedFrom(" 13 0 42) (mkPtok 31 (string_of_bytes [34; 230; 182; 136; 230; 129; 175; 34]%N) 13 17 43) (mkPtok 6 ")" 13 22 44)) (Some (mkPtok 43 (string_of_bytes [96; 116; 97; 98; 9; 104; 101; 114; 101; 96]%N) 14 0 46)) (mkPtok 40 "," 14 11 47))))] (mkPtok 3 "}" 14 13 48))); (DPacket (mkPacketDef (mkSpan (mkPtok 34 "root" 15 0 49) (mkPtok 3 "}" 44 0 133)) (Some (mkPtok 34 "root" 15 0 49)) (mkPtok 35 "packet" 15 5 50) (mkPtok 42 "calculatedFrom" 15 12 51) (mkPtok 2 "{" 16 0 52) [(mkFieldWithAttr (mkSpan (mkPtok 32 "@rightPad" 16 2 53) (mkPtok 40 "," 21 4 62)) [(FAPadding (mkSpan (mkPtok 32 "@rightPad" 16 2 53) (mkPtok 6 ")" 17 0 56)) (mkPaddingAttr (mkSpan (mkPtok 32 "@rightPad" 16 2 53) (mkPtok 6 ")" 17 0 56)) (mkPtok 32 "@rightPad" 16 2 53) (mkPtok 8 "(" 16 12 54) (Some (mkPtok 33 "' '" 16 14 55)) (mkPtok 6 ")" 17 0 56)))] (CheckSumField (mkSpan (mkPtok 42 "tag" 18 4 57) (mkPtok 40 "," 21 4 62)) (mkChecksumFieldDecl (mkSpan (mkPtok 42 "tag" 18 4 57) (mkPtok 40 "," 21 4 62)) None (mkPtok 42 "tag" 18 4 57) (mkCalculatedFrom (mkSpan (mkPtok 5 "@calculatedFrom(" 19 0 58) (mkPtok 6 ")" 19 31 60)) (mkPtok 5 "@calculatedFrom(" 19 0 58) (mkPtok 31 """// no comment""" 19 16 59) (mkPtok 6 ")" 19 31 60)) None (mkPtok 40 "," 21 4 62)))); (mkFieldWithAttr (mkSpan (mkPtok 42 "crc" 21 6 63) (mkPtok 40 "," 21 32 67)) [] (CheckSumField (mkSpan (mkPtok 42 "crc" 21 6 63) (mkPtok 40 "," 21 32 67)) (mkChecksumFieldDecl (mkSpan (mkPtok 42 "crc" 21 6 63) (mkPtok 40 "," 21 32 67)) None (mkPtok 42 "crc" 21 6 63) (mkCalculatedFrom (mkSpan (mkPtok 5 "@calculatedFrom(" 21 10 64) (mkPtok 6 ")" 21 31 66)) (mkPtok 5 "@calculatedFrom(" 21 10 64) (mkPtok 31 (string_of_bytes [34; 92; 195; 169; 34]%N) 21 26 65) (mkPtok 6 ")" 21 31 66)) None (mkPtok 40 "," 21 32 67)))); (mkFieldWithAttr (mkSpan (mkPtok 7 "@lengthOf(" 21 34 68) (mkPtok 40 "," 28 0 80)) [(FALengthOf (mkSpan (mkPtok 7 "@lengthOf(" 21 34 68) (mkPtok 6 ")" 24 0 72)) (mkLengthOf (mkSpan (mkPtok 7 "@lengthOf(" 21 34 68) (mkPtok 6 ")" 24 0 72)) (mkPtok 7 "@lengthOf(" 21 34 68) (mkPtok 42 "u128" 21 45 69) (mkPtok 6 ")" 24 0 72))); (FALengthOf (mkSpan (mkPtok 7 "@lengthOf(" 24 2 73) (mkPtok 6 ")" 25 5 75)) (mkLengthOf (mkSpan (mkPtok 7 "@lengthOf(" 24 2 73) (mkPtok 6 ")" 25 5 75)) (mkPtok 7 "@lengthOf(" 24 2 73) (mkPtok 42 "chars" 25 0 74) (mkPtok 6 ")" 25 5 75)))] (ObjectField (mkSpan (mkPtok 36 "repeat" 26 0 76) (mkPtok 40 "," 28 0 80)) (Some (mkPtok 36 "repeat" 26 0 76)) (mkPtok 42 "lengthOf" 27 4 77) None (Some (mkPtok 43 (string_of_bytes [96; 116; 97; 98; 9; 104; 101; 114; 101; 96]%N) 27 12 78)) (mkPtok 40 "," 28 0 80))); (mkFieldWithAttr (mkSpan (mkPtok 9 "@tag(" 28 2 81) (mkPtok 40 "," 30 10 86)) [(FATag (mkSpan (mkPtok 9 "@tag(" 28 2 81) (mkPtok 6 ")" 28 11 83)) (mkTagAttr (mkSpan (mkPtok 9 "@tag(" 28 2 81) (mkPtok 6 ")" 28 11 83)) (mkPtok 9 "@tag(" 28 2 81) (mkPtok 30 "007" 28 8 82) (mkPtok 6 ")" 28 11 83)))] (MetaField (mkSpan (mkPtok 16 "char[]" 29 4 84) (mkPtok 40 "," 30 10 86)) None (mkMetaDecl (mkSpan (mkPtok 16 "char[]" 29 4 84) (mkPtok 40 "," 30 10 86)) (TyDynamic (mkSpan (mkPtok 16 "char[]" 29 4 84) (mkPtok 16 "char[]" 29 4 84)) (mkDynamicString (mkSpan (mkPtok 16 "char[]" 29 4 84) (mkPtok 16 "char[]" 29 4 84)) (mkPtok 16 "char[]" 29 4 84))) (mkPtok 42 "roots" 30 4 85) None (mkPtok 40 "," 30 10 86)))); (mkFieldWithAttr (mkSpan (mkPtok 5 "@calculatedFrom(" 30 12 87) (mkPtok 40 "," 31 7 96)) [(FACalculatedFrom (mkSpan (mkPtok 5 "@calculatedFrom(" 30 12 87) (mkPtok 6 ")" 30 34 89)) (mkCalculatedFrom (mkSpan (mkPtok 5 "@calculatedFrom(" 30 12 87) (mkPtok 6 ")" 30 34 89)) (mkPtok 5 "@calculatedFrom(" 30 12 87) (mkPtok 31 (string_of_bytes [34; 195; 169; 116; 195; 169; 34]%N) 30 28 88) (mkPtok 6 ")" 30 34 89)))] (MetaField (mkSpan (mkPtok 36 "repeat" 30 36 90) (mkPtok 40 "," 31 7 96)) (Some (mkPtok 36 "repeat" 30 36 90)) (mkMetaDecl (mkSpan (mkPtok 14 "zchar[" 30 43 91) (mkPtok 40 "," 31 7 96)) (TyFixed (mkSpan (mkPtok 14 "zchar[" 30 43 91) (mkPtok 13 "]" 30 52 93)) (mkFixedString (mkSpan (mkPtok 14 "zchar[" 30 43 91) (mkPtok 13 "]" 30 52 93)) (mkPtok 14 "zchar[" 30 43 91) (mkPtok 30 "0" 30 50 92) (mkPtok 13 "]" 30 52 93))) (mkPtok 42 "chars" 30 54 94) (Some (mkPtok 43 (string_of_bytes [96; 99; 114; 108; 102; 13; 10; 108; 105; 110; 101; 96]%N) 30 60 95)) (mkPtok 40 "," 31 7 96)))); (mkFieldWithAttr (mkSpan (mkPtok 5 "@calculatedFrom(" 32 0 98) (mkPtok 40 "," 32 33 102)) [(FACalculatedFrom (mkSpan (mkPtok 5 "@calculatedFrom(" 32 0 98) (mkPtok 6 ")" 32 22 100)) (mkCalculatedFrom (mkSpan (mkPtok 5 "@calculatedFrom(" 32 0 98) (mkPtok 6 ")" 32 22 100)) (mkPtok 5 "@calculatedFrom(" 32 0 98) (mkPtok 31 """a\\""" 32 16 99) (mkPtok 6 ")" 32 22 100)))] (ObjectField (mkSpan (mkPtok 42 "options1" 32 24 101) (mkPtok 40 "," 32 33 102)) None (mkPtok 42 "options1" 32 24 101) None None (mkPtok 40 "," 32 33 102))); (mkFieldWithAttr (mkSpan (mkPtok 32 "@rightPad" 34 4 104) (mkPtok 40 "," 43 2 132)) [(FAPadding (mkSpan (mkPtok 32 "@rightPad" 34 4 104) (mkPtok 6 ")" 35 0 107)) (mkPaddingAttr (mkSpan (mkPtok 32 "@rightPad" 34 4 104) (mkPtok 6 ")" 35 0 107)) (mkPtok 32 "@rightPad" 34 4 104) (mkPtok 8 "(" 34 14 105) None (mkPtok 6 ")" 35 0 107)))] (InerObjectField (mkSpan (mkPtok 42 "Z9_" 36 4 108) (mkPtok 40 "," 43 2 132)) None (InerObjectDecl (mkSpan (mkPtok 42 "Z9_" 36 4 108) (mkPtok 3 "}" 43 0 131)) (mkPtok 42 "Z9_" 36 4 108) (mkPtok 2 "{" 36 8 109) [(LengthField (mkSpan (mkPtok 28 "float32" 36 10 110) (mkPtok 40 "," 38 4 116)) (mkLengthFieldDecl (mkSpan (mkPtok 28 "float32" 36 10 110) (mkPtok 40 "," 38 4 116)) (Some (TyBasic (mkSpan (mkPtok 28 "float32" 36 10 110) (mkPtok 28 "float32" 36 10 110)) (mkBasicType (mkSpan (mkPtok 28 "float32" 36 10 110) (mkPtok 28 "float32" 36 10 110)) (mkPtok 28 "float32" 36 10 110)))) (mkPtok 42 "x_y_z" 36 18 111) (mkLengthOf (mkSpan (mkPtok 7 "@lengthOf(" 36 24 112) (mkPtok 6 ")" 37 0 115)) (mkPtok 7 "@lengthOf(" 36 24 112) (mkPtok 42 "asx" 36 35 113) (mkPtok 6 ")" 37 0 115)) None (mkPtok 40 "," 38 4 116))); (MetaField (mkSpan (mkPtok 36 "repeat" 38 6 117) (mkPtok 40 "," 38 25 120)) (Some (mkPtok 36 "repeat" 38 6 117)) (mkMetaDecl (mkSpan (mkPtok 28 "float32" 38 13 118) (mkPtok 40 "," 38 25 120)) (TyBasic (mkSpan (mkPtok 28 "float32" 38 13 118) (mkPtok 28 "float32" 38 13 118)) (mkBasicType (mkSpan (mkPtok 28 "float32" 38 13 118) (mkPtok 28 "float32" 38 13 118)) (mkPtok 28 "float32" 38 13 118))) (mkPtok 42 "asx" 38 21 119) None (mkPtok 40 "," 38 25 120))); (MetaField (mkSpan (mkPtok 28 "f32" 38 27 121) (mkPtok 40 "," 40 4 124)) None (mkMetaDecl (mkSpan (mkPtok 28 "f32" 38 27 121) (mkPtok 40 "," 40 4 124)) (TyBasic (mkSpan (mkPtok 28 "f32" 38 27 121) (mkPtok 28 "f32" 38 27 121)) (mkBasicType (mkSpan (mkPtok 28 "f32" 38 27 121) (mkPtok 28 "f32" 38 27 121)) (mkPtok 28 "f32" 38 27 121))) (mkPtok 42 "zchar" 38 31 122) (Some (mkPtok 43 (string_of_bytes [96; 230; 182; 136; 230; 129; 175; 231; 177; 187; 229; 158; 139; 96]%N) 39 0 123)) (mkPtok 40 "," 40 4 124))); (MetaField (mkSpan (mkPtok 12 "char[" 40 6 125) (mkPtok 40 "," 42 0 130)) None (mkMetaDecl (mkSpan (mkPtok 12 "char[" 40 6 125) (mkPtok 40 "," 42 0 130)) (TyFixed (mkSpan (mkPtok 12 "char[" 40 6 125) (mkPtok 13 "]" 40 16 127)) (mkFixedString (mkSpan (mkPtok 12 "char[" 40 6 125) (mkPtok 13 "]" 40 16 127)) (mkPtok 12 "char[" 40 6 125) (mkPtok 30 "007" 40 12 126) (mkPtok 13 "]" 40 16 127))) (mkPtok 42 "Packet" 40 18 128) (Some (mkPtok 43 "`a\`" 41 0 129)) (mkPtok 40 "," 42 0 130)))] (mkPtok 3 "}" 43 0 131)) (mkPtok 40 "," 43 2 132)))] (mkPtok 3 "}" 44 0 133)))])).
-Eval vm_compute in ("<<<M556>>>" ++ check (runes_of_ascii "//
-MetaData i8i8 { } root packet
-    roots {
-repeat u16 BodyLength `
-` ,
-    } options {	string_ = """ ++ [233]%N ++ runes_of_ascii "t" ++ [233]%N ++ runes_of_ascii """ ; }
-packet i64_
-{}
-")).
-Eval vm_compute in ("<<<M588>>>" ++ check (runes_of_ascii "packet options1 {
-    @calculatedFrom(// trailing space 
-""" ++ [233]%N ++ runes_of_ascii "t" ++ [233]%N ++ runes_of_ascii """
-)
-@calculatedFrom(""packet"") repeat
-int16
-calculatedFrom
-,
-    @rightPad( ) Z9_
-// `tick` ""quote"" 'q'
-// `tick` ""quote"" 'q'
-@calculatedFrom( """ ++ [128512]%N ++ runes_of_ascii """ )
-`line1
-line2` , int64
-    rootA
-,
-_x@calculatedFrom( ""a	b""
-// `tick` ""quote"" 'q'
-//	t
-)
-    ,	}
-")).
-Eval vm_compute in ("<<<M620>>>" ++ check (runes_of_ascii "packet
-    A{
-    repeatCount
-    {
-    // " ++ [27880; 37322]%N ++ runes_of_ascii "
-    repeat string//	t
-falsey
-`" ++ [233]%N ++ runes_of_ascii "` , x Z9_ //x
-,rootA repeatCount`a\` , repeat // " ++ [128512]%N ++ runes_of_ascii " emoji
-char[]
-x_y_z
-``, }
-,} root packet
-    //
-    int
-    { @calculatedFrom( ""\n"") @calculatedFrom(
-    ""a\\"" // trailing space 
-) repeat lengthOf repeatCount `two words`
-// packet A { u8 x, }
-// c
-,} root packet
-BodyLength {
-@calculatedFrom( ""`tick`"" ) repeat asx { zchar[ 10 ]
-MetaDataX , repeat
-    char[ 4294967296 ] rootA`say ""hi""`
-    , uint64 As
-`" ++ [233]%N ++ runes_of_ascii "` ,
-chars
-u , } ,@tag( 0123456789	) @tag( 0 )string
-roots	`" ++ [28040; 24687; 31867; 22411]%N ++ runes_of_ascii "` ,
-    u8 crc /// triple
-`{ , }` , // a // b
-@calculatedFrom(
-    ""CRC32"")repeat i64_ _x ,
-char Packet , }")).
-Eval vm_compute in ("<<<M652>>>" ++ check (runes_of_ascii "packet float	{i64 u8x @lengthOf(
-    //x
-    leftPad ) // packet A { u8 x, }
-`line1
-line2`
-,}")).
-Eval vm_compute in ("<<<M684>>>" ++ check (runes_of_ascii "
-packet
-calculatedFrom {@lengthOf( Foo	) //
-@calculatedFrom( ""a\""b""
-)lengthOf Foo
-, int8 u8x, @calculatedFrom( """ ++ [28040; 24687]%N ++ runes_of_ascii """ )
-repeat // a // b
-options1 o `" ++ [28040; 24687; 31867; 22411]%N ++ runes_of_ascii "` ,
-    MetaDataX @lengthOf( Logon
-    // trailing space 
-    )
-, } options { crc =
-7 u8x =0 T = ""{,}""; metadata =
-    zchar[ 00
-    ]
-;} 	 ")).
-Eval vm_compute in ("<<<M716>>>" ++ check (runes_of_ascii "
-
-
-")).
-Eval vm_compute in ("<<<M748>>>" ++ check (runes_of_ascii "
-")).
-Eval vm_compute in ("<<<T748>>>" ++ terms [mkTok 0 "<EOF>" 2 0 false] (mkPacket (mkPtok 0 "<EOF>" 2 0 0) None [])).
-Eval vm_compute in ("<<<M780>>>" ++ check (runes_of_ascii "root	packet f32a { }
-")).
-Eval vm_compute in ("<<<M812>>>" ++ check (runes_of_ascii "packet Pad // `tick` ""quote"" 'q'
-{ }
-root
-    packet  f32a { // c
-@calculatedFrom( ""it's"" )@tag( 255 ) match roots as trueish {
-7: tag  ,
-    } ,
-repeat zchar[0
-]  repeatCount
-, }
-")).
-Eval vm_compute in ("<<<M844>>>" ++ check (runes_of_ascii "options { pack= int32 ;}
-")).
-Eval vm_compute in ("<<<M876>>>" ++ check (runes_of_ascii "
-")).
-Eval vm_compute in ("<<<M908>>>" ++ check (runes_of_ascii "options// trailing space 
-{ o =	007
-    // packet A { u8 x, }
-    ;
-}
-    root packet options1 {//
-@rightPad () zchar[ 65535 ] x, @lengthOf( lengthOf	)x metadata // @lengthOf(
-, // `tick` ""quote"" 'q'
-@tag(
-007  )int64
-uint8x
-// @lengthOf(
-//x
-@lengthOf(i64_ )//x
-`a\`, @calculatedFrom(""1"" )	@tag(
-007 ) repeat	u32 metadata
-, // a // b
-match
-    As
-as rootA {
-""a\""b"" :As
-,
-} ,@calculatedFrom(
-""CRC32"" ) uint16 As
-@calculatedFrom(
-    ""a	b"")
-`" ++ [28040; 24687; 31867; 22411]%N ++ runes_of_ascii "` ,@lengthOf( A) u int `" ++ [233]%N ++ runes_of_ascii "`, i64_ MetaDataX , leftPad
-    , @lengthOf(
-_x) body `two words` ,
-    } MetaData repeatCount
-{ charz	packetx ,  float32 f32a ,
-}
-")).
-Eval vm_compute in ("<<<M940>>>" ++ check (runes_of_ascii "root packet A { @tag( 42	)
-    match // @lengthOf(
-Logon as rootA { 0123456789
-: int } ,
-repeat char[]
-uint8x `crlf
-line`, int {
-// `tick` ""quote"" 'q'
-//
-repeat
-f64 Packet , uint8x  @calculatedFrom(
-    ""1"" ) , string  x `it's` , }	, @lengthOf( Foo )
-@calculatedFrom(""a	b""
-) @lengthOf( body)
-metadata {match	pack as matchKey { ""x y"" : falsey , ""it's"" //
-: Header}	, body {
-char[] len  , /// triple
-} , }
-, char[
-    // a // b
-    0123456789
-    ]	T
-    // " ++ [128512]%N ++ runes_of_ascii " emoji
-    @calculatedFrom(
-    ""`tick`"" )
-    , }options{ len =' '	} MetaData
-As {
-    f64 As , char[ 0123456789 ] x
-,}
-")).
-Eval vm_compute in ("<<<M972>>>" ++ check (runes_of_ascii "packet asx {
-@calculatedFrom( ""x y"" ) packetx	stringy ,	}MetaData As
-{ int8
-    float `" ++ [233]%N ++ runes_of_ascii "`,
-int
-uint8x, zchar[ 007  ] a1 `two words` ,
-// a // b
-/// triple
-char[	10
-]msg_type	, uint32 matchKey `say ""hi""` ,
-// `tick` ""quote"" 'q'
-//x
-i32 zchar,
-    } options {
-}")).
-Eval vm_compute in ("<<<T972>>>" ++ terms [mkTok 35 "packet" 1 0 false; mkTok 42 "asx" 1 7 false; mkTok 2 "{" 1 11 false; mkTok 5 "@calculatedFrom(" 2 0 false; mkTok 31 """x y""" 2 17 false; mkTok 6 ")" 2 23 false; mkTok 42 "packetx" 2 25 false; mkTok 42 "stringy" 2 33 false; mkTok 40 "," 2 41 false; mkTok 3 "}" 2 43 false; mkTok 37 "MetaData" 2 44 false; mkTok 42 "As" 2 53 false; mkTok 2 "{" 3 0 false; mkTok 24 "int8" 3 2 false; mkTok 42 "float" 4 4 false; mkTok 43 (string_of_bytes [96; 195; 169; 96]%N) 4 10 false; mkTok 40 "," 4 13 false; mkTok 42 "int" 5 0 false; mkTok 42 "uint8x" 6 0 false; mkTok 40 "," 6 6 false; mkTok 14 "zchar[" 6 8 false; mkTok 30 "007" 6 15 false; mkTok 13 "]" 6 20 false; mkTok 42 "a1" 6 22 false; mkTok 43 "`two words`" 6 25 false; mkTok 40 "," 6 37 false; mkTok 44 "// a // b" 7 0 true; mkTok 44 "/// triple" 8 0 true; mkTok 12 "char[" 9 0 false; mkTok 30 "10" 9 6 false; mkTok 13 "]" 10 0 false; mkTok 42 "msg_type" 10 1 false; mkTok 40 "," 10 10 false; mkTok 22 "uint32" 10 12 false; mkTok 42 "matchKey" 10 19 false; mkTok 43 "`say ""hi""`" 10 28 false; mkTok 40 "," 10 39 false; mkTok 44 "// `tick` ""quote"" 'q'" 11 0 true; mkTok 44 "//x" 12 0 true; mkTok 26 "i32" 13 0 false; mkTok 42 "zchar" 13 4 false; mkTok 40 "," 13 9 false; mkTok 3 "}" 14 4 false; mkTok 1 "options" 14 6 false; mkTok 2 "{" 14 14 false; mkTok 3 "}" 15 0 false; mkTok 0 "<EOF>" 15 1 false] (mkPacket (mkPtok 35 "packet" 1 0 0) (Some (mkPtok 3 "}" 15 0 45)) [(DPacket (mkPacketDef (mkSpan (mkPtok 35 "packet" 1 0 0) (mkPtok 3 "}" 2 43 9)) None (mkPtok 35 "packet" 1 0 0) (mkPtok 42 "asx" 1 7 1) (mkPtok 2 "{" 1 11 2) [(mkFieldWithAttr (mkSpan (mkPtok 5 "@calculatedFrom(" 2 0 3) (mkPtok 40 "," 2 41 8)) [(FACalculatedFrom (mkSpan (mkPtok 5 "@calculatedFrom(" 2 0 3) (mkPtok 6 ")" 2 23 5)) (mkCalculatedFrom (mkSpan (mkPtok 5 "@calculatedFrom(" 2 0 3) (mkPtok 6 ")" 2 23 5)) (mkPtok 5 "@calculatedFrom(" 2 0 3) (mkPtok 31 """x y""" 2 17 4) (mkPtok 6 ")" 2 23 5)))] (ObjectField (mkSpan (mkPtok 42 "packetx" 2 25 6) (mkPtok 40 "," 2 41 8)) None (mkPtok 42 "packetx" 2 25 6) (Some (mkPtok 42 "stringy" 2 33 7)) None (mkPtok 40 "," 2 41 8)))] (mkPtok 3 "}" 2 43 9))); (DMeta (mkMetaDef (mkSpan (mkPtok 37 "MetaData" 2 44 10) (mkPtok 3 "}" 14 4 42)) (mkPtok 37 "MetaData" 2 44 10) (mkPtok 42 "As" 2 53 11) (mkPtok 2 "{" 3 0 12) [(MIDecl (mkMetaDecl (mkSpan (mkPtok 24 "int8" 3 2 13) (mkPtok 40 "," 4 13 16)) (TyBasic (mkSpan (mkPtok 24 "int8" 3 2 13) (mkPtok 24 "int8" 3 2 13)) (mkBasicType (mkSpan (mkPtok 24 "int8" 3 2 13) (mkPtok 24 "int8" 3 2 13)) (mkPtok 24 "int8" 3 2 13))) (mkPtok 42 "float" 4 4 14) (Some (mkPtok 43 (string_of_bytes [96; 195; 169; 96]%N) 4 10 15)) (mkPtok 40 "," 4 13 16))); (MIRef (mkRefMetaDecl (mkSpan (mkPtok 42 "int" 5 0 17) (mkPtok 40 "," 6 6 19)) (mkPtok 42 "int" 5 0 17) (mkPtok 42 "uint8x" 6 0 18) None (mkPtok 40 "," 6 6 19))); (MIDecl (mkMetaDecl (mkSpan (mkPtok 14 "zchar[" 6 8 20) (mkPtok 40 "," 6 37 25)) (TyFixed (mkSpan (mkPtok 14 "zchar[" 6 8 20) (mkPtok 13 "]" 6 20 22)) (mkFixedString (mkSpan (mkPtok 14 "zchar[" 6 8 20) (mkPtok 13 "]" 6 20 22)) (mkPtok 14 "zchar[" 6 8 20) (mkPtok 30 "007" 6 15 21) (mkPtok 13 "]" 6 20 22))) (mkPtok 42 "a1" 6 22 23) (Some (mkPtok 43 "`two words`" 6 25 24)) (mkPtok 40 "," 6 37 25))); (MIDecl (mkMetaDecl (mkSpan (mkPtok 12 "char[" 9 0 28) (mkPtok 40 "," 10 10 32)) (TyFixed (mkSpan (mkPtok 12 "char[" 9 0 28) (mkPtok 13 "]" 10 0 30)) (mkFixedString (mkSpan (mkPtok 12 "char[" 9 0 28) (mkPtok 13 "]" 10 0 30)) (mkPtok 12 "char[" 9 0 28) (mkPtok 30 "10" 9 6 29) (mkPtok 13 "]" 10 0 30))) (mkPtok 42 "msg_type" 10 1 31) None (mkPtok 40 "," 10 10 32))); (MIDecl (mkMetaDecl (mkSpan (mkPtok 22 "uint32" 10 12 33) (mkPtok 40 "," 10 39 36)) (TyBasic (mkSpan (mkPtok 22 "uint32" 10 12 33) (mkPtok 22 "uint32" 10 12 33)) (mkBasicType (mkSpan (mkPtok 22 "uint32" 10 12 33) (mkPtok 22 "uint32" 10 12 33)) (mkPtok 22 "uint32" 10 12 33))) (mkPtok 42 "matchKey" 10 19 34) (Some (mkPtok 43 "`say ""hi""`" 10 28 35)) (mkPtok 40 "," 10 39 36))); (MIDecl (mkMetaDecl (mkSpan (mkPtok 26 "i32" 13 0 39) (mkPtok 40 "," 13 9 41)) (TyBasic (mkSpan (mkPtok 26 "i32" 13 0 39) (mkPtok 26 "i32" 13 0 39)) (mkBasicType (mkSpan (mkPtok 26 "i32" 13 0 39) (mkPtok 26 "i32" 13 0 39)) (mkPtok 26 "i32" 13 0 39))) (mkPtok 42 "zchar" 13 4 40) None (mkPtok 40 "," 13 9 41)))] (mkPtok 3 "}" 14 4 42))); (DOption (mkOptionDef (mkSpan (mkPtok 1 "options" 14 6 43) (mkPtok 3 "}" 15 0 45)) (mkPtok 1 "options" 14 6 43) (mkPtok 2 "{" 14 14 44) [] (mkPtok 3 "}" 15 0 45)))])).
-Eval vm_compute in ("<<<M1004>>>" ++ check (runes_of_ascii "
-")).
-Eval vm_compute in ("<<<M1036>>>" ++ check (runes_of_ascii "// c
-root packet o{ @tag( 42
-) a1
-, }
-options { asx
-=char[ 0	]
-/// triple
-// `tick` ""quote"" 'q'
-;
-int =
-    // c
-    '\x00' ;_x	=
-""it's""	packetx // a // b
-= ""// no comment""  u8x = """ ++ [233]%N ++ runes_of_ascii "t" ++ [233]%N ++ runes_of_ascii """ } root// trailing space 
-packet T { @lengthOf( float )match falsey
-//	t
-// trailing space 
-as  matchKey {
-""a\\""
-: x_y_z
-// a // b
-// `tick` ""quote"" 'q'
-,
-    //x
-    } //
-, } options // a // b
-{ zchar = 0// trailing space 
-repeatCount= uint64
-    ;// a // b
-}")).
-Eval vm_compute in ("<<<M1068>>>" ++ check (runes_of_ascii " // " ++ [27880; 37322]%N)).
-Eval vm_compute in ("<<<M1100>>>" ++ check (runes_of_ascii "root
-packet BodyLength { match tag as
-float  {10 ://x
-a1, }
-,char[255 ] Z9_	`" ++ [28040; 24687; 31867; 22411]%N ++ runes_of_ascii "`
-    , // @lengthOf(
-@calculatedFrom( ""packet""	) int64 packetx @calculatedFrom( ""{,}"" // @lengthOf(
-)
-`doc`	, }packet
-    x
-{	} packet
-    roots
-// " ++ [27880; 37322]%N ++ runes_of_ascii "
-//	t
-{
-    @tag( 0)repeat
-    chars `doc` , }
-")).
-Eval vm_compute in ("<<<M1132>>>" ++ check (runes_of_ascii "packet falsey { }
-    packet
-    stringy
-    { repeatCount //	t
-@calculatedFrom(  ""a	b"" //x
-) ,
-@lengthOf( string_ )
-    repeat i64_ metadata
-`
-` /// triple
-, }
-")).
-Eval vm_compute in ("<<<M1164>>>" ++ check (runes_of_ascii "root packet Logon { string MetaDataX @calculatedFrom( ""\" ++ [233]%N ++ runes_of_ascii """ )// a // b
-`two words` , @leftPad
-( '\x00' //x
-) len a1 , // @lengthOf(
-@tag( 0123456789 )
-    repeat char[]
-f32a , repeat uint16 pack
-    ,}
-MetaData
-rootA { BodyLength Z9_ `{ , }` ,
-    zchar[65535 ] u ,
-}
-")).
-Eval vm_compute in ("<<<M1196>>>" ++ check (runes_of_ascii "options{ tag
-    =10// @lengthOf(
-u =00  stringy =	""`tick`"" ;} options { MetaDataX=
-    1 } // packet A { u8 x, }
-options{ lengthOf=
-255 ; int =  ""// no comment"" ;	falsey// packet A { u8 x, }
-= zchar[ 3
-    ] ;
-    // @lengthOf(
-    } MetaData asx { }
-MetaData a1{ int16 x_y_z , lengthOf matchKey ,	uint8 u128
-, x packetx , i32 charz, repeatCount As , }")).
-Eval vm_compute in ("<<<T1196>>>" ++ terms [mkTok 1 "options" 1 0 false; mkTok 2 "{" 1 7 false; mkTok 42 "tag" 1 9 false; mkTok 4 "=" 2 4 false; mkTok 30 "10" 2 5 false; mkTok 44 "// @lengthOf(" 2 7 true; mkTok 42 "u" 3 0 false; mkTok 4 "=" 3 2 false; mkTok 30 "00" 3 3 false; mkTok 42 "stringy" 3 7 false; mkTok 4 "=" 3 15 false; mkTok 31 """`tick`""" 3 17 false; mkTok 41 ";" 3 26 false; mkTok 3 "}" 3 27 false; mkTok 1 "options" 3 29 false; mkTok 2 "{" 3 37 false; mkTok 42 "MetaDataX" 3 39 false; mkTok 4 "=" 3 48 false; mkTok 30 "1" 4 4 false; mkTok 3 "}" 4 6 false; mkTok 44 "// packet A { u8 x, }" 4 8 true; mkTok 1 "options" 5 0 false; mkTok 2 "{" 5 7 false; mkTok 42 "lengthOf" 5 9 false; mkTok 4 "=" 5 17 false; mkTok 30 "255" 6 0 false; mkTok 41 ";" 6 4 false; mkTok 42 "int" 6 6 false; mkTok 4 "=" 6 10 false; mkTok 31 """// no comment""" 6 13 false; mkTok 41 ";" 6 29 false; mkTok 42 "falsey" 6 31 false; mkTok 44 "// packet A { u8 x, }" 6 37 true; mkTok 4 "=" 7 0 false; mkTok 14 "zchar[" 7 2 false; mkTok 30 "3" 7 9 false; mkTok 13 "]" 8 4 false; mkTok 41 ";" 8 6 false; mkTok 44 "// @lengthOf(" 9 4 true; mkTok 3 "}" 10 4 false; mkTok 37 "MetaData" 10 6 false; mkTok 42 "asx" 10 15 false; mkTok 2 "{" 10 19 false; mkTok 3 "}" 10 21 false; mkTok 37 "MetaData" 11 0 false; mkTok 42 "a1" 11 9 false; mkTok 2 "{" 11 11 false; mkTok 25 "int16" 11 13 false; mkTok 42 "x_y_z" 11 19 false; mkTok 40 "," 11 25 false; mkTok 42 "lengthOf" 11 27 false; mkTok 42 "matchKey" 11 36 false; mkTok 40 "," 11 45 false; mkTok 20 "uint8" 11 47 false; mkTok 42 "u128" 11 53 false; mkTok 40 "," 12 0 false; mkTok 42 "x" 12 2 false; mkTok 42 "packetx" 12 4 false; mkTok 40 "," 12 12 false; mkTok 26 "i32" 12 14 false; mkTok 42 "charz" 12 18 false; mkTok 40 "," 12 23 false; mkTok 42 "repeatCount" 12 25 false; mkTok 42 "As" 12 37 false; mkTok 40 "," 12 40 false; mkTok 3 "}" 12 42 false; mkTok 0 "<EOF>" 12 43 false] (mkPacket (mkPtok 1 "options" 1 0 0) (Some (mkPtok 3 "}" 12 42 65)) [(DOption (mkOptionDef (mkSpan (mkPtok 1 "options" 1 0 0) (mkPtok 3 "}" 3 27 13)) (mkPtok 1 "options" 1 0 0) (mkPtok 2 "{" 1 7 1) [(mkOptionDecl (mkSpan (mkPtok 42 "tag" 1 9 2) (mkPtok 30 "10" 2 5 4)) (mkPtok 42 "tag" 1 9 2) (mkPtok 4 "=" 2 4 3) (VDigits (mkSpan (mkPtok 30 "10" 2 5 4) (mkPtok 30 "10" 2 5 4)) (mkPtok 30 "10" 2 5 4)) None); (mkOptionDecl (mkSpan (mkPtok 42 "u" 3 0 6) (mkPtok 30 "00" 3 3 8)) (mkPtok 42 "u" 3 0 6) (mkPtok 4 "=" 3 2 7) (VDigits (mkSpan (mkPtok 30 "00" 3 3 8) (mkPtok 30 "00" 3 3 8)) (mkPtok 30 "00" 3 3 8)) None); (mkOptionDecl (mkSpan (mkPtok 42 "stringy" 3 7 9) (mkPtok 41 ";" 3 26 12)) (mkPtok 42 "stringy" 3 7 9) (mkPtok 4 "=" 3 15 10) (VString (mkSpan (mkPtok 31 """`tick`""" 3 17 11) (mkPtok 31 """`tick`""" 3 17 11)) (mkPtok 31 """`tick`""" 3 17 11)) (Some (mkPtok 41 ";" 3 26 12)))] (mkPtok 3 "}" 3 27 13))); (DOption (mkOptionDef (mkSpan (mkPtok 1 "options" 3 29 14) (mkPtok 3 "}" 4 6 19)) (mkPtok 1 "options" 3 29 14) (mkPtok 2 "{" 3 37 15) [(mkOptionDecl (mkSpan (mkPtok 42 "MetaDataX" 3 39 16) (mkPtok 30 "1" 4 4 18)) (mkPtok 42 "MetaDataX" 3 39 16) (mkPtok 4 "=" 3 48 17) (VDigits (mkSpan (mkPtok 30 "1" 4 4 18) (mkPtok 30 "1" 4 4 18)) (mkPtok 30 "1" 4 4 18)) None)] (mkPtok 3 "}" 4 6 19))); (DOption (mkOptionDef (mkSpan (mkPtok 1 "options" 5 0 21) (mkPtok 3 "}" 10 4 39)) (mkPtok 1 "options" 5 0 21) (mkPtok 2 "{" 5 7 22) [(mkOptionDecl (mkSpan (mkPtok 42 "lengthOf" 5 9 23) (mkPtok 41 ";" 6 4 26)) (mkPtok 42 "lengthOf" 5 9 23) (mkPtok 4 "=" 5 17 24) (VDigits (mkSpan (mkPtok 30 "255" 6 0 25) (mkPtok 30 "255" 6 0 25)) (mkPtok 30 "255" 6 0 25)) (Some (mkPtok 41 ";" 6 4 26))); (mkOptionDecl (mkSpan (mkPtok 42 "int" 6 6 27) (mkPtok 41 ";" 6 29 30)) (mkPtok 42 "int" 6 6 27) (mkPtok 4 "=" 6 10 28) (VString (mkSpan (mkPtok 31 """// no comment""" 6 13 29) (mkPtok 31 """// no comment""" 6 13 29)) (mkPtok 31 """// no comment""" 6 13 29)) (Some (mkPtok 41 ";" 6 29 30))); (mkOptionDecl (mkSpan (mkPtok 42 "falsey" 6 31 31) (mkPtok 41 ";" 8 6 37)) (mkPtok 42 "falsey" 6 31 31) (mkPtok 4 "=" 7 0 33) (VType (mkSpan (mkPtok 14 "zchar[" 7 2 34) (mkPtok 13 "]" 8 4 36)) (TyFixed (mkSpan (mkPtok 14 "zchar[" 7 2 34) (mkPtok 13 "]" 8 4 36)) (mkFixedString (mkSpan (mkPtok 14 "zchar[" 7 2 34) (mkPtok 13 "]" 8 4 36)) (mkPtok 14 "zchar[" 7 2 34) (mkPtok 30 "3" 7 9 35) (mkPtok 13 "]" 8 4 36)))) (Some (mkPtok 41 ";" 8 6 37)))] (mkPtok 3 "}" 10 4 39))); (DMeta (mkMetaDef (mkSpan (mkPtok 37 "MetaData" 10 6 40) (mkPtok 3 "}" 10 21 43)) (mkPtok 37 "MetaData" 10 6 40) (mkPtok 42 "asx" 10 15 41) (mkPtok 2 "{" 10 19 42) [] (mkPtok 3 "}" 10 21 43))); (DMeta (mkMetaDef (mkSpan (mkPtok 37 "MetaData" 11 0 44) (mkPtok 3 "}" 12 42 65)) (mkPtok 37 "MetaData" 11 0 44) (mkPtok 42 "a1" 11 9 45) (mkPtok 2 "{" 11 11 46) [(MIDecl (mkMetaDecl (mkSpan (mkPtok 25 "int16" 11 13 47) (mkPtok 40 "," 11 25 49)) (TyBasic (mkSpan (mkPtok 25 "int16" 11 13 47) (mkPtok 25 "int16" 11 13 47)) (mkBasicType (mkSpan (mkPtok 25 "int16" 11 13 47) (mkPtok 25 "int16" 11 13 47)) (mkPtok 25 "int16" 11 13 47))) (mkPtok 42 "x_y_z" 11 19 48) None (mkPtok 40 "," 11 25 49))); (MIRef (mkRefMetaDecl (mkSpan (mkPtok 42 "lengthOf" 11 27 50) (mkPtok 40 "," 11 45 52)) (mkPtok 42 "lengthOf" 11 27 50) (mkPtok 42 "matchKey" 11 36 51) None (mkPtok 40 "," 11 45 52))); (MIDecl (mkMetaDecl (mkSpan (mkPtok 20 "uint8" 11 47 53) (mkPtok 40 "," 12 0 55)) (TyBasic (mkSpan (mkPtok 20 "uint8" 11 47 53) (mkPtok 20 "uint8" 11 47 53)) (mkBasicType (mkSpan (mkPtok 20 "uint8" 11 47 53) (mkPtok 20 "uint8" 11 47 53)) (mkPtok 20 "uint8" 11 47 53))) (mkPtok 42 "u128" 11 53 54) None (mkPtok 40 "," 12 0 55))); (MIRef (mkRefMetaDecl (mkSpan (mkPtok 42 "x" 12 2 56) (mkPtok 40 "," 12 12 58)) (mkPtok 42 "x" 12 2 56) (mkPtok 42 "packetx" 12 4 57) None (mkPtok 40 "," 12 12 58))); (MIDecl (mkMetaDecl (mkSpan (mkPtok 26 "i32" 12 14 59) (mkPtok 40 "," 12 23 61)) (TyBasic (mkSpan (mkPtok 26 "i32" 12 14 59) (mkPtok 26 "i32" 12 14 59)) (mkBasicType (mkSpan (mkPtok 26 "i32" 12 14 59) (mkPtok 26 "i32" 12 14 59)) (mkPtok 26 "i32" 12 14 59))) (mkPtok 42 "charz" 12 18 60) None (mkPtok 40 "," 12 23 61))); (MIRef (mkRefMetaDecl (mkSpan (mkPtok 42 "repeatCount" 12 25 62) (mkPtok 40 "," 12 40 64)) (mkPtok 42 "repeatCount" 12 25 62) (mkPtok 42 "As" 12 37 63) None (mkPtok 40 "," 12 40 64)))] (mkPtok 3 "}" 12 42 65)))])).
-Eval vm_compute in ("<<<M1228>>>" ++ check (runes_of_ascii "packet
-i8i8
-    { }
-// c
-")).
-Eval vm_compute in ("<<<M1260>>>" ++ check (runes_of_ascii "/// triple
-options
-{ Z9_ =
-007;
-// a // b
-//
-Pad =0123456789
-u  = ""CRC32""
-    }
-")).
-Eval vm_compute in ("<<<M1292>>>" ++ check (runes_of_ascii "// " ++ [27880; 37322]%N ++ runes_of_ascii "
-MetaData msg_type{} MetaData Pad
-    { int64 Header
-,
-} MetaData matchKey { } //")).
-Eval vm_compute in ("<<<M1324>>>" ++ check (runes_of_ascii "options {
-options1 =
-    4294967296 ;
-    }
-    root packet crc
-// trailing space 
-// " ++ [27880; 37322]%N ++ runes_of_ascii "
-{@calculatedFrom(
-//
-// `tick` ""quote"" 'q'
-""a\""b"")
-    zchar[
-255
-] u8x
-    // a // b
-    @lengthOf( //
-u8x
-) `u8 x,`// " ++ [128512]%N ++ runes_of_ascii " emoji
-,
-repeat int16
-    x_y_z ,  calculatedFrom@lengthOf(
-    x_y_z )
-    ,
-    //
-    @rightPad ( ' ' ) repeat char[] calculatedFrom ,
-    repeat
-Foo rootA
-`// not a comment` , }
-")).
-Eval vm_compute in ("<<<M1356>>>" ++ check (runes_of_ascii "root packet metadata{ @calculatedFrom( ""it's"")match
-    Foo as a1{ ""{,}"" :
-    len,
-0123456789 :
-pack ,
+char[
     4294967296
-:len ,
-0123456789 :matchKey
-, [ ""it's"" ]	:o//	t
-}, //
-@calculatedFrom(""""
-//	t
+    ] u128 , u128 repeatCount`
+`, @lengthOf(rootA )int64 Pad
+    @calculatedFrom( ""x y""
 // " ++ [128512]%N ++ runes_of_ascii " emoji
-) body {	repeat// trailing space 
-float64  zchar `it's` , repeat float zchar// " ++ [27880; 37322]%N ++ runes_of_ascii "
-`// not a comment` , } , } MetaData _x {
-    crc A // a // b
-, char[]repeatCount `two words`,
-uint8x u128 , o rootA `two words`
-    , }")).
-Eval vm_compute in ("<<<M1388>>>" ++ check (runes_of_ascii "options
-    {metadata
-    /// triple
-    =string ; }packet
-Header{@leftPad ( ' '
-)string//	t
-i8i8 `it's`
-// `tick` ""quote"" 'q'
-// `tick` ""quote"" 'q'
+// 50% %s
+), @lengthOf(
+int)repeat As ,stringy
+`u8 x,` ,
+    @leftPad( '0' )uint32 // @lengthOf(
+A
 ,
-@lengthOf(// " ++ [27880; 37322]%N ++ runes_of_ascii "
-roots )	u
-@calculatedFrom( """ ++ [128512]%N ++ runes_of_ascii """ )
-, @tag(65535 // packet A { u8 x, }
+}root packet string_ // " ++ [27880; 37322]%N ++ runes_of_ascii "
+{ }")).
+Eval vm_compute in ("<<<M76>>>" ++ check (runes_of_ascii "options {Packet
+= true ; f32a = u8
+    ; }packet
+    // `tick` ""quote"" 'q'
+    matchKey	{ @lengthOf( /// triple
+A
+)packetx ``
+    ,
+    string //
+BodyLength ,@tag( 42 ) float32
+Z9_
+@calculatedFrom(	""\n"" )
+`" ++ [28040; 24687; 31867; 22411]%N ++ runes_of_ascii "` , repeat zchar[	0123456789
+    // c
+    ]  chars ,int16 charz@lengthOf( body
+)
+`" ++ [233]%N ++ runes_of_ascii "` , repeat u8x msg_type
+, }
+")).
+Eval vm_compute in ("<<<T76>>>" ++ terms [mkTok 1 "options" 1 0 false; mkTok 2 "{" 1 8 false; mkTok 42 "Packet" 1 9 false; mkTok 4 "=" 2 0 false; mkTok 10 "true" 2 2 false; mkTok 41 ";" 2 7 false; mkTok 42 "f32a" 2 9 false; mkTok 4 "=" 2 14 false; mkTok 20 "u8" 2 16 false; mkTok 41 ";" 3 4 false; mkTok 3 "}" 3 6 false; mkTok 35 "packet" 3 7 false; mkTok 44 "// `tick` ""quote"" 'q'" 4 4 true; mkTok 42 "matchKey" 5 4 false; mkTok 2 "{" 5 13 false; mkTok 7 "@lengthOf(" 5 15 false; mkTok 44 "/// triple" 5 26 true; mkTok 42 "A" 6 0 false; mkTok 6 ")" 7 0 false; mkTok 42 "packetx" 7 1 false; mkTok 43 "``" 7 9 false; mkTok 40 "," 8 4 false; mkTok 15 "string" 9 4 false; mkTok 44 "//" 9 11 true; mkTok 42 "BodyLength" 10 0 false; mkTok 40 "," 10 11 false; mkTok 9 "@tag(" 10 12 false; mkTok 30 "42" 10 18 false; mkTok 6 ")" 10 21 false; mkTok 28 "float32" 10 23 false; mkTok 42 "Z9_" 11 0 false; mkTok 5 "@calculatedFrom(" 12 0 false; mkTok 31 """\n""" 12 17 false; mkTok 6 ")" 12 22 false; mkTok 43 (string_of_bytes [96; 230; 182; 136; 230; 129; 175; 231; 177; 187; 229; 158; 139; 96]%N) 13 0 false; mkTok 40 "," 13 7 false; mkTok 36 "repeat" 13 9 false; mkTok 14 "zchar[" 13 16 false; mkTok 30 "0123456789" 13 23 false; mkTok 44 "// c" 14 4 true; mkTok 13 "]" 15 4 false; mkTok 42 "chars" 15 7 false; mkTok 40 "," 15 13 false; mkTok 25 "int16" 15 14 false; mkTok 42 "charz" 15 20 false; mkTok 7 "@lengthOf(" 15 25 false; mkTok 42 "body" 15 36 false; mkTok 6 ")" 16 0 false; mkTok 43 (string_of_bytes [96; 195; 169; 96]%N) 17 0 false; mkTok 40 "," 17 4 false; mkTok 36 "repeat" 17 6 false; mkTok 42 "u8x" 17 13 false; mkTok 42 "msg_type" 17 17 false; mkTok 40 "," 18 0 false; mkTok 3 "}" 18 2 false; mkTok 0 "<EOF>" 19 0 false] (mkPacket (mkPtok 1 "options" 1 0 0) (Some (mkPtok 3 "}" 18 2 54)) [(DOption (mkOptionDef (mkSpan (mkPtok 1 "options" 1 0 0) (mkPtok 3 "}" 3 6 10)) (mkPtok 1 "options" 1 0 0) (mkPtok 2 "{" 1 8 1) [(mkOptionDecl (mkSpan (mkPtok 42 "Packet" 1 9 2) (mkPtok 41 ";" 2 7 5)) (mkPtok 42 "Packet" 1 9 2) (mkPtok 4 "=" 2 0 3) (VTrue (mkSpan (mkPtok 10 "true" 2 2 4) (mkPtok 10 "true" 2 2 4)) (mkPtok 10 "true" 2 2 4)) (Some (mkPtok 41 ";" 2 7 5))); (mkOptionDecl (mkSpan (mkPtok 42 "f32a" 2 9 6) (mkPtok 41 ";" 3 4 9)) (mkPtok 42 "f32a" 2 9 6) (mkPtok 4 "=" 2 14 7) (VType (mkSpan (mkPtok 20 "u8" 2 16 8) (mkPtok 20 "u8" 2 16 8)) (TyBasic (mkSpan (mkPtok 20 "u8" 2 16 8) (mkPtok 20 "u8" 2 16 8)) (mkBasicType (mkSpan (mkPtok 20 "u8" 2 16 8) (mkPtok 20 "u8" 2 16 8)) (mkPtok 20 "u8" 2 16 8)))) (Some (mkPtok 41 ";" 3 4 9)))] (mkPtok 3 "}" 3 6 10))); (DPacket (mkPacketDef (mkSpan (mkPtok 35 "packet" 3 7 11) (mkPtok 3 "}" 18 2 54)) None (mkPtok 35 "packet" 3 7 11) (mkPtok 42 "matchKey" 5 4 13) (mkPtok 2 "{" 5 13 14) [(mkFieldWithAttr (mkSpan (mkPtok 7 "@lengthOf(" 5 15 15) (mkPtok 40 "," 8 4 21)) [(FALengthOf (mkSpan (mkPtok 7 "@lengthOf(" 5 15 15) (mkPtok 6 ")" 7 0 18)) (mkLengthOf (mkSpan (mkPtok 7 "@lengthOf(" 5 15 15) (mkPtok 6 ")" 7 0 18)) (mkPtok 7 "@lengthOf(" 5 15 15) (mkPtok 42 "A" 6 0 17) (mkPtok 6 ")" 7 0 18)))] (ObjectField (mkSpan (mkPtok 42 "packetx" 7 1 19) (mkPtok 40 "," 8 4 21)) None (mkPtok 42 "packetx" 7 1 19) None (Some (mkPtok 43 "``" 7 9 20)) (mkPtok 40 "," 8 4 21))); (mkFieldWithAttr (mkSpan (mkPtok 15 "string" 9 4 22) (mkPtok 40 "," 10 11 25)) [] (MetaField (mkSpan (mkPtok 15 "string" 9 4 22) (mkPtok 40 "," 10 11 25)) None (mkMetaDecl (mkSpan (mkPtok 15 "string" 9 4 22) (mkPtok 40 "," 10 11 25)) (TyDynamic (mkSpan (mkPtok 15 "string" 9 4 22) (mkPtok 15 "string" 9 4 22)) (mkDynamicString (mkSpan (mkPtok 15 "string" 9 4 22) (mkPtok 15 "string" 9 4 22)) (mkPtok 15 "string" 9 4 22))) (mkPtok 42 "BodyLength" 10 0 24) None (mkPtok 40 "," 10 11 25)))); (mkFieldWithAttr (mkSpan (mkPtok 9 "@tag(" 10 12 26) (mkPtok 40 "," 13 7 35)) [(FATag (mkSpan (mkPtok 9 "@tag(" 10 12 26) (mkPtok 6 ")" 10 21 28)) (mkTagAttr (mkSpan (mkPtok 9 "@tag(" 10 12 26) (mkPtok 6 ")" 10 21 28)) (mkPtok 9 "@tag(" 10 12 26) (mkPtok 30 "42" 10 18 27) (mkPtok 6 ")" 10 21 28)))] (CheckSumField (mkSpan (mkPtok 28 "float32" 10 23 29) (mkPtok 40 "," 13 7 35)) (mkChecksumFieldDecl (mkSpan (mkPtok 28 "float32" 10 23 29) (mkPtok 40 "," 13 7 35)) (Some (TyBasic (mkSpan (mkPtok 28 "float32" 10 23 29) (mkPtok 28 "float32" 10 23 29)) (mkBasicType (mkSpan (mkPtok 28 "float32" 10 23 29) (mkPtok 28 "float32" 10 23 29)) (mkPtok 28 "float32" 10 23 29)))) (mkPtok 42 "Z9_" 11 0 30) (mkCalculatedFrom (mkSpan (mkPtok 5 "@calculatedFrom(" 12 0 31) (mkPtok 6 ")" 12 22 33)) (mkPtok 5 "@calculatedFrom(" 12 0 31) (mkPtok 31 """\n""" 12 17 32) (mkPtok 6 ")" 12 22 33)) (Some (mkPtok 43 (string_of_bytes [96; 230; 182; 136; 230; 129; 175; 231; 177; 187; 229; 158; 139; 96]%N) 13 0 34)) (mkPtok 40 "," 13 7 35)))); (mkFieldWithAttr (mkSpan (mkPtok 36 "repeat" 13 9 36) (mkPtok 40 "," 15 13 42)) [] (MetaField (mkSpan (mkPtok 36 "repeat" 13 9 36) (mkPtok 40 "," 15 13 42)) (Some (mkPtok 36 "repeat" 13 9 36)) (mkMetaDecl (mkSpan (mkPtok 14 "zchar[" 13 16 37) (mkPtok 40 "," 15 13 42)) (TyFixed (mkSpan (mkPtok 14 "zchar[" 13 16 37) (mkPtok 13 "]" 15 4 40)) (mkFixedString (mkSpan (mkPtok 14 "zchar[" 13 16 37) (mkPtok 13 "]" 15 4 40)) (mkPtok 14 "zchar[" 13 16 37) (mkPtok 30 "0123456789" 13 23 38) (mkPtok 13 "]" 15 4 40))) (mkPtok 42 "chars" 15 7 41) None (mkPtok 40 "," 15 13 42)))); (mkFieldWithAttr (mkSpan (mkPtok 25 "int16" 15 14 43) (mkPtok 40 "," 17 4 49)) [] (LengthField (mkSpan (mkPtok 25 "int16" 15 14 43) (mkPtok 40 "," 17 4 49)) (mkLengthFieldDecl (mkSpan (mkPtok 25 "int16" 15 14 43) (mkPtok 40 "," 17 4 49)) (Some (TyBasic (mkSpan (mkPtok 25 "int16" 15 14 43) (mkPtok 25 "int16" 15 14 43)) (mkBasicType (mkSpan (mkPtok 25 "int16" 15 14 43) (mkPtok 25 "int16" 15 14 43)) (mkPtok 25 "int16" 15 14 43)))) (mkPtok 42 "charz" 15 20 44) (mkLengthOf (mkSpan (mkPtok 7 "@lengthOf(" 15 25 45) (mkPtok 6 ")" 16 0 47)) (mkPtok 7 "@lengthOf(" 15 25 45) (mkPtok 42 "body" 15 36 46) (mkPtok 6 ")" 16 0 47)) (Some (mkPtok 43 (string_of_bytes [96; 195; 169; 96]%N) 17 0 48)) (mkPtok 40 "," 17 4 49)))); (mkFieldWithAttr (mkSpan (mkPtok 36 "repeat" 17 6 50) (mkPtok 40 "," 18 0 53)) [] (ObjectField (mkSpan (mkPtok 36 "repeat" 17 6 50) (mkPtok 40 "," 18 0 53)) (Some (mkPtok 36 "repeat" 17 6 50)) (mkPtok 42 "u8x" 17 13 51) (Some (mkPtok 42 "msg_type" 17 17 52)) None (mkPtok 40 "," 18 0 53)))] (mkPtok 3 "}" 18 2 54)))])).
+Eval vm_compute in ("<<<M108>>>" ++ check (runes_of_ascii "root packet	repeatCount {
+    // @lengthOf(
+    @tag( 42 )
+int64 lengthOf , }
+")).
+Eval vm_compute in ("<<<M140>>>" ++ check (runes_of_ascii "
+")).
+Eval vm_compute in ("<<<M172>>>" ++ check (runes_of_ascii "// " ++ [128512]%N ++ runes_of_ascii " emoji
+root
+packet // packet A { u8 x, }
+T
+    // a // b
+    {
+int16  a1 ,
+tag {	u16 stringy , }
+    , MetaDataX crc ,i16 stringy @calculatedFrom(
+""x y"" ) , match
+int as
+BodyLength//
+{ 1 : Header
+,
+    [ 0 ] : tag """ ++ [28040; 24687]%N ++ runes_of_ascii """ :
+    asx,
+// " ++ [27880; 37322]%N ++ runes_of_ascii "
+// trailing space 
+},	@leftPad ( ' ' ) metadata
+// a // b
+// @lengthOf(
+`it's`
+,	len
+    @lengthOf( metadata), zchar[65535
+    ]
+A @lengthOf( //	t
+trueish
+    ) , } //")).
+Eval vm_compute in ("<<<M204>>>" ++ check (runes_of_ascii "packet x
+    {
+    string msg_type ,match roots  as // @lengthOf(
+pack { ""\" ++ [233]%N ++ runes_of_ascii """: leftPad ,
+    //	t
+    0  : u8x 255 : options1
+,""x y""
+: i8i8// " ++ [27880; 37322]%N ++ runes_of_ascii "
+, ""x y"" : len ""`tick`"": metadata ,
+    }
+    ,}
+")).
+Eval vm_compute in ("<<<M236>>>" ++ check (runes_of_ascii "MetaData T { char[ 7 ] len
+    `tab	here`, }")).
+Eval vm_compute in ("<<<M268>>>" ++ check (runes_of_ascii "root packet x_y_z{
+    //
+    T _x
+,@lengthOf(
+    uint8x
+)i32 Pad
+    // " ++ [128512]%N ++ runes_of_ascii " emoji
+    `tab	here` , repeat
+char[ 0]o `crlf
+line`	,i8i8 {
+int// packet A { u8 x, }
+Header `
+`  ,u8 f32a
+,}
+,
+@lengthOf(
+    crc)	match i8i8 as
+Logon{  0123456789  :
+float
+,}
+, int {
+    x `line1
+line2`,}
+    ,
+    // " ++ [128512]%N ++ runes_of_ascii " emoji
+    repeat falsey{options1 x `doc`	, i8i8
+    `u8 x,`
+    ,
+    } ,
+    repeat // `tick` ""quote"" 'q'
+zchar[ 0123456789// a // b
+] a1	,}	options
+{ } options  { } root packet metadata
+    {
+    @calculatedFrom( ""a\\""
+    ) string_
+{ pack { match
+msg_type
+as	MetaDataX { ""// no comment""
+// " ++ [27880; 37322]%N ++ runes_of_ascii "
+// 50% %s
+:string_ , [ 65535
+    ]:	roots
+,
+// packet A { u8 x, }
+// " ++ [128512]%N ++ runes_of_ascii " emoji
+10 :
+    metadata
+, 0 :_x ,
+    [
+0123456789
+, 007 ,  7 , 00 ,
+    4294967296 ] : trueish	, } // " ++ [128512]%N ++ runes_of_ascii " emoji
+, char[]
+//x
+// " ++ [128512]%N ++ runes_of_ascii " emoji
+u128
+    ,u64 u8x@lengthOf( string_ ) `doc`, }, // packet A { u8 x, }
+repeat
+    uint8
+    stringy  ,
+    // 50% %s
+    crc msg_type , } ,
+// `tick` ""quote"" 'q'
+// trailing space 
+@calculatedFrom( """ ++ [28040; 24687]%N ++ runes_of_ascii """	) int32 packetx`" ++ [233]%N ++ runes_of_ascii "` , Logon { match  uint8x as options1{""\" ++ [233]%N ++ runes_of_ascii """
+:
+    Z9_ ,
+// 50% %s
+// 50% %s
+} , } , } root packet // c
+options1 { @tag( 0 )  @calculatedFrom(
+""" ++ [233]%N ++ runes_of_ascii "t" ++ [233]%N ++ runes_of_ascii """ )
+@lengthOf(
+roots ) pack {i32
+    msg_type
+    , } ,	}")).
+Eval vm_compute in ("<<<M300>>>" ++ check (runes_of_ascii "// " ++ [128512]%N ++ runes_of_ascii " emoji
+MetaData
+len// " ++ [27880; 37322]%N ++ runes_of_ascii "
+{ chars len  ,u128 trueish`
+`
+// trailing space 
+//	t
+,
+    // packet A { u8 x, }
+    int8 pack //x
+, zchar[ 00 ]
+    // c
+    repeatCount
+    `it's`
+, zchar[ 42
+]calculatedFrom /// triple
+,lengthOf Pad , }MetaData lengthOf {
+//	t
+// @lengthOf(
+x_y_z
+//	t
+//	t
+asx ,}packet x_y_z { repeat uint16 x_y_z
+    , @tag( 1
+// a // b
+// @lengthOf(
+) match u128 as // `tick` ""quote"" 'q'
+rootA { 3
+    : tag
+    , ""\n"":
+    // " ++ [128512]%N ++ runes_of_ascii " emoji
+    pack , [ """ ++ [233]%N ++ runes_of_ascii "t" ++ [233]%N ++ runes_of_ascii """, //
+7 ] :
+    T , } , }")).
+Eval vm_compute in ("<<<T300>>>" ++ terms [mkTok 44 (string_of_bytes [47; 47; 32; 240; 159; 152; 128; 32; 101; 109; 111; 106; 105]%N) 1 0 true; mkTok 37 "MetaData" 2 0 false; mkTok 42 "len" 3 0 false; mkTok 44 (string_of_bytes [47; 47; 32; 230; 179; 168; 233; 135; 138]%N) 3 3 true; mkTok 2 "{" 4 0 false; mkTok 42 "chars" 4 2 false; mkTok 42 "len" 4 8 false; mkTok 40 "," 4 13 false; mkTok 42 "u128" 4 14 false; mkTok 42 "trueish" 4 19 false; mkTok 43 (string_of_bytes [96; 10; 96]%N) 4 26 false; mkTok 44 "// trailing space " 6 0 true; mkTok 44 (string_of_bytes [47; 47; 9; 116]%N) 7 0 true; mkTok 40 "," 8 0 false; mkTok 44 "// packet A { u8 x, }" 9 4 true; mkTok 24 "int8" 10 4 false; mkTok 42 "pack" 10 9 false; mkTok 44 "//x" 10 14 true; mkTok 40 "," 11 0 false; mkTok 14 "zchar[" 11 2 false; mkTok 30 "00" 11 9 false; mkTok 13 "]" 11 12 false; mkTok 44 "// c" 12 4 true; mkTok 42 "repeatCount" 13 4 false; mkTok 43 "`it's`" 14 4 false; mkTok 40 "," 15 0 false; mkTok 14 "zchar[" 15 2 false; mkTok 30 "42" 15 9 false; mkTok 13 "]" 16 0 false; mkTok 42 "calculatedFrom" 16 1 false; mkTok 44 "/// triple" 16 16 true; mkTok 40 "," 17 0 false; mkTok 42 "lengthOf" 17 1 false; mkTok 42 "Pad" 17 10 false; mkTok 40 "," 17 14 false; mkTok 3 "}" 17 16 false; mkTok 37 "MetaData" 17 17 false; mkTok 42 "lengthOf" 17 26 false; mkTok 2 "{" 17 35 false; mkTok 44 (string_of_bytes [47; 47; 9; 116]%N) 18 0 true; mkTok 44 "// @lengthOf(" 19 0 true; mkTok 42 "x_y_z" 20 0 false; mkTok 44 (string_of_bytes [47; 47; 9; 116]%N) 21 0 true; mkTok 44 (string_of_bytes [47; 47; 9; 116]%N) 22 0 true; mkTok 42 "asx" 23 0 false; mkTok 40 "," 23 4 false; mkTok 3 "}" 23 5 false; mkTok 35 "packet" 23 6 false; mkTok 42 "x_y_z" 23 13 false; mkTok 2 "{" 23 19 false; mkTok 36 "repeat" 23 21 false; mkTok 21 "uint16" 23 28 false; mkTok 42 "x_y_z" 23 35 false; mkTok 40 "," 24 4 false; mkTok 9 "@tag(" 24 6 false; mkTok 30 "1" 24 12 false; mkTok 44 "// a // b" 25 0 true; mkTok 44 "// @lengthOf(" 26 0 true; mkTok 6 ")" 27 0 false; mkTok 38 "match" 27 2 false; mkTok 42 "u128" 27 8 false; mkTok 17 "as" 27 13 false; mkTok 44 "// `tick` ""quote"" 'q'" 27 16 true; mkTok 42 "rootA" 28 0 false; mkTok 2 "{" 28 6 false; mkTok 30 "3" 28 8 false; mkTok 39 ":" 29 4 false; mkTok 42 "tag" 29 6 false; mkTok 40 "," 30 4 false; mkTok 31 """\n""" 30 6 false; mkTok 39 ":" 30 10 false; mkTok 44 (string_of_bytes [47; 47; 32; 240; 159; 152; 128; 32; 101; 109; 111; 106; 105]%N) 31 4 true; mkTok 42 "pack" 32 4 false; mkTok 40 "," 32 9 false; mkTok 18 "[" 32 11 false; mkTok 31 (string_of_bytes [34; 195; 169; 116; 195; 169; 34]%N) 32 13 false; mkTok 40 "," 32 18 false; mkTok 44 "//" 32 20 true; mkTok 30 "7" 33 0 false; mkTok 13 "]" 33 2 false; mkTok 39 ":" 33 4 false; mkTok 42 "T" 34 4 false; mkTok 40 "," 34 6 false; mkTok 3 "}" 34 8 false; mkTok 40 "," 34 10 false; mkTok 3 "}" 34 12 false; mkTok 0 "<EOF>" 34 13 false] (mkPacket (mkPtok 37 "MetaData" 2 0 1) (Some (mkPtok 3 "}" 34 12 85)) [(DMeta (mkMetaDef (mkSpan (mkPtok 37 "MetaData" 2 0 1) (mkPtok 3 "}" 17 16 35)) (mkPtok 37 "MetaData" 2 0 1) (mkPtok 42 "len" 3 0 2) (mkPtok 2 "{" 4 0 4) [(MIRef (mkRefMetaDecl (mkSpan (mkPtok 42 "chars" 4 2 5) (mkPtok 40 "," 4 13 7)) (mkPtok 42 "chars" 4 2 5) (mkPtok 42 "len" 4 8 6) None (mkPtok 40 "," 4 13 7))); (MIRef (mkRefMetaDecl (mkSpan (mkPtok 42 "u128" 4 14 8) (mkPtok 40 "," 8 0 13)) (mkPtok 42 "u128" 4 14 8) (mkPtok 42 "trueish" 4 19 9) (Some (mkPtok 43 (string_of_bytes [96; 10; 96]%N) 4 26 10)) (mkPtok 40 "," 8 0 13))); (MIDecl (mkMetaDecl (mkSpan (mkPtok 24 "int8" 10 4 15) (mkPtok 40 "," 11 0 18)) (TyBasic (mkSpan (mkPtok 24 "int8" 10 4 15) (mkPtok 24 "int8" 10 4 15)) (mkBasicType (mkSpan (mkPtok 24 "int8" 10 4 15) (mkPtok 24 "int8" 10 4 15)) (mkPtok 24 "int8" 10 4 15))) (mkPtok 42 "pack" 10 9 16) None (mkPtok 40 "," 11 0 18))); (MIDecl (mkMetaDecl (mkSpan (mkPtok 14 "zchar[" 11 2 19) (mkPtok 40 "," 15 0 25)) (TyFixed (mkSpan (mkPtok 14 "zchar[" 11 2 19) (mkPtok 13 "]" 11 12 21)) (mkFixedString (mkSpan (mkPtok 14 "zchar[" 11 2 19) (mkPtok 13 "]" 11 12 21)) (mkPtok 14 "zchar[" 11 2 19) (mkPtok 30 "00" 11 9 20) (mkPtok 13 "]" 11 12 21))) (mkPtok 42 "repeatCount" 13 4 23) (Some (mkPtok 43 "`it's`" 14 4 24)) (mkPtok 40 "," 15 0 25))); (MIDecl (mkMetaDecl (mkSpan (mkPtok 14 "zchar[" 15 2 26) (mkPtok 40 "," 17 0 31)) (TyFixed (mkSpan (mkPtok 14 "zchar[" 15 2 26) (mkPtok 13 "]" 16 0 28)) (mkFixedString (mkSpan (mkPtok 14 "zchar[" 15 2 26) (mkPtok 13 "]" 16 0 28)) (mkPtok 14 "zchar[" 15 2 26) (mkPtok 30 "42" 15 9 27) (mkPtok 13 "]" 16 0 28))) (mkPtok 42 "calculatedFrom" 16 1 29) None (mkPtok 40 "," 17 0 31))); (MIRef (mkRefMetaDecl (mkSpan (mkPtok 42 "lengthOf" 17 1 32) (mkPtok 40 "," 17 14 34)) (mkPtok 42 "lengthOf" 17 1 32) (mkPtok 42 "Pad" 17 10 33) None (mkPtok 40 "," 17 14 34)))] (mkPtok 3 "}" 17 16 35))); (DMeta (mkMetaDef (mkSpan (mkPtok 37 "MetaData" 17 17 36) (mkPtok 3 "}" 23 5 46)) (mkPtok 37 "MetaData" 17 17 36) (mkPtok 42 "lengthOf" 17 26 37) (mkPtok 2 "{" 17 35 38) [(MIRef (mkRefMetaDecl (mkSpan (mkPtok 42 "x_y_z" 20 0 41) (mkPtok 40 "," 23 4 45)) (mkPtok 42 "x_y_z" 20 0 41) (mkPtok 42 "asx" 23 0 44) None (mkPtok 40 "," 23 4 45)))] (mkPtok 3 "}" 23 5 46))); (DPacket (mkPacketDef (mkSpan (mkPtok 35 "packet" 23 6 47) (mkPtok 3 "}" 34 12 85)) None (mkPtok 35 "packet" 23 6 47) (mkPtok 42 "x_y_z" 23 13 48) (mkPtok 2 "{" 23 19 49) [(mkFieldWithAttr (mkSpan (mkPtok 36 "repeat" 23 21 50) (mkPtok 40 "," 24 4 53)) [] (MetaField (mkSpan (mkPtok 36 "repeat" 23 21 50) (mkPtok 40 "," 24 4 53)) (Some (mkPtok 36 "repeat" 23 21 50)) (mkMetaDecl (mkSpan (mkPtok 21 "uint16" 23 28 51) (mkPtok 40 "," 24 4 53)) (TyBasic (mkSpan (mkPtok 21 "uint16" 23 28 51) (mkPtok 21 "uint16" 23 28 51)) (mkBasicType (mkSpan (mkPtok 21 "uint16" 23 28 51) (mkPtok 21 "uint16" 23 28 51)) (mkPtok 21 "uint16" 23 28 51))) (mkPtok 42 "x_y_z" 23 35 52) None (mkPtok 40 "," 24 4 53)))); (mkFieldWithAttr (mkSpan (mkPtok 9 "@tag(" 24 6 54) (mkPtok 40 "," 34 10 84)) [(FATag (mkSpan (mkPtok 9 "@tag(" 24 6 54) (mkPtok 6 ")" 27 0 58)) (mkTagAttr (mkSpan (mkPtok 9 "@tag(" 24 6 54) (mkPtok 6 ")" 27 0 58)) (mkPtok 9 "@tag(" 24 6 54) (mkPtok 30 "1" 24 12 55) (mkPtok 6 ")" 27 0 58)))] (MatchField (mkSpan (mkPtok 38 "match" 27 2 59) (mkPtok 40 "," 34 10 84)) (mkMatchFieldDecl (mkSpan (mkPtok 38 "match" 27 2 59) (mkPtok 3 "}" 34 8 83)) (mkPtok 38 "match" 27 2 59) (mkPtok 42 "u128" 27 8 60) (mkPtok 17 "as" 27 13 61) (mkPtok 42 "rootA" 28 0 63) (mkPtok 2 "{" 28 6 64) [(mkMatchPair (mkSpan (mkPtok 30 "3" 28 8 65) (mkPtok 40 "," 30 4 68)) (MKDigits (mkPtok 30 "3" 28 8 65)) (mkPtok 39 ":" 29 4 66) (mkPtok 42 "tag" 29 6 67) (Some (mkPtok 40 "," 30 4 68))); (mkMatchPair (mkSpan (mkPtok 31 """\n""" 30 6 69) (mkPtok 40 "," 32 9 73)) (MKString (mkPtok 31 """\n""" 30 6 69)) (mkPtok 39 ":" 30 10 70) (mkPtok 42 "pack" 32 4 72) (Some (mkPtok 40 "," 32 9 73))); (mkMatchPair (mkSpan (mkPtok 18 "[" 32 11 74) (mkPtok 40 "," 34 6 82)) (MKList (mkKeyList (mkSpan (mkPtok 18 "[" 32 11 74) (mkPtok 13 "]" 33 2 79)) (mkPtok 18 "[" 32 11 74) (mkPtok 31 (string_of_bytes [34; 195; 169; 116; 195; 169; 34]%N) 32 13 75) [((mkPtok 40 "," 32 18 76), (mkPtok 30 "7" 33 0 78))] (mkPtok 13 "]" 33 2 79))) (mkPtok 39 ":" 33 4 80) (mkPtok 42 "T" 34 4 81) (Some (mkPtok 40 "," 34 6 82)))] (mkPtok 3 "}" 34 8 83)) (mkPtok 40 "," 34 10 84)))] (mkPtok 3 "}" 34 12 85)))])).
+Eval vm_compute in ("<<<M332>>>" ++ check (runes_of_ascii "
+packet a1 { @calculatedFrom(
+""\n""
+// 50% %s
+// packet A { u8 x, }
+) zchar[ 4294967296 ]  asx  ,
+    crc
+    `100% of %d` , tag Pad , @leftPad
+    ( '\x00')body { zchar[ 255 ] u8x `" ++ [28040; 24687; 31867; 22411]%N ++ runes_of_ascii "` , repeat u64
+    pack `it's`, }, match	falsey	as // `tick` ""quote"" 'q'
+o { [ 0123456789, ""1""
+]: u128 ,} ,
+repeat
+packetx len
+,  match crc as msg_type {
+3 :
+A, [""x y"" , 7// a // b
+] :u , """ ++ [233]%N ++ runes_of_ascii "t" ++ [233]%N ++ runes_of_ascii """:rootA,
+1 : f32a , } , Pad
+    @lengthOf( //x
+float )  ,
+x // " ++ [27880; 37322]%N ++ runes_of_ascii "
+{ zchar[007 ] falsey,} ,
+} packet stringy  {
+    @rightPad ( '\x00'
+)repeat BodyLength Header ,@lengthOf(int ) i64
+matchKey `u8 x,`  ,repeat x_y_z{
+    repeat
+zchar[ 65535 ] charz `u8 x,` //	t
+, roots/// triple
+@calculatedFrom("""" // c
+) ,
+    }	, // @lengthOf(
+tag {	i16
+    trueish `{ , }` ,},u8x
+    @lengthOf( stringy ) `u8 x,` , chars@calculatedFrom( ""1"" ),
+    char[10
+    ]//x
+trueish
+    `two words`
+    , string As @calculatedFrom(
+    ""it's""
+) `" ++ [233]%N ++ runes_of_ascii "` ,	@tag( 3 // a // b
+) msg_type ,
+char[ 7  ]
+    // c
+    trueish@calculatedFrom( ""\" ++ [233]%N ++ runes_of_ascii """ ) ,} packet	charz//	t
+{
+    // packet A { u8 x, }
+    char[]lengthOf
+    `{ , }`
+,@calculatedFrom( """"
+    ) @lengthOf( f32a) @tag(
+4294967296 /// triple
+)
+repeat x { u16 tag @calculatedFrom( ""abc"" )  , u32 roots `crlf
+line`/// triple
+, repeat
+    // @lengthOf(
+    int
+// @lengthOf(
+/// triple
+tag ,
+    i8 Pad,
+} , string uint8x  @calculatedFrom( ""{,}""
+    // 50% %s
+    ) `it's`	, }
+")).
+Eval vm_compute in ("<<<M364>>>" ++ check (runes_of_ascii "MetaData
+    // `tick` ""quote"" 'q'
+    x_y_z
+// c
+//	t
+{ zchar[
+    42 ]
+    leftPad
+`{ , }` ,	crc
+    /// triple
+    pack , f64 string_ `` , x_y_z i64_,float64 u8x
+    `doc`  ,
+    // 50% %s
+    uint64 u , }
+")).
+Eval vm_compute in ("<<<M396>>>" ++ check (runes_of_ascii "
+options { crc =
+    // trailing space 
+    ""// no comment""
+;  _x =
+    // " ++ [27880; 37322]%N ++ runes_of_ascii "
+    i64 As =
+    '\x00' ; }packet pack {
+}
+")).
+Eval vm_compute in ("<<<M428>>>" ++ check (runes_of_ascii "packet roots { // packet A { u8 x, }
+@leftPad ( ) calculatedFrom `line1
+line2` //x
+, @calculatedFrom(""// no comment"" //	t
 ) match
-Pad as
-stringy// `tick` ""quote"" 'q'
-{3
-: f32a
-    ,""a\\""
-: i8i8
+i8i8 as x
+    // trailing space 
+    {
+    00
+:
+    chars  , ""// no comment"" :A /// triple
 ,
     [
-    """ ++ [128512]%N ++ runes_of_ascii """ ,
-7] :
-rootA , // " ++ [128512]%N ++ runes_of_ascii " emoji
-""a\""b"" : x_y_z
-,
-[ 0123456789 ,""a	b""  ]: Logon
-,
-} ,metadata {  char[] // `tick` ""quote"" 'q'
-chars @calculatedFrom(
-    """ ++ [128512]%N ++ runes_of_ascii """
-)`two words` , repeat asx	{ msg_type { int64 _x `
-`
-    ,repeat Z9_
-/// triple
-// `tick` ""quote"" 'q'
-,
-uint16 leftPad `line1
-line2`,
-    trueish x_y_z ``, } , // trailing space 
-zchar[ 4294967296// " ++ [27880; 37322]%N ++ runes_of_ascii "
-]
-chars `crlf
-line`, Logon `a\` ,
-} ,  char[]body ,
-    } ,  repeat u { int {
-repeat
-    zchar{
-f64
-lengthOf @calculatedFrom(	""abc""  ) `" ++ [233]%N ++ runes_of_ascii "` ,/// triple
-}
-, As @calculatedFrom(
-    ""{,}"" )
-    // packet A { u8 x, }
-    , repeat  char[] // `tick` ""quote"" 'q'
-metadata
-, string// a // b
-calculatedFrom `two words` , }	, },
-    @rightPad
-( '0'
-)// " ++ [27880; 37322]%N ++ runes_of_ascii "
-@rightPad(
-    '0'  )
-@lengthOf( x )repeat leftPad `// not a comment`
-    ,
-@rightPad ( ' '
-)o  Z9_
-, }
-packet
-    Pad
-    {metadata trueish
-// c
-// " ++ [128512]%N ++ runes_of_ascii " emoji
-`u8 x,` ,
-    } options{ len
-// a // b
-// @lengthOf(
-=i64 f32a =  ""x y""; matchKey = ""packet"" ;  } packet lengthOf
-{char[ 7]
-// trailing space 
-/// triple
-MetaDataX
-@lengthOf(BodyLength
-)
-,int8 As @lengthOf( calculatedFrom  ) ``,repeat char[]
-// a // b
-// @lengthOf(
-As ,
-    body @calculatedFrom( /// triple
-""abc"" ) ,
-    repeat float64 MetaDataX `" ++ [28040; 24687; 31867; 22411]%N ++ runes_of_ascii "` // " ++ [27880; 37322]%N ++ runes_of_ascii "
-,
-@tag(
-    4294967296 )	match u8x as crc
-{[
-""\n"" ,
-65535 ] : // packet A { u8 x, }
-_x , 255 : roots,} ,  } //	t")).
-Eval vm_compute in ("<<<M1420>>>" ++ check (runes_of_ascii "root packet Header {
-    @lengthOf( stringy ) calculatedFrom @lengthOf(  chars  ) , char[ 255
-    ]
-    // `tick` ""quote"" 'q'
-    metadata``	, u8 MetaDataX `crlf
-line`
-,} options
-{ } options
-{uint8x = 42 ; T
-    = i32;
-    calculatedFrom // `tick` ""quote"" 'q'
-=
-""// no comment""	;
-    u8x =
-0
-    }
-    root packet roots {repeat i64 falsey //x
-,
-}")).
-Eval vm_compute in ("<<<T1420>>>" ++ terms [mkTok 34 "root" 1 0 false; mkTok 35 "packet" 1 5 false; mkTok 42 "Header" 1 12 false; mkTok 2 "{" 1 19 false; mkTok 7 "@lengthOf(" 2 4 false; mkTok 42 "stringy" 2 15 false; mkTok 6 ")" 2 23 false; mkTok 42 "calculatedFrom" 2 25 false; mkTok 7 "@lengthOf(" 2 40 false; mkTok 42 "chars" 2 52 false; mkTok 6 ")" 2 59 false; mkTok 40 "," 2 61 false; mkTok 12 "char[" 2 63 false; mkTok 30 "255" 2 69 false; mkTok 13 "]" 3 4 false; mkTok 44 "// `tick` ""quote"" 'q'" 4 4 true; mkTok 42 "metadata" 5 4 false; mkTok 43 "``" 5 12 false; mkTok 40 "," 5 15 false; mkTok 20 "u8" 5 17 false; mkTok 42 "MetaDataX" 5 20 false; mkTok 43 (string_of_bytes [96; 99; 114; 108; 102; 13; 10; 108; 105; 110; 101; 96]%N) 5 30 false; mkTok 40 "," 7 0 false; mkTok 3 "}" 7 1 false; mkTok 1 "options" 7 3 false; mkTok 2 "{" 8 0 false; mkTok 3 "}" 8 2 false; mkTok 1 "options" 8 4 false; mkTok 2 "{" 9 0 false; mkTok 42 "uint8x" 9 1 false; mkTok 4 "=" 9 8 false; mkTok 30 "42" 9 10 false; mkTok 41 ";" 9 13 false; mkTok 42 "T" 9 15 false; mkTok 4 "=" 10 4 false; mkTok 26 "i32" 10 6 false; mkTok 41 ";" 10 9 false; mkTok 42 "calculatedFrom" 11 4 false; mkTok 44 "// `tick` ""quote"" 'q'" 11 19 true; mkTok 4 "=" 12 0 false; mkTok 31 """// no comment""" 13 0 false; mkTok 41 ";" 13 16 false; mkTok 42 "u8x" 14 4 false; mkTok 4 "=" 14 8 false; mkTok 30 "0" 15 0 false; mkTok 3 "}" 16 4 false; mkTok 34 "root" 17 4 false; mkTok 35 "packet" 17 9 false; mkTok 42 "roots" 17 16 false; mkTok 2 "{" 17 22 false; mkTok 36 "repeat" 17 23 false; mkTok 27 "i64" 17 30 false; mkTok 42 "falsey" 17 34 false; mkTok 44 "//x" 17 41 true; mkTok 40 "," 18 0 false; mkTok 3 "}" 19 0 false; mkTok 0 "<EOF>" 19 1 false] (mkPacket (mkPtok 34 "root" 1 0 0) (Some (mkPtok 3 "}" 19 0 55)) [(DPacket (mkPacketDef (mkSpan (mkPtok 34 "root" 1 0 0) (mkPtok 3 "}" 7 1 23)) (Some (mkPtok 34 "root" 1 0 0)) (mkPtok 35 "packet" 1 5 1) (mkPtok 42 "Header" 1 12 2) (mkPtok 2 "{" 1 19 3) [(mkFieldWithAttr (mkSpan (mkPtok 7 "@lengthOf(" 2 4 4) (mkPtok 40 "," 2 61 11)) [(FALengthOf (mkSpan (mkPtok 7 "@lengthOf(" 2 4 4) (mkPtok 6 ")" 2 23 6)) (mkLengthOf (mkSpan (mkPtok 7 "@lengthOf(" 2 4 4) (mkPtok 6 ")" 2 23 6)) (mkPtok 7 "@lengthOf(" 2 4 4) (mkPtok 42 "stringy" 2 15 5) (mkPtok 6 ")" 2 23 6)))] (LengthField (mkSpan (mkPtok 42 "calculatedFrom" 2 25 7) (mkPtok 40 "," 2 61 11)) (mkLengthFieldDecl (mkSpan (mkPtok 42 "calculatedFrom" 2 25 7) (mkPtok 40 "," 2 61 11)) None (mkPtok 42 "calculatedFrom" 2 25 7) (mkLengthOf (mkSpan (mkPtok 7 "@lengthOf(" 2 40 8) (mkPtok 6 ")" 2 59 10)) (mkPtok 7 "@lengthOf(" 2 40 8) (mkPtok 42 "chars" 2 52 9) (mkPtok 6 ")" 2 59 10)) None (mkPtok 40 "," 2 61 11)))); (mkFieldWithAttr (mkSpan (mkPtok 12 "char[" 2 63 12) (mkPtok 40 "," 5 15 18)) [] (MetaField (mkSpan (mkPtok 12 "char[" 2 63 12) (mkPtok 40 "," 5 15 18)) None (mkMetaDecl (mkSpan (mkPtok 12 "char[" 2 63 12) (mkPtok 40 "," 5 15 18)) (TyFixed (mkSpan (mkPtok 12 "char[" 2 63 12) (mkPtok 13 "]" 3 4 14)) (mkFixedString (mkSpan (mkPtok 12 "char[" 2 63 12) (mkPtok 13 "]" 3 4 14)) (mkPtok 12 "char[" 2 63 12) (mkPtok 30 "255" 2 69 13) (mkPtok 13 "]" 3 4 14))) (mkPtok 42 "metadata" 5 4 16) (Some (mkPtok 43 "``" 5 12 17)) (mkPtok 40 "," 5 15 18)))); (mkFieldWithAttr (mkSpan (mkPtok 20 "u8" 5 17 19) (mkPtok 40 "," 7 0 22)) [] (MetaField (mkSpan (mkPtok 20 "u8" 5 17 19) (mkPtok 40 "," 7 0 22)) None (mkMetaDecl (mkSpan (mkPtok 20 "u8" 5 17 19) (mkPtok 40 "," 7 0 22)) (TyBasic (mkSpan (mkPtok 20 "u8" 5 17 19) (mkPtok 20 "u8" 5 17 19)) (mkBasicType (mkSpan (mkPtok 20 "u8" 5 17 19) (mkPtok 20 "u8" 5 17 19)) (mkPtok 20 "u8" 5 17 19))) (mkPtok 42 "MetaDataX" 5 20 20) (Some (mkPtok 43 (string_of_bytes [96; 99; 114; 108; 102; 13; 10; 108; 105; 110; 101; 96]%N) 5 30 21)) (mkPtok 40 "," 7 0 22))))] (mkPtok 3 "}" 7 1 23))); (DOption (mkOptionDef (mkSpan (mkPtok 1 "options" 7 3 24) (mkPtok 3 "}" 8 2 26)) (mkPtok 1 "options" 7 3 24) (mkPtok 2 "{" 8 0 25) [] (mkPtok 3 "}" 8 2 26))); (DOption (mkOptionDef (mkSpan (mkPtok 1 "options" 8 4 27) (mkPtok 3 "}" 16 4 45)) (mkPtok 1 "options" 8 4 27) (mkPtok 2 "{" 9 0 28) [(mkOptionDecl (mkSpan (mkPtok 42 "uint8x" 9 1 29) (mkPtok 41 ";" 9 13 32)) (mkPtok 42 "uint8x" 9 1 29) (mkPtok 4 "=" 9 8 30) (VDigits (mkSpan (mkPtok 30 "42" 9 10 31) (mkPtok 30 "42" 9 10 31)) (mkPtok 30 "42" 9 10 31)) (Some (mkPtok 41 ";" 9 13 32))); (mkOptionDecl (mkSpan (mkPtok 42 "T" 9 15 33) (mkPtok 41 ";" 10 9 36)) (mkPtok 42 "T" 9 15 33) (mkPtok 4 "=" 10 4 34) (VType (mkSpan (mkPtok 26 "i32" 10 6 35) (mkPtok 26 "i32" 10 6 35)) (TyBasic (mkSpan (mkPtok 26 "i32" 10 6 35) (mkPtok 26 "i32" 10 6 35)) (mkBasicType (mkSpan (mkPtok 26 "i32" 10 6 35) (mkPtok 26 "i32" 10 6 35)) (mkPtok 26 "i32" 10 6 35)))) (Some (mkPtok 41 ";" 10 9 36))); (mkOptionDecl (mkSpan (mkPtok 42 "calculatedFrom" 11 4 37) (mkPtok 41 ";" 13 16 41)) (mkPtok 42 "calculatedFrom" 11 4 37) (mkPtok 4 "=" 12 0 39) (VString (mkSpan (mkPtok 31 """// no comment""" 13 0 40) (mkPtok 31 """// no comment""" 13 0 40)) (mkPtok 31 """// no comment""" 13 0 40)) (Some (mkPtok 41 ";" 13 16 41))); (mkOptionDecl (mkSpan (mkPtok 42 "u8x" 14 4 42) (mkPtok 30 "0" 15 0 44)) (mkPtok 42 "u8x" 14 4 42) (mkPtok 4 "=" 14 8 43) (VDigits (mkSpan (mkPtok 30 "0" 15 0 44) (mkPtok 30 "0" 15 0 44)) (mkPtok 30 "0" 15 0 44)) None)] (mkPtok 3 "}" 16 4 45))); (DPacket (mkPacketDef (mkSpan (mkPtok 34 "root" 17 4 46) (mkPtok 3 "}" 19 0 55)) (Some (mkPtok 34 "root" 17 4 46)) (mkPtok 35 "packet" 17 9 47) (mkPtok 42 "roots" 17 16 48) (mkPtok 2 "{" 17 22 49) [(mkFieldWithAttr (mkSpan (mkPtok 36 "repeat" 17 23 50) (mkPtok 40 "," 18 0 54)) [] (MetaField (mkSpan (mkPtok 36 "repeat" 17 23 50) (mkPtok 40 "," 18 0 54)) (Some (mkPtok 36 "repeat" 17 23 50)) (mkMetaDecl (mkSpan (mkPtok 27 "i64" 17 30 51) (mkPtok 40 "," 18 0 54)) (TyBasic (mkSpan (mkPtok 27 "i64" 17 30 51) (mkPtok 27 "i64" 17 30 51)) (mkBasicType (mkSpan (mkPtok 27 "i64" 17 30 51) (mkPtok 27 "i64" 17 30 51)) (mkPtok 27 "i64" 17 30 51))) (mkPtok 42 "falsey" 17 34 52) None (mkPtok 40 "," 18 0 54))))] (mkPtok 3 "}" 19 0 55)))])).
-Eval vm_compute in ("<<<M1452>>>" ++ check (runes_of_ascii "
-options
-{
-asx
-    =""CRC32"" ; MetaDataX// c
-= char[ 4294967296	]
-    ;
-// " ++ [27880; 37322]%N ++ runes_of_ascii "
-// trailing space 
-_x = '0'; trueish=
-""a	b"" ;	} // packet A { u8 x, }")).
-Eval vm_compute in ("<<<M1484>>>" ++ check (runes_of_ascii "// @lengthOf(
-MetaData msg_type
-// `tick` ""quote"" 'q'
-// @lengthOf(
-{ string
-Logon ,
-i8 repeatCount
-    `// not a comment`, }
-packet i64_ {
-    // c
-    @leftPad(
-'0' )repeat repeatCount
-`u8 x,` , Header {// " ++ [27880; 37322]%N ++ runes_of_ascii "
-A{ uint32 T `crlf
-line` ,
-} , }, }
-MetaData Header// " ++ [27880; 37322]%N ++ runes_of_ascii "
-{
-    Header u `doc` ,
-    // " ++ [27880; 37322]%N ++ runes_of_ascii "
-    char[ 4294967296 ] u128
-, float32 falsey , char[ 10
-    ]
-roots`crlf
-line`
-    ,
-int64 calculatedFrom `say ""hi""` ,} root packet i64_ { /// triple
-}
-")).
-Eval vm_compute in ("<<<M1516>>>" ++ check (runes_of_ascii "MetaData lengthOf { zchar[ 255] MetaDataX , }
-")).
-Eval vm_compute in ("<<<M1548>>>" ++ check (runes_of_ascii "packet
-    // " ++ [27880; 37322]%N ++ runes_of_ascii "
-    zchar { @lengthOf(charz)	char[]
-Logon
-    , // @lengthOf(
-u8x
-// " ++ [27880; 37322]%N ++ runes_of_ascii "
-//
-len
-    , }")).
-Eval vm_compute in ("<<<M1580>>>" ++ check (runes_of_ascii "options { Foo=  true }
-//	t
-")).
-Eval vm_compute in ("<<<M1612>>>" ++ check (runes_of_ascii "MetaData packetx	{
-stringy string_  ,string Header
-    , char u128  , }
-")).
-Eval vm_compute in ("<<<M1644>>>" ++ check (runes_of_ascii "/// triple
-options
-    {
-Header = ""packet""
-    }
-    packet
-matchKey {
-}")).
-Eval vm_compute in ("<<<T1644>>>" ++ terms [mkTok 44 "/// triple" 1 0 true; mkTok 1 "options" 2 0 false; mkTok 2 "{" 3 4 false; mkTok 42 "Header" 4 0 false; mkTok 4 "=" 4 7 false; mkTok 31 """packet""" 4 9 false; mkTok 3 "}" 5 4 false; mkTok 35 "packet" 6 4 false; mkTok 42 "matchKey" 7 0 false; mkTok 2 "{" 7 9 false; mkTok 3 "}" 8 0 false; mkTok 0 "<EOF>" 8 1 false] (mkPacket (mkPtok 1 "options" 2 0 1) (Some (mkPtok 3 "}" 8 0 10)) [(DOption (mkOptionDef (mkSpan (mkPtok 1 "options" 2 0 1) (mkPtok 3 "}" 5 4 6)) (mkPtok 1 "options" 2 0 1) (mkPtok 2 "{" 3 4 2) [(mkOptionDecl (mkSpan (mkPtok 42 "Header" 4 0 3) (mkPtok 31 """packet""" 4 9 5)) (mkPtok 42 "Header" 4 0 3) (mkPtok 4 "=" 4 7 4) (VString (mkSpan (mkPtok 31 """packet""" 4 9 5) (mkPtok 31 """packet""" 4 9 5)) (mkPtok 31 """packet""" 4 9 5)) None)] (mkPtok 3 "}" 5 4 6))); (DPacket (mkPacketDef (mkSpan (mkPtok 35 "packet" 6 4 7) (mkPtok 3 "}" 8 0 10)) None (mkPtok 35 "packet" 6 4 7) (mkPtok 42 "matchKey" 7 0 8) (mkPtok 2 "{" 7 9 9) [] (mkPtok 3 "}" 8 0 10)))])).
-Eval vm_compute in ("<<<M1676>>>" ++ check (runes_of_ascii "packet As { Pad {
-    char
-/// triple
-// packet A { u8 x, }
-string_
-`" ++ [28040; 24687; 31867; 22411]%N ++ runes_of_ascii "`
-    //	t
-    , string string_ ,i64_ @lengthOf( Pad) `" ++ [28040; 24687; 31867; 22411]%N ++ runes_of_ascii "`, float	{ msg_type @calculatedFrom(
-    ""\" ++ [233]%N ++ runes_of_ascii """ )
-`" ++ [233]%N ++ runes_of_ascii "`, }, }, @calculatedFrom(""CRC32"")match
-    falsey as  options1 {
-    65535 : _x
-,
-[00 ] : leftPad
-, [// @lengthOf(
-""CRC32"" , 65535 ] : i8i8 [ ""x y"" ]  : BodyLength
-, } , zchar[007 // trailing space 
-]
-    rootA @lengthOf( metadata // @lengthOf(
-)// " ++ [27880; 37322]%N ++ runes_of_ascii "
-,
-repeat // `tick` ""quote"" 'q'
-As ,repeat int32 roots	`doc`
-,
-u32 Z9_ `two words`//
-, @lengthOf(
-    u )
-string
-    falsey `u8 x,` //
-, u64 Logon ,
-    char[  10
-]Foo
-@lengthOf(
-x_y_z)
-,
-    //	t
-    }
-packet crc
-    { match
-roots as u128{ [	""{,}""] : MetaDataX [ 0 , 007
-]/// triple
-: //
-tag , }, repeat char[  4294967296 ]
+    00, ""it's"" ]: roots	, 0:	A ""`tick`""// c
+: charz
+    ,""\" ++ [233]%N ++ runes_of_ascii """
+:  repeatCount , },	@lengthOf( a1 ) u16 i8i8
+, @calculatedFrom(""a	b"" )
+repeat options1 { uint32
     BodyLength
-    `crlf
-line` ,
-    char[ 007
-] /// triple
-f32a @calculatedFrom(
-    ""x y"" ) `" ++ [233]%N ++ runes_of_ascii "`
-, match float as repeatCount
-{ 10: rootA
-// `tick` ""quote"" 'q'
-// " ++ [27880; 37322]%N ++ runes_of_ascii "
-,	},
-    i32 o@calculatedFrom(
-""" ++ [28040; 24687]%N ++ runes_of_ascii """ ),  match calculatedFrom as // trailing space 
-Z9_{ ""\" ++ [233]%N ++ runes_of_ascii """
-    :  float
-    ""\" ++ [233]%N ++ runes_of_ascii """ : MetaDataX , 1: A
-, [ 10]
-    : zchar , ""CRC32""  : lengthOf
-, }
-, match rootA as asx{
-3 :Z9_ ""x y"" : lengthOf ,}
-    , i16
-    Pad
-,
-}packet zchar  {
-    leftPad ,calculatedFrom @calculatedFrom( ""a	b"" ) ,}
-")).
-Eval vm_compute in ("<<<M1708>>>" ++ check (runes_of_ascii "
-packet
-    stringy {//x
-} // @lengthOf(
-options
-{ falsey =
-""" ++ [28040; 24687]%N ++ runes_of_ascii """ ; } packet Z9_ { i64_ {match options1
-as
-    crc { [ 7,
-    ""x y""	] : A,
-4294967296 //	t
-:
-    x [ 3	, ""// no comment"",""" ++ [28040; 24687]%N ++ runes_of_ascii """, ""a\""b""
-// " ++ [27880; 37322]%N ++ runes_of_ascii "
-//	t
-, ""`tick`"", 007 , ""a	b""
-, ""// no comment"" ]:
-rootA // @lengthOf(
-[ 7
-    ,	255	,
-// @lengthOf(
-/// triple
-4294967296 , ""CRC32"" ,
-    4294967296
-    //x
+@calculatedFrom( ""a\\"") `
+`
+    // @lengthOf(
     ,
-""abc"" ]: As ,
-7
-: A , ""`tick`"" : body , }
-    //x
-    , // a // b
-char[
-    7] falsey `" ++ [28040; 24687; 31867; 22411]%N ++ runes_of_ascii "` , // " ++ [27880; 37322]%N ++ runes_of_ascii "
-}  ,	}
-")).
-Eval vm_compute in ("<<<M1740>>>" ++ check (runes_of_ascii "MetaData leftPad// " ++ [27880; 37322]%N ++ runes_of_ascii "
-{
-zchar[ 00 ]
-    T , i8i8
-options1 `say ""hi""`
-,
-}packet float
-    {Header metadata // c
-,}
-")).
-Eval vm_compute in ("<<<M1772>>>" ++ check (runes_of_ascii "
-")).
-Eval vm_compute in ("<<<M1804>>>" ++ check (runes_of_ascii "options { }
-")).
-Eval vm_compute in ("<<<M1836>>>" ++ check (runes_of_ascii "packet
-    // c
-    float { int8 trueish,}")).
-Eval vm_compute in ("<<<M1868>>>" ++ check (runes_of_ascii "packet a1 // " ++ [27880; 37322]%N ++ runes_of_ascii "
-{@lengthOf(
-    //	t
-    trueish
-) repeat Header{ uint8
-    packetx
-,match
-    len
-as u8x  { [
-    //
-    255 ,
-    ""\n"",
-42] : f32a,[ 42 ,42]
-: u ,""\" ++ [233]%N ++ runes_of_ascii """ : asx
-    ""abc""
-:u128
-,} ,	} , @lengthOf( Header)
-    repeat // " ++ [27880; 37322]%N ++ runes_of_ascii "
-uint64 int ,
-    repeat options1 `say ""hi""`, @lengthOf( msg_type ) match // packet A { u8 x, }
-Pad as	rootA { 1 :metadata	""abc"" : As ""x y""
-:  tag,007
-: tag// " ++ [128512]%N ++ runes_of_ascii " emoji
-,
-1 :i64_,
-    }	, string_ crc
-    ,	repeat int8 len ,zchar[42 ]
-    a1 ,
-} MetaData
-Z9_ { uint16 crc ,u16 i64_ , u32 i64_ ,}  packet chars { @leftPad
-( ' ' ) u32 roots `line1
-line2` ,match
-pack// " ++ [27880; 37322]%N ++ runes_of_ascii "
-as MetaDataX
-    {""\n"" :
-u
-10	:lengthOf // `tick` ""quote"" 'q'
-, 00
-: tag // " ++ [27880; 37322]%N ++ runes_of_ascii "
-,
-}	,@lengthOf(Foo )uint8 leftPad
-    // " ++ [128512]%N ++ runes_of_ascii " emoji
-    `{ , }`	, @tag( // " ++ [128512]%N ++ runes_of_ascii " emoji
-1
-) @rightPad (' ' )
-@rightPad(  '\x00') asx { zchar[
-    10]
-Packet , // @lengthOf(
-uint8
-    len@lengthOf( T
-    ) , } , @lengthOf( pack
-) zchar[ 42 ]
-    float// c
-@calculatedFrom(	""x y""
-    )
-    ,} root
-    packet	f32a {
-@lengthOf(
-// @lengthOf(
-// trailing space 
-T
-)char T
-@calculatedFrom( ""it's"" ), repeat i32 charz	`crlf
-line`,repeat string
-    tag ,@rightPad()
-    @leftPad ( )@tag( 0123456789)
-string calculatedFrom
-    @lengthOf( Pad
-    ) `two words` ,
-string Z9_@lengthOf( int  )
-    , }")).
-Eval vm_compute in ("<<<T1868>>>" ++ terms [mkTok 35 "packet" 1 0 false; mkTok 42 "a1" 1 7 false; mkTok 44 (string_of_bytes [47; 47; 32; 230; 179; 168; 233; 135; 138]%N) 1 10 true; mkTok 2 "{" 2 0 false; mkTok 7 "@lengthOf(" 2 1 false; mkTok 44 (string_of_bytes [47; 47; 9; 116]%N) 3 4 true; mkTok 42 "trueish" 4 4 false; mkTok 6 ")" 5 0 false; mkTok 36 "repeat" 5 2 false; mkTok 42 "Header" 5 9 false; mkTok 2 "{" 5 15 false; mkTok 20 "uint8" 5 17 false; mkTok 42 "packetx" 6 4 false; mkTok 40 "," 7 0 false; mkTok 38 "match" 7 1 false; mkTok 42 "len" 8 4 false; mkTok 17 "as" 9 0 false; mkTok 42 "u8x" 9 3 false; mkTok 2 "{" 9 8 false; mkTok 18 "[" 9 10 false; mkTok 44 "//" 10 4 true; mkTok 30 "255" 11 4 false; mkTok 40 "," 11 8 false; mkTok 31 """\n""" 12 4 false; mkTok 40 "," 12 8 false; mkTok 30 "42" 13 0 false; mkTok 13 "]" 13 2 false; mkTok 39 ":" 13 4 false; mkTok 42 "f32a" 13 6 false; mkTok 40 "," 13 10 false; mkTok 18 "[" 13 11 false; mkTok 30 "42" 13 13 false; mkTok 40 "," 13 16 false; mkTok 30 "42" 13 17 false; mkTok 13 "]" 13 19 false; mkTok 39 ":" 14 0 false; mkTok 42 "u" 14 2 false; mkTok 40 "," 14 4 false; mkTok 31 (string_of_bytes [34; 92; 195; 169; 34]%N) 14 5 false; mkTok 39 ":" 14 10 false; mkTok 42 "asx" 14 12 false; mkTok 31 """abc""" 15 4 false; mkTok 39 ":" 16 0 false; mkTok 42 "u128" 16 1 false; mkTok 40 "," 17 0 false; mkTok 3 "}" 17 1 false; mkTok 40 "," 17 3 false; mkTok 3 "}" 17 5 false; mkTok 40 "," 17 7 false; mkTok 7 "@lengthOf(" 17 9 false; mkTok 42 "Header" 17 20 false; mkTok 6 ")" 17 26 false; mkTok 36 "repeat" 18 4 false; mkTok 44 (string_of_bytes [47; 47; 32; 230; 179; 168; 233; 135; 138]%N) 18 11 true; mkTok 23 "uint64" 19 0 false; mkTok 42 "int" 19 7 false; mkTok 40 "," 19 11 false; mkTok 36 "repeat" 20 4 false; mkTok 42 "options1" 20 11 false; mkTok 43 "`say ""hi""`" 20 20 false; mkTok 40 "," 20 30 false; mkTok 7 "@lengthOf(" 20 32 false; mkTok 42 "msg_type" 20 43 false; mkTok 6 ")" 20 52 false; mkTok 38 "match" 20 54 false; mkTok 44 "// packet A { u8 x, }" 20 60 true; mkTok 42 "Pad" 21 0 false; mkTok 17 "as" 21 4 false; mkTok 42 "rootA" 21 7 false; mkTok 2 "{" 21 13 false; mkTok 30 "1" 21 15 false; mkTok 39 ":" 21 17 false; mkTok 42 "metadata" 21 18 false; mkTok 31 """abc""" 21 27 false; mkTok 39 ":" 21 33 false; mkTok 42 "As" 21 35 false; mkTok 31 """x y""" 21 38 false; mkTok 39 ":" 22 0 false; mkTok 42 "tag" 22 3 false; mkTok 40 "," 22 6 false; mkTok 30 "007" 22 7 false; mkTok 39 ":" 23 0 false; mkTok 42 "tag" 23 2 false; mkTok 44 (string_of_bytes [47; 47; 32; 240; 159; 152; 128; 32; 101; 109; 111; 106; 105]%N) 23 5 true; mkTok 40 "," 24 0 false; mkTok 30 "1" 25 0 false; mkTok 39 ":" 25 2 false; mkTok 42 "i64_" 25 3 false; mkTok 40 "," 25 7 false; mkTok 3 "}" 26 4 false; mkTok 40 "," 26 6 false; mkTok 42 "string_" 26 8 false; mkTok 42 "crc" 26 16 false; mkTok 40 "," 27 4 false; mkTok 36 "repeat" 27 6 false; mkTok 24 "int8" 27 13 false; mkTok 42 "len" 27 18 false; mkTok 40 "," 27 22 false; mkTok 14 "zchar[" 27 23 false; mkTok 30 "42" 27 29 false; mkTok 13 "]" 27 32 false; mkTok 42 "a1" 28 4 false; mkTok 40 "," 28 7 false; mkTok 3 "}" 29 0 false; mkTok 37 "MetaData" 29 2 false; mkTok 42 "Z9_" 30 0 false; mkTok 2 "{" 30 4 false; mkTok 21 "uint16" 30 6 false; mkTok 42 "crc" 30 13 false; mkTok 40 "," 30 17 false; mkTok 21 "u16" 30 18 false; mkTok 42 "i64_" 30 22 false; mkTok 40 "," 30 27 false; mkTok 22 "u32" 30 29 false; mkTok 42 "i64_" 30 33 false; mkTok 40 "," 30 38 false; mkTok 3 "}" 30 39 false; mkTok 35 "packet" 30 42 false; mkTok 42 "chars" 30 49 false; mkTok 2 "{" 30 55 false; mkTok 32 "@leftPad" 30 57 false; mkTok 8 "(" 31 0 false; mkTok 33 "' '" 31 2 false; mkTok 6 ")" 31 6 false; mkTok 22 "u32" 31 8 false; mkTok 42 "roots" 31 12 false; mkTok 43 (string_of_bytes [96; 108; 105; 110; 101; 49; 10; 108; 105; 110; 101; 50; 96]%N) 31 18 false; mkTok 40 "," 32 7 false; mkTok 38 "match" 32 8 false; mkTok 42 "pack" 33 0 false; mkTok 44 (string_of_bytes [47; 47; 32; 230; 179; 168; 233; 135; 138]%N) 33 4 true; mkTok 17 "as" 34 0 false; mkTok 42 "MetaDataX" 34 3 false; mkTok 2 "{" 35 4 false; mkTok 31 """\n""" 35 5 false; mkTok 39 ":" 35 10 false; mkTok 42 "u" 36 0 false; mkTok 30 "10" 37 0 false; mkTok 39 ":" 37 3 false; mkTok 42 "lengthOf" 37 4 false; mkTok 44 "// `tick` ""quote"" 'q'" 37 13 true; mkTok 40 "," 38 0 false; mkTok 30 "00" 38 2 false; mkTok 39 ":" 39 0 false; mkTok 42 "tag" 39 2 false; mkTok 44 (string_of_bytes [47; 47; 32; 230; 179; 168; 233; 135; 138]%N) 39 6 true; mkTok 40 "," 40 0 false; mkTok 3 "}" 41 0 false; mkTok 40 "," 41 2 false; mkTok 7 "@lengthOf(" 41 3 false; mkTok 42 "Foo" 41 13 false; mkTok 6 ")" 41 17 false; mkTok 20 "uint8" 41 18 false; mkTok 42 "leftPad" 41 24 false; mkTok 44 (string_of_bytes [47; 47; 32; 240; 159; 152; 128; 32; 101; 109; 111; 106; 105]%N) 42 4 true; mkTok 43 "`{ , }`" 43 4 false; mkTok 40 "," 43 12 false; mkTok 9 "@tag(" 43 14 false; mkTok 44 (string_of_bytes [47; 47; 32; 240; 159; 152; 128; 32; 101; 109; 111; 106; 105]%N) 43 20 true; mkTok 30 "1" 44 0 false; mkTok 6 ")" 45 0 false; mkTok 32 "@rightPad" 45 2 false; mkTok 8 "(" 45 12 false; mkTok 33 "' '" 45 13 false; mkTok 6 ")" 45 17 false; mkTok 32 "@rightPad" 46 0 false; mkTok 8 "(" 46 9 false; mkTok 33 "'\x00'" 46 12 false; mkTok 6 ")" 46 18 false; mkTok 42 "asx" 46 20 false; mkTok 2 "{" 46 24 false; mkTok 14 "zchar[" 46 26 false; mkTok 30 "10" 47 4 false; mkTok 13 "]" 47 6 false; mkTok 42 "Packet" 48 0 false; mkTok 40 "," 48 7 false; mkTok 44 "// @lengthOf(" 48 9 true; mkTok 20 "uint8" 49 0 false; mkTok 42 "len" 50 4 false; mkTok 7 "@lengthOf(" 50 7 false; mkTok 42 "T" 50 18 false; mkTok 6 ")" 51 4 false; mkTok 40 "," 51 6 false; mkTok 3 "}" 51 8 false; mkTok 40 "," 51 10 false; mkTok 7 "@lengthOf(" 51 12 false; mkTok 42 "pack" 51 23 false; mkTok 6 ")" 52 0 false; mkTok 14 "zchar[" 52 2 false; mkTok 30 "42" 52 9 false; mkTok 13 "]" 52 12 false; mkTok 42 "float" 53 4 false; mkTok 44 "// c" 53 9 true; mkTok 5 "@calculatedFrom(" 54 0 false; mkTok 31 """x y""" 54 17 false; mkTok 6 ")" 55 4 false; mkTok 40 "," 56 4 false; mkTok 3 "}" 56 5 false; mkTok 34 "root" 56 7 false; mkTok 35 "packet" 57 4 false; mkTok 42 "f32a" 57 11 false; mkTok 2 "{" 57 16 false; mkTok 7 "@lengthOf(" 58 0 false; mkTok 44 "// @lengthOf(" 59 0 true; mkTok 44 "// trailing space " 60 0 true; mkTok 42 "T" 61 0 false; mkTok 6 ")" 62 0 false; mkTok 19 "char" 62 1 false; mkTok 42 "T" 62 6 false; mkTok 5 "@calculatedFrom(" 63 0 false; mkTok 31 """it's""" 63 17 false; mkTok 6 ")" 63 24 false; mkTok 40 "," 63 25 false; mkTok 36 "repeat" 63 27 false; mkTok 26 "i32" 63 34 false; mkTok 42 "charz" 63 38 false; mkTok 43 (string_of_bytes [96; 99; 114; 108; 102; 13; 10; 108; 105; 110; 101; 96]%N) 63 44 false; mkTok 40 "," 64 5 false; mkTok 36 "repeat" 64 6 false; mkTok 15 "string" 64 13 false; mkTok 42 "tag" 65 4 false; mkTok 40 "," 65 8 false; mkTok 32 "@rightPad" 65 9 false; mkTok 8 "(" 65 18 false; mkTok 6 ")" 65 19 false; mkTok 32 "@leftPad" 66 4 false; mkTok 8 "(" 66 13 false; mkTok 6 ")" 66 15 false; mkTok 9 "@tag(" 66 16 false; mkTok 30 "0123456789" 66 22 false; mkTok 6 ")" 66 32 false; mkTok 15 "string" 67 0 false; mkTok 42 "calculatedFrom" 67 7 false; mkTok 7 "@lengthOf(" 68 4 false; mkTok 42 "Pad" 68 15 false; mkTok 6 ")" 69 4 false; mkTok 43 "`two words`" 69 6 false; mkTok 40 "," 69 18 false; mkTok 15 "string" 70 0 false; mkTok 42 "Z9_" 70 7 false; mkTok 7 "@lengthOf(" 70 10 false; mkTok 42 "int" 70 21 false; mkTok 6 ")" 70 26 false; mkTok 40 "," 71 4 false; mkTok 3 "}" 71 6 false; mkTok 0 "<EOF>" 71 7 false] (mkPacket (mkPtok 35 "packet" 1 0 0) (Some (mkPtok 3 "}" 71 6 244)) [(DPacket (mkPacketDef (mkSpan (mkPtok 35 "packet" 1 0 0) (mkPtok 3 "}" 29 0 103)) None (mkPtok 35 "packet" 1 0 0) (mkPtok 42 "a1" 1 7 1) (mkPtok 2 "{" 2 0 3) [(mkFieldWithAttr (mkSpan (mkPtok 7 "@lengthOf(" 2 1 4) (mkPtok 40 "," 17 7 48)) [(FALengthOf (mkSpan (mkPtok 7 "@lengthOf(" 2 1 4) (mkPtok 6 ")" 5 0 7)) (mkLengthOf (mkSpan (mkPtok 7 "@lengthOf(" 2 1 4) (mkPtok 6 ")" 5 0 7)) (mkPtok 7 "@lengthOf(" 2 1 4) (mkPtok 42 "trueish" 4 4 6) (mkPtok 6 ")" 5 0 7)))] (InerObjectField (mkSpan (mkPtok 36 "repeat" 5 2 8) (mkPtok 40 "," 17 7 48)) (Some (mkPtok 36 "repeat" 5 2 8)) (InerObjectDecl (mkSpan (mkPtok 42 "Header" 5 9 9) (mkPtok 3 "}" 17 5 47)) (mkPtok 42 "Header" 5 9 9) (mkPtok 2 "{" 5 15 10) [(MetaField (mkSpan (mkPtok 20 "uint8" 5 17 11) (mkPtok 40 "," 7 0 13)) None (mkMetaDecl (mkSpan (mkPtok 20 "uint8" 5 17 11) (mkPtok 40 "," 7 0 13)) (TyBasic (mkSpan (mkPtok 20 "uint8" 5 17 11) (mkPtok 20 "uint8" 5 17 11)) (mkBasicType (mkSpan (mkPtok 20 "uint8" 5 17 11) (mkPtok 20 "uint8" 5 17 11)) (mkPtok 20 "uint8" 5 17 11))) (mkPtok 42 "packetx" 6 4 12) None (mkPtok 40 "," 7 0 13))); (MatchField (mkSpan (mkPtok 38 "match" 7 1 14) (mkPtok 40 "," 17 3 46)) (mkMatchFieldDecl (mkSpan (mkPtok 38 "match" 7 1 14) (mkPtok 3 "}" 17 1 45)) (mkPtok 38 "match" 7 1 14) (mkPtok 42 "len" 8 4 15) (mkPtok 17 "as" 9 0 16) (mkPtok 42 "u8x" 9 3 17) (mkPtok 2 "{" 9 8 18) [(mkMatchPair (mkSpan (mkPtok 18 "[" 9 10 19) (mkPtok 40 "," 13 10 29)) (MKList (mkKeyList (mkSpan (mkPtok 18 "[" 9 10 19) (mkPtok 13 "]" 13 2 26)) (mkPtok 18 "[" 9 10 19) (mkPtok 30 "255" 11 4 21) [((mkPtok 40 "," 11 8 22), (mkPtok 31 """\n""" 12 4 23)); ((mkPtok 40 "," 12 8 24), (mkPtok 30 "42" 13 0 25))] (mkPtok 13 "]" 13 2 26))) (mkPtok 39 ":" 13 4 27) (mkPtok 42 "f32a" 13 6 28) (Some (mkPtok 40 "," 13 10 29))); (mkMatchPair (mkSpan (mkPtok 18 "[" 13 11 30) (mkPtok 40 "," 14 4 37)) (MKList (mkKeyList (mkSpan (mkPtok 18 "[" 13 11 30) (mkPtok 13 "]" 13 19 34)) (mkPtok 18 "[" 13 11 30) (mkPtok 30 "42" 13 13 31) [((mkPtok 40 "," 13 16 32), (mkPtok 30 "42" 13 17 33))] (mkPtok 13 "]" 13 19 34))) (mkPtok 39 ":" 14 0 35) (mkPtok 42 "u" 14 2 36) (Some (mkPtok 40 "," 14 4 37))); (mkMatchPair (mkSpan (mkPtok 31 (string_of_bytes [34; 92; 195; 169; 34]%N) 14 5 38) (mkPtok 42 "asx" 14 12 40)) (MKString (mkPtok 31 (string_of_bytes [34; 92; 195; 169; 34]%N) 14 5 38)) (mkPtok 39 ":" 14 10 39) (mkPtok 42 "asx" 14 12 40) None); (mkMatchPair (mkSpan (mkPtok 31 """abc""" 15 4 41) (mkPtok 40 "," 17 0 44)) (MKString (mkPtok 31 """abc""" 15 4 41)) (mkPtok 39 ":" 16 0 42) (mkPtok 42 "u128" 16 1 43) (Some (mkPtok 40 "," 17 0 44)))] (mkPtok 3 "}" 17 1 45)) (mkPtok 40 "," 17 3 46))] (mkPtok 3 "}" 17 5 47)) (mkPtok 40 "," 17 7 48))); (mkFieldWithAttr (mkSpan (mkPtok 7 "@lengthOf(" 17 9 49) (mkPtok 40 "," 19 11 56)) [(FALengthOf (mkSpan (mkPtok 7 "@lengthOf(" 17 9 49) (mkPtok 6 ")" 17 26 51)) (mkLengthOf (mkSpan (mkPtok 7 "@lengthOf(" 17 9 49) (mkPtok 6 ")" 17 26 51)) (mkPtok 7 "@lengthOf(" 17 9 49) (mkPtok 42 "Header" 17 20 50) (mkPtok 6 ")" 17 26 51)))] (MetaField (mkSpan (mkPtok 36 "repeat" 18 4 52) (mkPtok 40 "," 19 11 56)) (Some (mkPtok 36 "repeat" 18 4 52)) (mkMetaDecl (mkSpan (mkPtok 23 "uint64" 19 0 54) (mkPtok 40 "," 19 11 56)) (TyBasic (mkSpan (mkPtok 23 "uint64" 19 0 54) (mkPtok 23 "uint64" 19 0 54)) (mkBasicType (mkSpan (mkPtok 23 "uint64" 19 0 54) (mkPtok 23 "uint64" 19 0 54)) (mkPtok 23 "uint64" 19 0 54))) (mkPtok 42 "int" 19 7 55) None (mkPtok 40 "," 19 11 56)))); (mkFieldWithAttr (mkSpan (mkPtok 36 "repeat" 20 4 57) (mkPtok 40 "," 20 30 60)) [] (ObjectField (mkSpan (mkPtok 36 "repeat" 20 4 57) (mkPtok 40 "," 20 30 60)) (Some (mkPtok 36 "repeat" 20 4 57)) (mkPtok 42 "options1" 20 11 58) None (Some (mkPtok 43 "`say ""hi""`" 20 20 59)) (mkPtok 40 "," 20 30 60))); (mkFieldWithAttr (mkSpan (mkPtok 7 "@lengthOf(" 20 32 61) (mkPtok 40 "," 26 6 90)) [(FALengthOf (mkSpan (mkPtok 7 "@lengthOf(" 20 32 61) (mkPtok 6 ")" 20 52 63)) (mkLengthOf (mkSpan (mkPtok 7 "@lengthOf(" 20 32 61) (mkPtok 6 ")" 20 52 63)) (mkPtok 7 "@lengthOf(" 20 32 61) (mkPtok 42 "msg_type" 20 43 62) (mkPtok 6 ")" 20 52 63)))] (MatchField (mkSpan (mkPtok 38 "match" 20 54 64) (mkPtok 40 "," 26 6 90)) (mkMatchFieldDecl (mkSpan (mkPtok 38 "match" 20 54 64) (mkPtok 3 "}" 26 4 89)) (mkPtok 38 "match" 20 54 64) (mkPtok 42 "Pad" 21 0 66) (mkPtok 17 "as" 21 4 67) (mkPtok 42 "rootA" 21 7 68) (mkPtok 2 "{" 21 13 69) [(mkMatchPair (mkSpan (mkPtok 30 "1" 21 15 70) (mkPtok 42 "metadata" 21 18 72)) (MKDigits (mkPtok 30 "1" 21 15 70)) (mkPtok 39 ":" 21 17 71) (mkPtok 42 "metadata" 21 18 72) None); (mkMatchPair (mkSpan (mkPtok 31 """abc""" 21 27 73) (mkPtok 42 "As" 21 35 75)) (MKString (mkPtok 31 """abc""" 21 27 73)) (mkPtok 39 ":" 21 33 74) (mkPtok 42 "As" 21 35 75) None); (mkMatchPair (mkSpan (mkPtok 31 """x y""" 21 38 76) (mkPtok 40 "," 22 6 79)) (MKString (mkPtok 31 """x y""" 21 38 76)) (mkPtok 39 ":" 22 0 77) (mkPtok 42 "tag" 22 3 78) (Some (mkPtok 40 "," 22 6 79))); (mkMatchPair (mkSpan (mkPtok 30 "007" 22 7 80) (mkPtok 40 "," 24 0 84)) (MKDigits (mkPtok 30 "007" 22 7 80)) (mkPtok 39 ":" 23 0 81) (mkPtok 42 "tag" 23 2 82) (Some (mkPtok 40 "," 24 0 84))); (mkMatchPair (mkSpan (mkPtok 30 "1" 25 0 85) (mkPtok 40 "," 25 7 88)) (MKDigits (mkPtok 30 "1" 25 0 85)) (mkPtok 39 ":" 25 2 86) (mkPtok 42 "i64_" 25 3 87) (Some (mkPtok 40 "," 25 7 88)))] (mkPtok 3 "}" 26 4 89)) (mkPtok 40 "," 26 6 90))); (mkFieldWithAttr (mkSpan (mkPtok 42 "string_" 26 8 91) (mkPtok 40 "," 27 4 93)) [] (ObjectField (mkSpan (mkPtok 42 "string_" 26 8 91) (mkPtok 40 "," 27 4 93)) None (mkPtok 42 "string_" 26 8 91) (Some (mkPtok 42 "crc" 26 16 92)) None (mkPtok 40 "," 27 4 93))); (mkFieldWithAttr (mkSpan (mkPtok 36 "repeat" 27 6 94) (mkPtok 40 "," 27 22 97)) [] (MetaField (mkSpan (mkPtok 36 "repeat" 27 6 94) (mkPtok 40 "," 27 22 97)) (Some (mkPtok 36 "repeat" 27 6 94)) (mkMetaDecl (mkSpan (mkPtok 24 "int8" 27 13 95) (mkPtok 40 "," 27 22 97)) (TyBasic (mkSpan (mkPtok 24 "int8" 27 13 95) (mkPtok 24 "int8" 27 13 95)) (mkBasicType (mkSpan (mkPtok 24 "int8" 27 13 95) (mkPtok 24 "int8" 27 13 95)) (mkPtok 24 "int8" 27 13 95))) (mkPtok 42 "len" 27 18 96) None (mkPtok 40 "," 27 22 97)))); (mkFieldWithAttr (mkSpan (mkPtok 14 "zchar[" 27 23 98) (mkPtok 40 "," 28 7 102)) [] (MetaField (mkSpan (mkPtok 14 "zchar[" 27 23 98) (mkPtok 40 "," 28 7 102)) None (mkMetaDecl (mkSpan (mkPtok 14 "zchar[" 27 23 98) (mkPtok 40 "," 28 7 102)) (TyFixed (mkSpan (mkPtok 14 "zchar[" 27 23 98) (mkPtok 13 "]" 27 32 100)) (mkFixedString (mkSpan (mkPtok 14 "zchar[" 27 23 98) (mkPtok 13 "]" 27 32 100)) (mkPtok 14 "zchar[" 27 23 98) (mkPtok 30 "42" 27 29 99) (mkPtok 13 "]" 27 32 100))) (mkPtok 42 "a1" 28 4 101) None (mkPtok 40 "," 28 7 102))))] (mkPtok 3 "}" 29 0 103))); (DMeta (mkMetaDef (mkSpan (mkPtok 37 "MetaData" 29 2 104) (mkPtok 3 "}" 30 39 116)) (mkPtok 37 "MetaData" 29 2 104) (mkPtok 42 "Z9_" 30 0 105) (mkPtok 2 "{" 30 4 106) [(MIDecl (mkMetaDecl (mkSpan (mkPtok 21 "uint16" 30 6 107) (mkPtok 40 "," 30 17 109)) (TyBasic (mkSpan (mkPtok 21 "uint16" 30 6 107) (mkPtok 21 "uint16" 30 6 107)) (mkBasicType (mkSpan (mkPtok 21 "uint16" 30 6 107) (mkPtok 21 "uint16" 30 6 107)) (mkPtok 21 "uint16" 30 6 107))) (mkPtok 42 "crc" 30 13 108) None (mkPtok 40 "," 30 17 109))); (MIDecl (mkMetaDecl (mkSpan (mkPtok 21 "u16" 30 18 110) (mkPtok 40 "," 30 27 112)) (TyBasic (mkSpan (mkPtok 21 "u16" 30 18 110) (mkPtok 21 "u16" 30 18 110)) (mkBasicType (mkSpan (mkPtok 21 "u16" 30 18 110) (mkPtok 21 "u16" 30 18 110)) (mkPtok 21 "u16" 30 18 110))) (mkPtok 42 "i64_" 30 22 111) None (mkPtok 40 "," 30 27 112))); (MIDecl (mkMetaDecl (mkSpan (mkPtok 22 "u32" 30 29 113) (mkPtok 40 "," 30 38 115)) (TyBasic (mkSpan (mkPtok 22 "u32" 30 29 113) (mkPtok 22 "u32" 30 29 113)) (mkBasicType (mkSpan (mkPtok 22 "u32" 30 29 113) (mkPtok 22 "u32" 30 29 113)) (mkPtok 22 "u32" 30 29 113))) (mkPtok 42 "i64_" 30 33 114) None (mkPtok 40 "," 30 38 115)))] (mkPtok 3 "}" 30 39 116))); (DPacket (mkPacketDef (mkSpan (mkPtok 35 "packet" 30 42 117) (mkPtok 3 "}" 56 5 197)) None (mkPtok 35 "packet" 30 42 117) (mkPtok 42 "chars" 30 49 118) (mkPtok 2 "{" 30 55 119) [(mkFieldWithAttr (mkSpan (mkPtok 32 "@leftPad" 30 57 120) (mkPtok 40 "," 32 7 127)) [(FAPadding (mkSpan (mkPtok 32 "@leftPad" 30 57 120) (mkPtok 6 ")" 31 6 123)) (mkPaddingAttr (mkSpan (mkPtok 32 "@leftPad" 30 57 120) (mkPtok 6 ")" 31 6 123)) (mkPtok 32 "@leftPad" 30 57 120) (mkPtok 8 "(" 31 0 121) (Some (mkPtok 33 "' '" 31 2 122)) (mkPtok 6 ")" 31 6 123)))] (MetaField (mkSpan (mkPtok 22 "u32" 31 8 124) (mkPtok 40 "," 32 7 127)) None (mkMetaDecl (mkSpan (mkPtok 22 "u32" 31 8 124) (mkPtok 40 "," 32 7 127)) (TyBasic (mkSpan (mkPtok 22 "u32" 31 8 124) (mkPtok 22 "u32" 31 8 124)) (mkBasicType (mkSpan (mkPtok 22 "u32" 31 8 124) (mkPtok 22 "u32" 31 8 124)) (mkPtok 22 "u32" 31 8 124))) (mkPtok 42 "roots" 31 12 125) (Some (mkPtok 43 (string_of_bytes [96; 108; 105; 110; 101; 49; 10; 108; 105; 110; 101; 50; 96]%N) 31 18 126)) (mkPtok 40 "," 32 7 127)))); (mkFieldWithAttr (mkSpan (mkPtok 38 "match" 32 8 128) (mkPtok 40 "," 41 2 148)) [] (MatchField (mkSpan (mkPtok 38 "match" 32 8 128) (mkPtok 40 "," 41 2 148)) (mkMatchFieldDecl (mkSpan (mkPtok 38 "match" 32 8 128) (mkPtok 3 "}" 41 0 147)) (mkPtok 38 "match" 32 8 128) (mkPtok 42 "pack" 33 0 129) (mkPtok 17 "as" 34 0 131) (mkPtok 42 "MetaDataX" 34 3 132) (mkPtok 2 "{" 35 4 133) [(mkMatchPair (mkSpan (mkPtok 31 """\n""" 35 5 134) (mkPtok 42 "u" 36 0 136)) (MKString (mkPtok 31 """\n""" 35 5 134)) (mkPtok 39 ":" 35 10 135) (mkPtok 42 "u" 36 0 136) None); (mkMatchPair (mkSpan (mkPtok 30 "10" 37 0 137) (mkPtok 40 "," 38 0 141)) (MKDigits (mkPtok 30 "10" 37 0 137)) (mkPtok 39 ":" 37 3 138) (mkPtok 42 "lengthOf" 37 4 139) (Some (mkPtok 40 "," 38 0 141))); (mkMatchPair (mkSpan (mkPtok 30 "00" 38 2 142) (mkPtok 40 "," 40 0 146)) (MKDigits (mkPtok 30 "00" 38 2 142)) (mkPtok 39 ":" 39 0 143) (mkPtok 42 "tag" 39 2 144) (Some (mkPtok 40 "," 40 0 146)))] (mkPtok 3 "}" 41 0 147)) (mkPtok 40 "," 41 2 148))); (mkFieldWithAttr (mkSpan (mkPtok 7 "@lengthOf(" 41 3 149) (mkPtok 40 "," 43 12 156)) [(FALengthOf (mkSpan (mkPtok 7 "@lengthOf(" 41 3 149) (mkPtok 6 ")" 41 17 151)) (mkLengthOf (mkSpan (mkPtok 7 "@lengthOf(" 41 3 149) (mkPtok 6 ")" 41 17 151)) (mkPtok 7 "@lengthOf(" 41 3 149) (mkPtok 42 "Foo" 41 13 150) (mkPtok 6 ")" 41 17 151)))] (MetaField (mkSpan (mkPtok 20 "uint8" 41 18 152) (mkPtok 40 "," 43 12 156)) None (mkMetaDecl (mkSpan (mkPtok 20 "uint8" 41 18 152) (mkPtok 40 "," 43 12 156)) (TyBasic (mkSpan (mkPtok 20 "uint8" 41 18 152) (mkPtok 20 "uint8" 41 18 152)) (mkBasicType (mkSpan (mkPtok 20 "uint8" 41 18 152) (mkPtok 20 "uint8" 41 18 152)) (mkPtok 20 "uint8" 41 18 152))) (mkPtok 42 "leftPad" 41 24 153) (Some (mkPtok 43 "`{ , }`" 43 4 155)) (mkPtok 40 "," 43 12 156)))); (mkFieldWithAttr (mkSpan (mkPtok 9 "@tag(" 43 14 157) (mkPtok 40 "," 51 10 184)) [(FATag (mkSpan (mkPtok 9 "@tag(" 43 14 157) (mkPtok 6 ")" 45 0 160)) (mkTagAttr (mkSpan (mkPtok 9 "@tag(" 43 14 157) (mkPtok 6 ")" 45 0 160)) (mkPtok 9 "@tag(" 43 14 157) (mkPtok 30 "1" 44 0 159) (mkPtok 6 ")" 45 0 160))); (FAPadding (mkSpan (mkPtok 32 "@rightPad" 45 2 161) (mkPtok 6 ")" 45 17 164)) (mkPaddingAttr (mkSpan (mkPtok 32 "@rightPad" 45 2 161) (mkPtok 6 ")" 45 17 164)) (mkPtok 32 "@rightPad" 45 2 161) (mkPtok 8 "(" 45 12 162) (Some (mkPtok 33 "' '" 45 13 163)) (mkPtok 6 ")" 45 17 164))); (FAPadding (mkSpan (mkPtok 32 "@rightPad" 46 0 165) (mkPtok 6 ")" 46 18 168)) (mkPaddingAttr (mkSpan (mkPtok 32 "@rightPad" 46 0 165) (mkPtok 6 ")" 46 18 168)) (mkPtok 32 "@rightPad" 46 0 165) (mkPtok 8 "(" 46 9 166) (Some (mkPtok 33 "'\x00'" 46 12 167)) (mkPtok 6 ")" 46 18 168)))] (InerObjectField (mkSpan (mkPtok 42 "asx" 46 20 169) (mkPtok 40 "," 51 10 184)) None (InerObjectDecl (mkSpan (mkPtok 42 "asx" 46 20 169) (mkPtok 3 "}" 51 8 183)) (mkPtok 42 "asx" 46 20 169) (mkPtok 2 "{" 46 24 170) [(MetaField (mkSpan (mkPtok 14 "zchar[" 46 26 171) (mkPtok 40 "," 48 7 175)) None (mkMetaDecl (mkSpan (mkPtok 14 "zchar[" 46 26 171) (mkPtok 40 "," 48 7 175)) (TyFixed (mkSpan (mkPtok 14 "zchar[" 46 26 171) (mkPtok 13 "]" 47 6 173)) (mkFixedString (mkSpan (mkPtok 14 "zchar[" 46 26 171) (mkPtok 13 "]" 47 6 173)) (mkPtok 14 "zchar[" 46 26 171) (mkPtok 30 "10" 47 4 172) (mkPtok 13 "]" 47 6 173))) (mkPtok 42 "Packet" 48 0 174) None (mkPtok 40 "," 48 7 175))); (LengthField (mkSpan (mkPtok 20 "uint8" 49 0 177) (mkPtok 40 "," 51 6 182)) (mkLengthFieldDecl (mkSpan (mkPtok 20 "uint8" 49 0 177) (mkPtok 40 "," 51 6 182)) (Some (TyBasic (mkSpan (mkPtok 20 "uint8" 49 0 177) (mkPtok 20 "uint8" 49 0 177)) (mkBasicType (mkSpan (mkPtok 20 "uint8" 49 0 177) (mkPtok 20 "uint8" 49 0 177)) (mkPtok 20 "uint8" 49 0 177)))) (mkPtok 42 "len" 50 4 178) (mkLengthOf (mkSpan (mkPtok 7 "@lengthOf(" 50 7 179) (mkPtok 6 ")" 51 4 181)) (mkPtok 7 "@lengthOf(" 50 7 179) (mkPtok 42 "T" 50 18 180) (mkPtok 6 ")" 51 4 181)) None (mkPtok 40 "," 51 6 182)))] (mkPtok 3 "}" 51 8 183)) (mkPtok 40 "," 51 10 184))); (mkFieldWithAttr (mkSpan (mkPtok 7 "@lengthOf(" 51 12 185) (mkPtok 40 "," 56 4 196)) [(FALengthOf (mkSpan (mkPtok 7 "@lengthOf(" 51 12 185) (mkPtok 6 ")" 52 0 187)) (mkLengthOf (mkSpan (mkPtok 7 "@lengthOf(" 51 12 185) (mkPtok 6 ")" 52 0 187)) (mkPtok 7 "@lengthOf(" 51 12 185) (mkPtok 42 "pack" 51 23 186) (mkPtok 6 ")" 52 0 187)))] (CheckSumField (mkSpan (mkPtok 14 "zchar[" 52 2 188) (mkPtok 40 "," 56 4 196)) (mkChecksumFieldDecl (mkSpan (mkPtok 14 "zchar[" 52 2 188) (mkPtok 40 "," 56 4 196)) (Some (TyFixed (mkSpan (mkPtok 14 "zchar[" 52 2 188) (mkPtok 13 "]" 52 12 190)) (mkFixedString (mkSpan (mkPtok 14 "zchar[" 52 2 188) (mkPtok 13 "]" 52 12 190)) (mkPtok 14 "zchar[" 52 2 188) (mkPtok 30 "42" 52 9 189) (mkPtok 13 "]" 52 12 190)))) (mkPtok 42 "float" 53 4 191) (mkCalculatedFrom (mkSpan (mkPtok 5 "@calculatedFrom(" 54 0 193) (mkPtok 6 ")" 55 4 195)) (mkPtok 5 "@calculatedFrom(" 54 0 193) (mkPtok 31 """x y""" 54 17 194) (mkPtok 6 ")" 55 4 195)) None (mkPtok 40 "," 56 4 196))))] (mkPtok 3 "}" 56 5 197))); (DPacket (mkPacketDef (mkSpan (mkPtok 34 "root" 56 7 198) (mkPtok 3 "}" 71 6 244)) (Some (mkPtok 34 "root" 56 7 198)) (mkPtok 35 "packet" 57 4 199) (mkPtok 42 "f32a" 57 11 200) (mkPtok 2 "{" 57 16 201) [(mkFieldWithAttr (mkSpan (mkPtok 7 "@lengthOf(" 58 0 202) (mkPtok 40 "," 63 25 212)) [(FALengthOf (mkSpan (mkPtok 7 "@lengthOf(" 58 0 202) (mkPtok 6 ")" 62 0 206)) (mkLengthOf (mkSpan (mkPtok 7 "@lengthOf(" 58 0 202) (mkPtok 6 ")" 62 0 206)) (mkPtok 7 "@lengthOf(" 58 0 202) (mkPtok 42 "T" 61 0 205) (mkPtok 6 ")" 62 0 206)))] (CheckSumField (mkSpan (mkPtok 19 "char" 62 1 207) (mkPtok 40 "," 63 25 212)) (mkChecksumFieldDecl (mkSpan (mkPtok 19 "char" 62 1 207) (mkPtok 40 "," 63 25 212)) (Some (TyBasic (mkSpan (mkPtok 19 "char" 62 1 207) (mkPtok 19 "char" 62 1 207)) (mkBasicType (mkSpan (mkPtok 19 "char" 62 1 207) (mkPtok 19 "char" 62 1 207)) (mkPtok 19 "char" 62 1 207)))) (mkPtok 42 "T" 62 6 208) (mkCalculatedFrom (mkSpan (mkPtok 5 "@calculatedFrom(" 63 0 209) (mkPtok 6 ")" 63 24 211)) (mkPtok 5 "@calculatedFrom(" 63 0 209) (mkPtok 31 """it's""" 63 17 210) (mkPtok 6 ")" 63 24 211)) None (mkPtok 40 "," 63 25 212)))); (mkFieldWithAttr (mkSpan (mkPtok 36 "repeat" 63 27 213) (mkPtok 40 "," 64 5 217)) [] (MetaField (mkSpan (mkPtok 36 "repeat" 63 27 213) (mkPtok 40 "," 64 5 217)) (Some (mkPtok 36 "repeat" 63 27 213)) (mkMetaDecl (mkSpan (mkPtok 26 "i32" 63 34 214) (mkPtok 40 "," 64 5 217)) (TyBasic (mkSpan (mkPtok 26 "i32" 63 34 214) (mkPtok 26 "i32" 63 34 214)) (mkBasicType (mkSpan (mkPtok 26 "i32" 63 34 214) (mkPtok 26 "i32" 63 34 214)) (mkPtok 26 "i32" 63 34 214))) (mkPtok 42 "charz" 63 38 215) (Some (mkPtok 43 (string_of_bytes [96; 99; 114; 108; 102; 13; 10; 108; 105; 110; 101; 96]%N) 63 44 216)) (mkPtok 40 "," 64 5 217)))); (mkFieldWithAttr (mkSpan (mkPtok 36 "repeat" 64 6 218) (mkPtok 40 "," 65 8 221)) [] (MetaField (mkSpan (mkPtok 36 "repeat" 64 6 218) (mkPtok 40 "," 65 8 221)) (Some (mkPtok 36 "repeat" 64 6 218)) (mkMetaDecl (mkSpan (mkPtok 15 "string" 64 13 219) (mkPtok 40 "," 65 8 221)) (TyDynamic (mkSpan (mkPtok 15 "string" 64 13 219) (mkPtok 15 "string" 64 13 219)) (mkDynamicString (mkSpan (mkPtok 15 "string" 64 13 219) (mkPtok 15 "string" 64 13 219)) (mkPtok 15 "string" 64 13 219))) (mkPtok 42 "tag" 65 4 220) None (mkPtok 40 "," 65 8 221)))); (mkFieldWithAttr (mkSpan (mkPtok 32 "@rightPad" 65 9 222) (mkPtok 40 "," 69 18 237)) [(FAPadding (mkSpan (mkPtok 32 "@rightPad" 65 9 222) (mkPtok 6 ")" 65 19 224)) (mkPaddingAttr (mkSpan (mkPtok 32 "@rightPad" 65 9 222) (mkPtok 6 ")" 65 19 224)) (mkPtok 32 "@rightPad" 65 9 222) (mkPtok 8 "(" 65 18 223) None (mkPtok 6 ")" 65 19 224))); (FAPadding (mkSpan (mkPtok 32 "@leftPad" 66 4 225) (mkPtok 6 ")" 66 15 227)) (mkPaddingAttr (mkSpan (mkPtok 32 "@leftPad" 66 4 225) (mkPtok 6 ")" 66 15 227)) (mkPtok 32 "@leftPad" 66 4 225) (mkPtok 8 "(" 66 13 226) None (mkPtok 6 ")" 66 15 227))); (FATag (mkSpan (mkPtok 9 "@tag(" 66 16 228) (mkPtok 6 ")" 66 32 230)) (mkTagAttr (mkSpan (mkPtok 9 "@tag(" 66 16 228) (mkPtok 6 ")" 66 32 230)) (mkPtok 9 "@tag(" 66 16 228) (mkPtok 30 "0123456789" 66 22 229) (mkPtok 6 ")" 66 32 230)))] (LengthField (mkSpan (mkPtok 15 "string" 67 0 231) (mkPtok 40 "," 69 18 237)) (mkLengthFieldDecl (mkSpan (mkPtok 15 "string" 67 0 231) (mkPtok 40 "," 69 18 237)) (Some (TyDynamic (mkSpan (mkPtok 15 "string" 67 0 231) (mkPtok 15 "string" 67 0 231)) (mkDynamicString (mkSpan (mkPtok 15 "string" 67 0 231) (mkPtok 15 "string" 67 0 231)) (mkPtok 15 "string" 67 0 231)))) (mkPtok 42 "calculatedFrom" 67 7 232) (mkLengthOf (mkSpan (mkPtok 7 "@lengthOf(" 68 4 233) (mkPtok 6 ")" 69 4 235)) (mkPtok 7 "@lengthOf(" 68 4 233) (mkPtok 42 "Pad" 68 15 234) (mkPtok 6 ")" 69 4 235)) (Some (mkPtok 43 "`two words`" 69 6 236)) (mkPtok 40 "," 69 18 237)))); (mkFieldWithAttr (mkSpan (mkPtok 15 "string" 70 0 238) (mkPtok 40 "," 71 4 243)) [] (LengthField (mkSpan (mkPtok 15 "string" 70 0 238) (mkPtok 40 "," 71 4 243)) (mkLengthFieldDecl (mkSpan (mkPtok 15 "string" 70 0 238) (mkPtok 40 "," 71 4 243)) (Some (TyDynamic (mkSpan (mkPtok 15 "string" 70 0 238) (mkPtok 15 "string" 70 0 238)) (mkDynamicString (mkSpan (mkPtok 15 "string" 70 0 238) (mkPtok 15 "string" 70 0 238)) (mkPtok 15 "string" 70 0 238)))) (mkPtok 42 "Z9_" 70 7 239) (mkLengthOf (mkSpan (mkPtok 7 "@lengthOf(" 70 10 240) (mkPtok 6 ")" 70 26 242)) (mkPtok 7 "@lengthOf(" 70 10 240) (mkPtok 42 "int" 70 21 241) (mkPtok 6 ")" 70 26 242)) None (mkPtok 40 "," 71 4 243))))] (mkPtok 3 "}" 71 6 244)))])).
-Eval vm_compute in ("<<<M1900>>>" ++ check (runes_of_ascii "packet MetaDataX // a // b
-{@leftPad ('\x00' ) zchar[ 0 ]
-As `say ""hi""` , BodyLength// c
-uint8x  ,
-    // trailing space 
-    packetx f32a
-    , repeat string_
-    u8x ``, lengthOf @lengthOf(	u )
-`tab	here`	, char[/// triple
-65535 ]x_y_z  `two words` ,
-    @calculatedFrom( ""it's"")
+    match options1
+as // " ++ [27880; 37322]%N ++ runes_of_ascii "
+charz {
     /// triple
-    repeatCount @calculatedFrom( """ ++ [233]%N ++ runes_of_ascii "t" ++ [233]%N ++ runes_of_ascii """
-// " ++ [27880; 37322]%N ++ runes_of_ascii "
-//	t
-)
-,}")).
-Eval vm_compute in ("<<<M1932>>>" ++ check (runes_of_ascii "root packet	Pad { @leftPad
-    ( )tag
-Packet	`
-`,
-}	packet
-    // packet A { u8 x, }
-    u128 {
-@rightPad// @lengthOf(
-( ) match f32a as	rootA { 4294967296 :
-/// triple
-// trailing space 
-matchKey , 007 : msg_type	,
-}, match metadata as u128 { ""it's"" : Header , }
-    ,@rightPad	('0'
-)@leftPad  ('\x00' // a // b
-)	@lengthOf(
-u8x ) Foo
-, }")).
-Eval vm_compute in ("<<<M1964>>>" ++ check (runes_of_ascii "
-options { }
-// " ++ [27880; 37322]%N ++ runes_of_ascii "
-")).
-Eval vm_compute in ("<<<M1996>>>" ++ check (@nil rune)).
-Eval vm_compute in ("<<<M2028>>>" ++ check (runes_of_ascii "options{ i64_")).
-Eval vm_compute in ("<<<M2060>>>" ++ check (runes_of_ascii "options{ i64_ = string ; trueish =
-    '\x00'
-    leftPad = = ""a\\"" /// triple
-; crc
-    = 255; uint8x
-=
-""abc""
-    ;}")).
-Eval vm_compute in ("<<<M2092>>>" ++ check (runes_of_ascii "options{ i64_ = string ; trueish =
-    '\x00'
-    leftPad = ""a\\"" /// triple
-; crc
-    = 255 i32 uint8x
-=
-""abc""
-    ;}")).
-Eval vm_compute in ("<<<M2124>>>" ++ check (runes_of_ascii "options{ i64_ = string ; trueish =
-    '\x00'
-    leftPad = ""a\\"" /// tripl/e
-; crc
-    = 255; uint8x
-=
-""abc""
-    ;}")).
-Eval vm_compute in ("<<<M2156>>>" ++ check (runes_of_ascii "  packet
-asx
-{
-/// triple
-// @lengthOf(
-u32 u32 stringy
-`" ++ [28040; 24687; 31867; 22411]%N ++ runes_of_ascii "` ,} MetaData
-    A {string  _x, zchar Header `a\`
-// @lengthOf(
-// packet A { u8 x, }
-, char[] MetaDataX
-,zchar[ 1 ]
-    matchKey
-    , char[] //
-u,	char[0123456789 ]
-    matchKey
-    `{ , }`, }
-")).
-Eval vm_compute in ("<<<M2188>>>" ++ check (runes_of_ascii "  packet
-asx
-{
-/// triple
-// @lengthOf(
-u32 stringy
-`" ++ [28040; 24687; 31867; 22411]%N ++ runes_of_ascii "` ,} MetaData
-    float32 {string  _x, zchar Header `a\`
-// @lengthOf(
-// packet A { u8 x, }
-, char[] MetaDataX
-,zchar[ 1 ]
-    matchKey
-    , char[] //
-u,	char[0123456789 ]
-    matchKey
-    `{ , }`, }
-")).
-Eval vm_compute in ("<<<M2220>>>" ++ check (runes_of_ascii "  packet
-asx
-{
-/// triple
-// @lengthOf(
-u32 stringy
-`" ++ [28040; 24687; 31867; 22411]%N ++ runes_of_ascii "` ,} MetaData
-    A {string  _x, zchar Header 
-// @lengthOf(
-// packet A { u8 x, }
-, char[] MetaDataX
-,zchar[ 1 ]
-    matchKey
-    , char[] //
-u,	char[0123456789 ]
-    matchKey
-    `{ , }`, }
-")).
-Eval vm_compute in ("<<<M2252>>>" ++ check (runes_of_ascii "  packet
-asx
-{
-/// triple
-// @lengthOf(
-u32 stringy
-`" ++ [28040; 24687; 31867; 22411]%N ++ runes_of_ascii "` ,} MetaData
-    A {string  _x, zchar Header `a\`
-// @lengthOf(
-// packet A { u8 x, }
-, char[] MetaDataX
-,zchar[ ] 1
-    matchKey
-    , char[] //
-u,	char[0123456789 ]
-    matchKey
-    `{ , }`, }
-")).
-Eval vm_compute in ("<<<M2284>>>" ++ check (runes_of_ascii "  packet
-asx
-{
-/// triple
-// @lengthOf(
-u32 stringy
-`" ++ [28040; 24687; 31867; 22411]%N ++ runes_of_ascii "` ,} MetaData
-    A {string  _x, zchar Header `a\`
-// @lengthOf(
-// packet A { u8 x, }
-, char[] MetaDataX
-,zchar[ 1 ]
-    matchKey
-    , char[] //
-u")).
-Eval vm_compute in ("<<<M2316>>>" ++ check (runes_of_ascii "  packet
-asx
-{
-/// triple
-// @lengthOf(
-u32 stringy
-`" ++ [28040; 24687; 31867; 22411]%N ++ runes_of_ascii "` ,} MetaData
-    A {string  _x, zchar Header `a\`
-// @lengthOf(
-// packet A { u8 x, }
-, char[] MetaDataX
-,zchar[ 1 ]
-    matchKey
-    , char[] //
-u,	char[0123456789 ]
-    matchKey
-    `{ , }`, } }
-")).
-Eval vm_compute in ("<<<M2348>>>" ++ check (runes_of_ascii "root
-    Packet
-packet
-{ // trailing space 
-matchKey `tab	here` ,}")).
-Eval vm_compute in ("<<<M2380>>>" ++ check (runes_of_ascii "root
-    packet
-Packet
-{ // traili")).
-Eval vm_compute in ("<<<M2412>>>" ++ check (runes_of_ascii "options{  // a // b
-=
-    '0' } options { repeatCount =
-true ; string_// a // b
-=
-// c
-// " ++ [27880; 37322]%N ++ runes_of_ascii "
-int64
-// trailing space 
-/// triple
-; } // @lengthOf(")).
-Eval vm_compute in ("<<<M2444>>>" ++ check (runes_of_ascii "options{ falsey // a // b
-=
-    '0' } options { = repeatCount
-true ; string_// a // b
-=
-// c
-// " ++ [27880; 37322]%N ++ runes_of_ascii "
-int64
-// trailing space 
-/// triple
-; } // @lengthOf(")).
-Eval vm_compute in ("<<<M2476>>>" ++ check (runes_of_ascii "options{ falsey // a // b
-=
-    '0' } options { repeatCount =
-true ; string_// a // b
-=")).
-Eval vm_compute in ("<<<M2508>>>" ++ check (runes_of_ascii "{}root packet
-metadata {
-@lengthOf(x ) float32
-body ``, }
-    MetaData
-Z9_
-    {
-    string string_ , Logon x
+    007 :
+x_y_z ,// " ++ [128512]%N ++ runes_of_ascii " emoji
+7 : T , // packet A { u8 x, }
+[ ""CRC32"" , ""{,}"" ]
+:
+    u8x [ 00 , ""CRC32"" , ""// no comment""
+    , 4294967296 , ""`tick`"" ,42
+,	0123456789 ] :falsey , 42 : pack
+    , ""`tick`"":
+    As
 ,
-uint32
-    // packet A { u8 x, }
-    Z9_,asx
-_x
-    `tab	here` , }
-")).
-Eval vm_compute in ("<<<M2540>>>" ++ check (runes_of_ascii "options{}root packet
-metadata @lengthOf(
-{x ) float32
-body ``, }
-    MetaData
-Z9_
-    {
-    string string_ , Logon x
-,
-uint32
-    // packet A { u8 x, }
-    Z9_,asx
-_x
-    `tab	here` , }
-")).
-Eval vm_compute in ("<<<M2572>>>" ++ check (runes_of_ascii "options{}root packet
-metadata {
-@lengthOf(x ) float32
-body")).
-Eval vm_compute in ("<<<M2604>>>" ++ check (runes_of_ascii "options{}root packet
-metadata {
-@lengthOf(x ) float32
-body ``, }
-    MetaData
-Z9_
-    {
-    string string_ string_ , Logon x
-,
-uint32
-    // packet A { u8 x, }
-    Z9_,asx
-_x
-    `tab	here` , }
-")).
-Eval vm_compute in ("<<<M2636>>>" ++ check (runes_of_ascii "options{}root packet
-metadata {
-@lengthOf(x ) float32
-body ``, }
-    MetaData
-Z9_
-    {
-    string string_ , Logon x
-,
-uint32
-    // packet A { u8 x, }
-    `tab	here`,asx
-_x
-    `tab	here` , }
-")).
-Eval vm_compute in ("<<<M2668>>>" ++ check (runes_of_ascii "options{}root packet
-metadata {
-@lengthOf(x ) float32
-body ``, }
-    MetaData
-Z9_
-    {
-    string string_ , Logon x
-,
-uint32
-    // packet A { u8 x, }
- ")).
-Eval vm_compute in ("<<<M2700>>>" ++ check (runes_of_ascii "options {
-    falsey falsey=
-""a\\"" ; }")).
-Eval vm_compute in ("<<<M2732>>>" ++ check (runes_of_ascii "options {
-    falsey$ =
-""a\\"" ; }")).
-Eval vm_compute in ("<<<M2764>>>" ++ check (runes_of_ascii "MetaData f32a
-{")).
-Eval vm_compute in ("<<<M2796>>>" ++ check (runes_of_ascii "MetaData f32a
-/ {
+} ,
+} ,
+@lengthOf(	rootA )  repeatCount { f32 i64_ `tab	here` ,} , @leftPad (// " ++ [27880; 37322]%N ++ runes_of_ascii "
+'0'
+    ) @tag( 255 )
+repeat packetx , falsey `" ++ [233]%N ++ runes_of_ascii "` // `tick` ""quote"" 'q'
+, //	t
+options1 leftPad
+    ,
+repeat
+string_ roots `" ++ [233]%N ++ runes_of_ascii "` ,
+    }")).
+Eval vm_compute in ("<<<M460>>>" ++ check (runes_of_ascii "packet u8x
+    {} // packet A { u8 x, }")).
+Eval vm_compute in ("<<<M492>>>" ++ check (runes_of_ascii "
+packet	BodyLength
+{ repeat repeatCount
     //	t
-    }root
-    packet tag  {
+    ,
+@tag( 0 /// triple
+)trueish
+_x , } 	 ")).
+Eval vm_compute in ("<<<M524>>>" ++ check (runes_of_ascii "options { lengthOf =
+    uint32 // packet A { u8 x, }
+zchar
+=
+/// triple
+//x
+true
+/// triple
+//
+; lengthOf =0123456789
+tag = ""it's"" // " ++ [27880; 37322]%N ++ runes_of_ascii "
+;matchKey =
+zchar[ 255
+    //x
+    ]}
+")).
+Eval vm_compute in ("<<<T524>>>" ++ terms [mkTok 1 "options" 1 0 false; mkTok 2 "{" 1 8 false; mkTok 42 "lengthOf" 1 10 false; mkTok 4 "=" 1 19 false; mkTok 22 "uint32" 2 4 false; mkTok 44 "// packet A { u8 x, }" 2 11 true; mkTok 42 "zchar" 3 0 false; mkTok 4 "=" 4 0 false; mkTok 44 "/// triple" 5 0 true; mkTok 44 "//x" 6 0 true; mkTok 10 "true" 7 0 false; mkTok 44 "/// triple" 8 0 true; mkTok 44 "//" 9 0 true; mkTok 41 ";" 10 0 false; mkTok 42 "lengthOf" 10 2 false; mkTok 4 "=" 10 11 false; mkTok 30 "0123456789" 10 12 false; mkTok 42 "tag" 11 0 false; mkTok 4 "=" 11 4 false; mkTok 31 """it's""" 11 6 false; mkTok 44 (string_of_bytes [47; 47; 32; 230; 179; 168; 233; 135; 138]%N) 11 13 true; mkTok 41 ";" 12 0 false; mkTok 42 "matchKey" 12 1 false; mkTok 4 "=" 12 10 false; mkTok 14 "zchar[" 13 0 false; mkTok 30 "255" 13 7 false; mkTok 44 "//x" 14 4 true; mkTok 13 "]" 15 4 false; mkTok 3 "}" 15 5 false; mkTok 0 "<EOF>" 16 0 false] (mkPacket (mkPtok 1 "options" 1 0 0) (Some (mkPtok 3 "}" 15 5 28)) [(DOption (mkOptionDef (mkSpan (mkPtok 1 "options" 1 0 0) (mkPtok 3 "}" 15 5 28)) (mkPtok 1 "options" 1 0 0) (mkPtok 2 "{" 1 8 1) [(mkOptionDecl (mkSpan (mkPtok 42 "lengthOf" 1 10 2) (mkPtok 22 "uint32" 2 4 4)) (mkPtok 42 "lengthOf" 1 10 2) (mkPtok 4 "=" 1 19 3) (VType (mkSpan (mkPtok 22 "uint32" 2 4 4) (mkPtok 22 "uint32" 2 4 4)) (TyBasic (mkSpan (mkPtok 22 "uint32" 2 4 4) (mkPtok 22 "uint32" 2 4 4)) (mkBasicType (mkSpan (mkPtok 22 "uint32" 2 4 4) (mkPtok 22 "uint32" 2 4 4)) (mkPtok 22 "uint32" 2 4 4)))) None); (mkOptionDecl (mkSpan (mkPtok 42 "zchar" 3 0 6) (mkPtok 41 ";" 10 0 13)) (mkPtok 42 "zchar" 3 0 6) (mkPtok 4 "=" 4 0 7) (VTrue (mkSpan (mkPtok 10 "true" 7 0 10) (mkPtok 10 "true" 7 0 10)) (mkPtok 10 "true" 7 0 10)) (Some (mkPtok 41 ";" 10 0 13))); (mkOptionDecl (mkSpan (mkPtok 42 "lengthOf" 10 2 14) (mkPtok 30 "0123456789" 10 12 16)) (mkPtok 42 "lengthOf" 10 2 14) (mkPtok 4 "=" 10 11 15) (VDigits (mkSpan (mkPtok 30 "0123456789" 10 12 16) (mkPtok 30 "0123456789" 10 12 16)) (mkPtok 30 "0123456789" 10 12 16)) None); (mkOptionDecl (mkSpan (mkPtok 42 "tag" 11 0 17) (mkPtok 41 ";" 12 0 21)) (mkPtok 42 "tag" 11 0 17) (mkPtok 4 "=" 11 4 18) (VString (mkSpan (mkPtok 31 """it's""" 11 6 19) (mkPtok 31 """it's""" 11 6 19)) (mkPtok 31 """it's""" 11 6 19)) (Some (mkPtok 41 ";" 12 0 21))); (mkOptionDecl (mkSpan (mkPtok 42 "matchKey" 12 1 22) (mkPtok 13 "]" 15 4 27)) (mkPtok 42 "matchKey" 12 1 22) (mkPtok 4 "=" 12 10 23) (VType (mkSpan (mkPtok 14 "zchar[" 13 0 24) (mkPtok 13 "]" 15 4 27)) (TyFixed (mkSpan (mkPtok 14 "zchar[" 13 0 24) (mkPtok 13 "]" 15 4 27)) (mkFixedString (mkSpan (mkPtok 14 "zchar[" 13 0 24) (mkPtok 13 "]" 15 4 27)) (mkPtok 14 "zchar[" 13 0 24) (mkPtok 30 "255" 13 7 25) (mkPtok 13 "]" 15 4 27)))) None)] (mkPtok 3 "}" 15 5 28)))])).
+Eval vm_compute in ("<<<M556>>>" ++ check (runes_of_ascii "options { string_
+=
+""" ++ [128512]%N ++ runes_of_ascii """
+; lengthOf
+=
+string T // c
+= uint16 ;int = zchar[
+    //x
+    3 ] ; A	= ""1"" ;
+    }")).
+Eval vm_compute in ("<<<M588>>>" ++ check (runes_of_ascii "packet f32a {
+    } packet falsey {char[]calculatedFrom, }
+root packet asx {
+    @calculatedFrom( """ ++ [128512]%N ++ runes_of_ascii """ //
+)
+    uint8 trueish @lengthOf(packetx ) ,}")).
+Eval vm_compute in ("<<<M620>>>" ++ check (runes_of_ascii "MetaData i64_
+{string _x ,
+    // " ++ [27880; 37322]%N ++ runes_of_ascii "
+    char[] Packet ,
+}
+root
+packet Foo {@lengthOf( u8x) @calculatedFrom(
+""" ++ [233]%N ++ runes_of_ascii "t" ++ [233]%N ++ runes_of_ascii """ )@rightPad ( '\x00' // `tick` ""quote"" 'q'
+) As //x
+u `` ,
+    }
+// packet A { u8 x, }
+// " ++ [128512]%N ++ runes_of_ascii " emoji
+packet leftPad { @calculatedFrom( ""a\\"")@lengthOf(
+len)
+@tag( 1
+) char[ 255 ]u8x, @calculatedFrom(
+""// no comment"" )
+int32
+    // trailing space 
+    len
+    @lengthOf( _x ) ,
+    @calculatedFrom( """ ++ [28040; 24687]%N ++ runes_of_ascii """ ) repeat Logon int `{ , }`
+, match As as packetx { ""a	b"" :
+uint8x, } ,char[
+0
+    ]charz @lengthOf( i8i8 ) ,	chars
+metadata,
+    @tag( 0123456789
+    )BodyLength,  } root
+packet // 50% %s
+zchar
+    {
+@leftPad( '\x00')float
+    T , }
+")).
+Eval vm_compute in ("<<<M652>>>" ++ check (runes_of_ascii "options {}
+root  packet calculatedFrom {	a1 `" ++ [28040; 24687; 31867; 22411]%N ++ runes_of_ascii "` ,
+}")).
+Eval vm_compute in ("<<<M684>>>" ++ check (runes_of_ascii "packet Z9_ {  char[65535
+//	t
+// packet A { u8 x, }
+] stringy , match _x as
+BodyLength	{ 0123456789 : repeatCount, 007 // " ++ [27880; 37322]%N ++ runes_of_ascii "
+:
+_x
+    ,  }
+// a // b
+// @lengthOf(
+, }
+// 50% %s
+// `tick` ""quote"" 'q'
+packet MetaDataX { // a // b
+f32a int , i64 pack ,}MetaData roots
+// a // b
+// " ++ [27880; 37322]%N ++ runes_of_ascii "
+{ T Z9_ ,
+u8
+    packetx
+    `
+` ,x
+trueish,uint8x msg_type , lengthOf// `tick` ""quote"" 'q'
+crc `say ""hi""` , } // a // b")).
+Eval vm_compute in ("<<<M716>>>" ++ check (runes_of_ascii "options { chars =
+'0'
+;
+} root packet x { match Logon
+as calculatedFrom { [ ""`tick`"" // packet A { u8 x, }
+, 0123456789 ] :Packet
+    } ,
+    // packet A { u8 x, }
+    char[ 0123456789 // " ++ [128512]%N ++ runes_of_ascii " emoji
+] u8x , @tag(00	) string
+metadata`say ""hi""` , i64  A `" ++ [28040; 24687; 31867; 22411]%N ++ runes_of_ascii "`, @lengthOf(/// triple
+calculatedFrom ) float
+@calculatedFrom( ""{,}""
+) // " ++ [27880; 37322]%N ++ runes_of_ascii "
+,}
+    packet
+crc { @tag( 0123456789 ) uint32  tag `line1
+line2` , repeat zchar[  4294967296
+    ] BodyLength `" ++ [28040; 24687; 31867; 22411]%N ++ runes_of_ascii "` ,  repeat calculatedFrom  `two words`
+    , uint32 repeatCount
+, leftPad BodyLength `" ++ [233]%N ++ runes_of_ascii "`  ,
+    options1 Logon ``  ,@leftPad ( ' ' )
+repeat metadata string_// c
+, char[ 0123456789 ]
+trueish @calculatedFrom( ""a\""b"" ) `say ""hi""`
+,
+    @calculatedFrom(
+""\n""
+)pack , } packet leftPad { @tag(7
+    ) options1 {repeat
+pack, } ,  u
+`` , packetx @lengthOf( MetaDataX)
+, asx
+    // trailing space 
+    {
+repeat
+    repeatCount Z9_ ,
+    repeat zchar[
+4294967296  ] Pad , }	, @tag( 255 ) @tag(
+    255
+)  char[	0123456789 ]  u8x // packet A { u8 x, }
+, //
+@calculatedFrom(""CRC32""
+    ) char[
+    3 ] Pad `tab	here`
+, MetaDataX ,@leftPad	( ' ' )  char[] Foo
+@calculatedFrom(
+    """ ++ [28040; 24687]%N ++ runes_of_ascii """) , }
+
+")).
+Eval vm_compute in ("<<<M748>>>" ++ check (runes_of_ascii "packet u { i16 options1
+// @lengthOf(
+// a // b
+`u8 x,`
+,
+    }	MetaData
+pack	{// a // b
+string // packet A { u8 x, }
+int ,int8
+    calculatedFrom
+    , x_y_z zchar // packet A { u8 x, }
+, string
+    /// triple
+    uint8x `` ,	lengthOf  a1`" ++ [28040; 24687; 31867; 22411]%N ++ runes_of_ascii "` ,
+}")).
+Eval vm_compute in ("<<<T748>>>" ++ terms [mkTok 35 "packet" 1 0 false; mkTok 42 "u" 1 7 false; mkTok 2 "{" 1 9 false; mkTok 25 "i16" 1 11 false; mkTok 42 "options1" 1 15 false; mkTok 44 "// @lengthOf(" 2 0 true; mkTok 44 "// a // b" 3 0 true; mkTok 43 "`u8 x,`" 4 0 false; mkTok 40 "," 5 0 false; mkTok 3 "}" 6 4 false; mkTok 37 "MetaData" 6 6 false; mkTok 42 "pack" 7 0 false; mkTok 2 "{" 7 5 false; mkTok 44 "// a // b" 7 6 true; mkTok 15 "string" 8 0 false; mkTok 44 "// packet A { u8 x, }" 8 7 true; mkTok 42 "int" 9 0 false; mkTok 40 "," 9 4 false; mkTok 24 "int8" 9 5 false; mkTok 42 "calculatedFrom" 10 4 false; mkTok 40 "," 11 4 false; mkTok 42 "x_y_z" 11 6 false; mkTok 42 "zchar" 11 12 false; mkTok 44 "// packet A { u8 x, }" 11 18 true; mkTok 40 "," 12 0 false; mkTok 15 "string" 12 2 false; mkTok 44 "/// triple" 13 4 true; mkTok 42 "uint8x" 14 4 false; mkTok 43 "``" 14 11 false; mkTok 40 "," 14 14 false; mkTok 42 "lengthOf" 14 16 false; mkTok 42 "a1" 14 26 false; mkTok 43 (string_of_bytes [96; 230; 182; 136; 230; 129; 175; 231; 177; 187; 229; 158; 139; 96]%N) 14 28 false; mkTok 40 "," 14 35 false; mkTok 3 "}" 15 0 false; mkTok 0 "<EOF>" 15 1 false] (mkPacket (mkPtok 35 "packet" 1 0 0) (Some (mkPtok 3 "}" 15 0 34)) [(DPacket (mkPacketDef (mkSpan (mkPtok 35 "packet" 1 0 0) (mkPtok 3 "}" 6 4 9)) None (mkPtok 35 "packet" 1 0 0) (mkPtok 42 "u" 1 7 1) (mkPtok 2 "{" 1 9 2) [(mkFieldWithAttr (mkSpan (mkPtok 25 "i16" 1 11 3) (mkPtok 40 "," 5 0 8)) [] (MetaField (mkSpan (mkPtok 25 "i16" 1 11 3) (mkPtok 40 "," 5 0 8)) None (mkMetaDecl (mkSpan (mkPtok 25 "i16" 1 11 3) (mkPtok 40 "," 5 0 8)) (TyBasic (mkSpan (mkPtok 25 "i16" 1 11 3) (mkPtok 25 "i16" 1 11 3)) (mkBasicType (mkSpan (mkPtok 25 "i16" 1 11 3) (mkPtok 25 "i16" 1 11 3)) (mkPtok 25 "i16" 1 11 3))) (mkPtok 42 "options1" 1 15 4) (Some (mkPtok 43 "`u8 x,`" 4 0 7)) (mkPtok 40 "," 5 0 8))))] (mkPtok 3 "}" 6 4 9))); (DMeta (mkMetaDef (mkSpan (mkPtok 37 "MetaData" 6 6 10) (mkPtok 3 "}" 15 0 34)) (mkPtok 37 "MetaData" 6 6 10) (mkPtok 42 "pack" 7 0 11) (mkPtok 2 "{" 7 5 12) [(MIDecl (mkMetaDecl (mkSpan (mkPtok 15 "string" 8 0 14) (mkPtok 40 "," 9 4 17)) (TyDynamic (mkSpan (mkPtok 15 "string" 8 0 14) (mkPtok 15 "string" 8 0 14)) (mkDynamicString (mkSpan (mkPtok 15 "string" 8 0 14) (mkPtok 15 "string" 8 0 14)) (mkPtok 15 "string" 8 0 14))) (mkPtok 42 "int" 9 0 16) None (mkPtok 40 "," 9 4 17))); (MIDecl (mkMetaDecl (mkSpan (mkPtok 24 "int8" 9 5 18) (mkPtok 40 "," 11 4 20)) (TyBasic (mkSpan (mkPtok 24 "int8" 9 5 18) (mkPtok 24 "int8" 9 5 18)) (mkBasicType (mkSpan (mkPtok 24 "int8" 9 5 18) (mkPtok 24 "int8" 9 5 18)) (mkPtok 24 "int8" 9 5 18))) (mkPtok 42 "calculatedFrom" 10 4 19) None (mkPtok 40 "," 11 4 20))); (MIRef (mkRefMetaDecl (mkSpan (mkPtok 42 "x_y_z" 11 6 21) (mkPtok 40 "," 12 0 24)) (mkPtok 42 "x_y_z" 11 6 21) (mkPtok 42 "zchar" 11 12 22) None (mkPtok 40 "," 12 0 24))); (MIDecl (mkMetaDecl (mkSpan (mkPtok 15 "string" 12 2 25) (mkPtok 40 "," 14 14 29)) (TyDynamic (mkSpan (mkPtok 15 "string" 12 2 25) (mkPtok 15 "string" 12 2 25)) (mkDynamicString (mkSpan (mkPtok 15 "string" 12 2 25) (mkPtok 15 "string" 12 2 25)) (mkPtok 15 "string" 12 2 25))) (mkPtok 42 "uint8x" 14 4 27) (Some (mkPtok 43 "``" 14 11 28)) (mkPtok 40 "," 14 14 29))); (MIRef (mkRefMetaDecl (mkSpan (mkPtok 42 "lengthOf" 14 16 30) (mkPtok 40 "," 14 35 33)) (mkPtok 42 "lengthOf" 14 16 30) (mkPtok 42 "a1" 14 26 31) (Some (mkPtok 43 (string_of_bytes [96; 230; 182; 136; 230; 129; 175; 231; 177; 187; 229; 158; 139; 96]%N) 14 28 32)) (mkPtok 40 "," 14 35 33)))] (mkPtok 3 "}" 15 0 34)))])).
+Eval vm_compute in ("<<<M780>>>" ++ check (runes_of_ascii "packet rootA {@rightPad (	) f32a	`crlf
+line` ,@tag( // c
+42 )
+len{match _x
+    as	packetx {
+    007 :BodyLength
+    , [ ""\" ++ [233]%N ++ runes_of_ascii """ , ""\n"" ] : Pad, }// c
+, MetaDataX `{ , }`
+    , int64 Pad`` ,uint32	charz
+@calculatedFrom(
+    ""1"") ,
+    } , } // " ++ [27880; 37322]%N)).
+Eval vm_compute in ("<<<M812>>>" ++ check (runes_of_ascii "
+")).
+Eval vm_compute in ("<<<M844>>>" ++ check (runes_of_ascii "options{ msg_type
+    = ""packet""//x
+;leftPad// trailing space 
+=  ' ' ;
+x_y_z = ' ' ;
+}
+root packet  A//
+{
+    //x
+    zchar[
+42]
+    options1 `u8 x,` ,
+float64 uint8x `a\` ,
+packetx @lengthOf(BodyLength) `tab	here`
+    ,
+    chars	u8x	`100% of %d`
+, @leftPad ( ) repeat
+i64_ charz
+`u8 x,`
+, repeat crc { msg_type asx ,
+}, repeat f32a  , char[ 00 ] o `" ++ [233]%N ++ runes_of_ascii "`
+    ,
+@lengthOf( float )
+leftPad @calculatedFrom(
+//	t
+// packet A { u8 x, }
+""a	b"" ) ,} packet
+    Packet
+{
+    i16	asx`a\` //	t
+, @calculatedFrom(
+""" ++ [128512]%N ++ runes_of_ascii """) @lengthOf(
+/// triple
+/// triple
+f32a) @lengthOf( Pad)repeat
+    // a // b
+    pack
+    i64_ `// not a comment`, char[] len  `u8 x,`, repeat char[]  asx  ,match repeatCount
+as uint8x {
+00: trueish 00 : Z9_ , 7 : u,
+    [  00 ,7 , ""abc"" , ""1""	] :charz [ 1 ,""abc"" , ""a\\"" ,
+65535 , 007 ]: Packet, } ,	@calculatedFrom( ""{,}""
+) repeatCount body `it's` , @leftPad (
+    // c
+    '\x00' )repeat
+    len // a // b
+`line1
+line2` ,
+@tag(  007 )  match metadata as string_ {
+[  ""x y""] : falsey
+    // packet A { u8 x, }
+    } // @lengthOf(
+,
+@leftPad ( '\x00' ) packetx	, // c
+} root
+packet T{@rightPad( ' ') repeat
+    //x
+    lengthOf f32a
+`line1
+line2`, @tag(00 )
+char[ 1 ]
+    body, repeat calculatedFrom , // a // b
+repeat
+    Z9_
+//	t
+//	t
+,
+repeat
+u8x	{ metadata
+{ match  repeatCount as falsey	{ 007// trailing space 
+:
+len , ""packet"" : T//x
+,65535 :	T , }	,
+} ,  u16 string_ `u8 x,`	, match float as MetaDataX { ""\" ++ [233]%N ++ runes_of_ascii """ : int
+, [ 10 , 1
+,0 ,
+3, ""// no comment"" ,
+    """ ++ [28040; 24687]%N ++ runes_of_ascii """	, 00 ,  4294967296 // " ++ [128512]%N ++ runes_of_ascii " emoji
+]
+    // packet A { u8 x, }
+    :Header
+, [""{,}"" ,
+42
+    // `tick` ""quote"" 'q'
+    ] :
+matchKey,
+    [ 255, 10/// triple
+, 1 ,
+    """ ++ [128512]%N ++ runes_of_ascii """	] : chars 7 // " ++ [27880; 37322]%N ++ runes_of_ascii "
+:roots
+,} // " ++ [27880; 37322]%N ++ runes_of_ascii "
+,
+    string leftPad, } , @lengthOf( i8i8 )//	t
+@leftPad( '\x00'
+)repeat
+Packet
+`line1
+line2` ,
+    uint8  len	,@rightPad ( '\x00'
+    // a // b
+    ) char[ 4294967296 ] Logon  `doc`
+,
+    } MetaData msg_type { i16
+repeatCount
+    `doc`, u8x msg_type
+    , }
+")).
+Eval vm_compute in ("<<<M876>>>" ++ check (runes_of_ascii "packet u
+{
+    @lengthOf( f32a
+// @lengthOf(
+//x
+) match lengthOf as tag
+{00 : As	, } //
+,msg_type `" ++ [28040; 24687; 31867; 22411]%N ++ runes_of_ascii "`, @rightPad(  '0' )	uint8x `it's`
+    , @lengthOf( stringy) options1	{	BodyLength@calculatedFrom("""" )
+    , BodyLength
+int`u8 x,`,
+zchar[
+    3]
+    As `a\` , } , }")).
+Eval vm_compute in ("<<<M908>>>" ++ check (runes_of_ascii "options{ asx= int64
+// @lengthOf(
+// " ++ [128512]%N ++ runes_of_ascii " emoji
+; f32a =""" ++ [28040; 24687]%N ++ runes_of_ascii """; } options {// trailing space 
+repeatCount
+    = //
+""a	b"" ;}
+options{ Packet  = ""\n"" } root	packet stringy{char[ 007 ] metadata
+,
+i8i8
+@calculatedFrom( ""a\\""
+) ,	@tag( 4294967296 ) match stringy as /// triple
+msg_type  {
+// trailing space 
+/// triple
+[
+    // `tick` ""quote"" 'q'
+    ""a	b"", 1 ,
+1
+, 42// 50% %s
+, 007 ] :	string_ , """ ++ [28040; 24687]%N ++ runes_of_ascii """ : string_, 42: lengthOf [ ""a\\"" , 65535
+    ] : _x,
+} , zchar // 50% %s
+leftPad
+`a\` ,Foo {u64	falsey // `tick` ""quote"" 'q'
+`" ++ [233]%N ++ runes_of_ascii "`  ,	}
+,@calculatedFrom(
+    // c
+    ""CRC32""
+) @tag(65535 ) i16 leftPad @calculatedFrom(
+""" ++ [28040; 24687]%N ++ runes_of_ascii """  )
+// a // b
+// 50% %s
+, // " ++ [27880; 37322]%N ++ runes_of_ascii "
+asx,
+repeat // `tick` ""quote"" 'q'
+matchKey ,
+    @rightPad// c
+(
+' '  ) int32 metadata `{ , }` ,
+match options1 as Foo
+{ 255 ://
+i64_ , [ ""a\\"" ]
+:lengthOf
+    ,  ""it's"" : int 3 :zchar// packet A { u8 x, }
+, // c
+}, } MetaData
+As { //
+chars calculatedFrom`crlf
+line` ,}")).
+Eval vm_compute in ("<<<M940>>>" ++ check (runes_of_ascii "packet T
+{ } 	 ")).
+Eval vm_compute in ("<<<M972>>>" ++ check (runes_of_ascii "  root
+    packet//x
+len
+{stringy @calculatedFrom( ""\n""
+) `line1
+line2`
+//
+// c
+, i32 As `" ++ [233]%N ++ runes_of_ascii "` , @calculatedFrom( ""\" ++ [233]%N ++ runes_of_ascii """ ) repeat uint64 tag , repeat
+    i32 // `tick` ""quote"" 'q'
+pack , } // c")).
+Eval vm_compute in ("<<<T972>>>" ++ terms [mkTok 34 "root" 1 2 false; mkTok 35 "packet" 2 4 false; mkTok 44 "//x" 2 10 true; mkTok 42 "len" 3 0 false; mkTok 2 "{" 4 0 false; mkTok 42 "stringy" 4 1 false; mkTok 5 "@calculatedFrom(" 4 9 false; mkTok 31 """\n""" 4 26 false; mkTok 6 ")" 5 0 false; mkTok 43 (string_of_bytes [96; 108; 105; 110; 101; 49; 10; 108; 105; 110; 101; 50; 96]%N) 5 2 false; mkTok 44 "//" 7 0 true; mkTok 44 "// c" 8 0 true; mkTok 40 "," 9 0 false; mkTok 26 "i32" 9 2 false; mkTok 42 "As" 9 6 false; mkTok 43 (string_of_bytes [96; 195; 169; 96]%N) 9 9 false; mkTok 40 "," 9 13 false; mkTok 5 "@calculatedFrom(" 9 15 false; mkTok 31 (string_of_bytes [34; 92; 195; 169; 34]%N) 9 32 false; mkTok 6 ")" 9 37 false; mkTok 36 "repeat" 9 39 false; mkTok 23 "uint64" 9 46 false; mkTok 42 "tag" 9 53 false; mkTok 40 "," 9 57 false; mkTok 36 "repeat" 9 59 false; mkTok 26 "i32" 10 4 false; mkTok 44 "// `tick` ""quote"" 'q'" 10 8 true; mkTok 42 "pack" 11 0 false; mkTok 40 "," 11 5 false; mkTok 3 "}" 11 7 false; mkTok 44 "// c" 11 9 true; mkTok 0 "<EOF>" 11 13 false] (mkPacket (mkPtok 34 "root" 1 2 0) (Some (mkPtok 3 "}" 11 7 29)) [(DPacket (mkPacketDef (mkSpan (mkPtok 34 "root" 1 2 0) (mkPtok 3 "}" 11 7 29)) (Some (mkPtok 34 "root" 1 2 0)) (mkPtok 35 "packet" 2 4 1) (mkPtok 42 "len" 3 0 3) (mkPtok 2 "{" 4 0 4) [(mkFieldWithAttr (mkSpan (mkPtok 42 "stringy" 4 1 5) (mkPtok 40 "," 9 0 12)) [] (CheckSumField (mkSpan (mkPtok 42 "stringy" 4 1 5) (mkPtok 40 "," 9 0 12)) (mkChecksumFieldDecl (mkSpan (mkPtok 42 "stringy" 4 1 5) (mkPtok 40 "," 9 0 12)) None (mkPtok 42 "stringy" 4 1 5) (mkCalculatedFrom (mkSpan (mkPtok 5 "@calculatedFrom(" 4 9 6) (mkPtok 6 ")" 5 0 8)) (mkPtok 5 "@calculatedFrom(" 4 9 6) (mkPtok 31 """\n""" 4 26 7) (mkPtok 6 ")" 5 0 8)) (Some (mkPtok 43 (string_of_bytes [96; 108; 105; 110; 101; 49; 10; 108; 105; 110; 101; 50; 96]%N) 5 2 9)) (mkPtok 40 "," 9 0 12)))); (mkFieldWithAttr (mkSpan (mkPtok 26 "i32" 9 2 13) (mkPtok 40 "," 9 13 16)) [] (MetaField (mkSpan (mkPtok 26 "i32" 9 2 13) (mkPtok 40 "," 9 13 16)) None (mkMetaDecl (mkSpan (mkPtok 26 "i32" 9 2 13) (mkPtok 40 "," 9 13 16)) (TyBasic (mkSpan (mkPtok 26 "i32" 9 2 13) (mkPtok 26 "i32" 9 2 13)) (mkBasicType (mkSpan (mkPtok 26 "i32" 9 2 13) (mkPtok 26 "i32" 9 2 13)) (mkPtok 26 "i32" 9 2 13))) (mkPtok 42 "As" 9 6 14) (Some (mkPtok 43 (string_of_bytes [96; 195; 169; 96]%N) 9 9 15)) (mkPtok 40 "," 9 13 16)))); (mkFieldWithAttr (mkSpan (mkPtok 5 "@calculatedFrom(" 9 15 17) (mkPtok 40 "," 9 57 23)) [(FACalculatedFrom (mkSpan (mkPtok 5 "@calculatedFrom(" 9 15 17) (mkPtok 6 ")" 9 37 19)) (mkCalculatedFrom (mkSpan (mkPtok 5 "@calculatedFrom(" 9 15 17) (mkPtok 6 ")" 9 37 19)) (mkPtok 5 "@calculatedFrom(" 9 15 17) (mkPtok 31 (string_of_bytes [34; 92; 195; 169; 34]%N) 9 32 18) (mkPtok 6 ")" 9 37 19)))] (MetaField (mkSpan (mkPtok 36 "repeat" 9 39 20) (mkPtok 40 "," 9 57 23)) (Some (mkPtok 36 "repeat" 9 39 20)) (mkMetaDecl (mkSpan (mkPtok 23 "uint64" 9 46 21) (mkPtok 40 "," 9 57 23)) (TyBasic (mkSpan (mkPtok 23 "uint64" 9 46 21) (mkPtok 23 "uint64" 9 46 21)) (mkBasicType (mkSpan (mkPtok 23 "uint64" 9 46 21) (mkPtok 23 "uint64" 9 46 21)) (mkPtok 23 "uint64" 9 46 21))) (mkPtok 42 "tag" 9 53 22) None (mkPtok 40 "," 9 57 23)))); (mkFieldWithAttr (mkSpan (mkPtok 36 "repeat" 9 59 24) (mkPtok 40 "," 11 5 28)) [] (MetaField (mkSpan (mkPtok 36 "repeat" 9 59 24) (mkPtok 40 "," 11 5 28)) (Some (mkPtok 36 "repeat" 9 59 24)) (mkMetaDecl (mkSpan (mkPtok 26 "i32" 10 4 25) (mkPtok 40 "," 11 5 28)) (TyBasic (mkSpan (mkPtok 26 "i32" 10 4 25) (mkPtok 26 "i32" 10 4 25)) (mkBasicType (mkSpan (mkPtok 26 "i32" 10 4 25) (mkPtok 26 "i32" 10 4 25)) (mkPtok 26 "i32" 10 4 25))) (mkPtok 42 "pack" 11 0 27) None (mkPtok 40 "," 11 5 28))))] (mkPtok 3 "}" 11 7 29)))])).
+Eval vm_compute in ("<<<M1004>>>" ++ check (runes_of_ascii "packet
+x_y_z{ match
+Header as MetaDataX {
+    ""x y""
+: float ,} ,}")).
+Eval vm_compute in ("<<<M1036>>>" ++ check (runes_of_ascii "root packet MetaDataX {  }
+")).
+Eval vm_compute in ("<<<M1068>>>" ++ check (runes_of_ascii "packet // @lengthOf(
+Packet
+{
+    f64 stringy `it's` , }
+/// triple
+")).
+Eval vm_compute in ("<<<M1100>>>" ++ check (runes_of_ascii "MetaData leftPad { // `tick` ""quote"" 'q'
+calculatedFrom
+    T,
+float64  roots `say ""hi""`, uint32 leftPad
+    `100% of %d`,	zchar[
+00] _x
+//x
+//x
+,
+// " ++ [128512]%N ++ runes_of_ascii " emoji
+/// triple
+} packet string_ { }
+    MetaData calculatedFrom{float
+Z9_ , Z9_ T`tab	here`,zchar[
+    3
+    // " ++ [128512]%N ++ runes_of_ascii " emoji
+    ]
+leftPad `{ , }`  ,string T `" ++ [233]%N ++ runes_of_ascii "`
+, char[] lengthOf
+    `" ++ [28040; 24687; 31867; 22411]%N ++ runes_of_ascii "`
+, }root packet Header
+    {repeat zchar[0123456789]x
+, char[ 3 ] options1
+    @lengthOf( i8i8
+)  ,repeatCount ,@lengthOf(BodyLength ) i16 f32a ,	char  leftPad
+@lengthOf(  uint8x )	,@lengthOf( repeatCount  ) char[]
+    falsey // a // b
+@lengthOf( Foo )`tab	here`, @tag(
+    1)string// `tick` ""quote"" 'q'
+rootA // packet A { u8 x, }
+, repeat
+    u16 crc `doc` , } root packet // " ++ [128512]%N ++ runes_of_ascii " emoji
+BodyLength
+{@tag( 3) // c
+@lengthOf(
+rootA) match Pad as//
+zchar { ""a\\"": /// triple
+options1 , } , }
+")).
+Eval vm_compute in ("<<<M1132>>>" ++ check (runes_of_ascii "packet charz {repeat int8 asx ,
+}packet
+    len
+{
+    @calculatedFrom( ""packet"" ) @lengthOf(
+// " ++ [128512]%N ++ runes_of_ascii " emoji
+// 50% %s
+charz)@lengthOf( tag
+    )
+zchar[
+// `tick` ""quote"" 'q'
+// trailing space 
+0 ] metadata
+    @calculatedFrom(""" ++ [128512]%N ++ runes_of_ascii """) ,	@calculatedFrom(
+""1""  ) i8i8
+@calculatedFrom( """ ++ [28040; 24687]%N ++ runes_of_ascii """ ) ,
+// packet A { u8 x, }
+//x
+@tag(42 ) char[] pack ,
+// 50% %s
+// packet A { u8 x, }
+zchar[
+    10 ] stringy
+@lengthOf( crc ) , repeat f32
+/// triple
+//x
+o
+`say ""hi""`, char[] falsey /// triple
+, @tag(
+65535
+    //	t
+    ) @lengthOf( o)
+repeat
+    crc zchar ,repeat options1 { u16
+u,  string_
+    {
+string_ MetaDataX , repeat char[0123456789] uint8x
+, repeat
+uint32
+    T ,}
+, uint16
+packetx, }
+// `tick` ""quote"" 'q'
+// c
+,
+    } MetaData matchKey {	i8
+leftPad `it's`
+, msg_type	options1 , } MetaData i8i8 {zchar[
+    3 ] // 50% %s
+MetaDataX , char[
+0
+    /// triple
+    ] body// trailing space 
+, char[] x_y_z , Z9_ string_	,zchar[ 0 ] a1
+`{ , }`,
+rootA packetx	,// packet A { u8 x, }
+}")).
+Eval vm_compute in ("<<<M1164>>>" ++ check (runes_of_ascii "options { Logon =
+// c
+// " ++ [128512]%N ++ runes_of_ascii " emoji
+char[ 4294967296
+    ] ; body= char[] chars = 10 } packet	matchKey// trailing space 
+{ i16 crc ``,}
+
+")).
+Eval vm_compute in ("<<<M1196>>>" ++ check (runes_of_ascii "
+
+
+")).
+Eval vm_compute in ("<<<T1196>>>" ++ terms [mkTok 0 "<EOF>" 4 0 false] (mkPacket (mkPtok 0 "<EOF>" 4 0 0) None [])).
+Eval vm_compute in ("<<<M1228>>>" ++ check (runes_of_ascii "MetaData
+pack
+    { char[ 10
+    ] _x , calculatedFrom MetaDataX `" ++ [233]%N ++ runes_of_ascii "`  , /// triple
+int32 pack, i16  lengthOf`doc`, a1
+    u // trailing space 
+``
+    , char[ 255 ]
+T
+,
+    }
+    /// triple
+    MetaData stringy { T falsey `say ""hi""` ,char[ 7 ] leftPad `" ++ [233]%N ++ runes_of_ascii "` ,}root packet packetx { char[
+    42 ] u ,
+i32
+    tag @calculatedFrom( ""abc""
+    ) `" ++ [233]%N ++ runes_of_ascii "` , // " ++ [27880; 37322]%N ++ runes_of_ascii "
+u8
+calculatedFrom `say ""hi""`
+,
+    repeat _x `` //x
+,  repeat leftPad falsey  , i8i8 {
+string T `line1
+line2`
+    ,} ,	}
+    MetaData T {_x msg_type , char[ 007
+    ] trueish, char[] lengthOf
+`two words` ,char[]// `tick` ""quote"" 'q'
+zchar
+`line1
+line2` , metadata  uint8x `" ++ [233]%N ++ runes_of_ascii "` ,
+    // " ++ [27880; 37322]%N ++ runes_of_ascii "
+    }
+
+")).
+Eval vm_compute in ("<<<M1260>>>" ++ check (runes_of_ascii "MetaData //
+repeatCount {body
+MetaDataX  `" ++ [28040; 24687; 31867; 22411]%N ++ runes_of_ascii "` ,
+    As calculatedFrom
+,  char[ 00 ] // packet A { u8 x, }
+uint8x
+, float32 tag	`it's` ,calculatedFrom leftPad`say ""hi""` , }
+packet i8i8 { }
+    root packet asx { string matchKey@lengthOf( u
+)
+,
+crc
+@calculatedFrom(
+""abc""
+    // @lengthOf(
+    ) ,
+// @lengthOf(
+// " ++ [128512]%N ++ runes_of_ascii " emoji
+match x
+    //	t
+    as metadata { 10
+:x_y_z
+    ,  [ ""\" ++ [233]%N ++ runes_of_ascii """ , 1 ]	:metadata
+    ,
+65535 : i64_ , ""`tick`"" :matchKey,// packet A { u8 x, }
+} , stringy {int64
+    u
+    @calculatedFrom(	""\" ++ [233]%N ++ runes_of_ascii """) // 50% %s
+, u32
+Pad , u	u `" ++ [233]%N ++ runes_of_ascii "`
+    , Header// a // b
+@calculatedFrom( ""\n"") `" ++ [233]%N ++ runes_of_ascii "` , // " ++ [128512]%N ++ runes_of_ascii " emoji
+} ,}")).
+Eval vm_compute in ("<<<M1292>>>" ++ check (runes_of_ascii "/// triple
+options {Logon	= ""a	b"";}  options {
+    falsey = """ ++ [233]%N ++ runes_of_ascii "t" ++ [233]%N ++ runes_of_ascii """
+    ; u128=' '
+    _x = //	t
+""" ++ [128512]%N ++ runes_of_ascii """ ;Foo
+=
+    // @lengthOf(
+    00	pack= ' ' ;}packet i64_ { }
+    packet As {
+    char
+o @lengthOf( u) ,
+} 	 ")).
+Eval vm_compute in ("<<<M1324>>>" ++ check (runes_of_ascii "
+")).
+Eval vm_compute in ("<<<M1356>>>" ++ check (runes_of_ascii "packet leftPad{ //	t
+pack
+rootA
+    `// not a comment`, }MetaData //	t
+Foo { /// triple
+trueish x `say ""hi""`
+, } packet	a1	{repeat
+pack  body, //
 }
 ")).
+Eval vm_compute in ("<<<M1388>>>" ++ check (runes_of_ascii "options	{
+pack
+= zchar[ 255]// 50% %s
+}
+")).
+Eval vm_compute in ("<<<M1420>>>" ++ check (runes_of_ascii "options {}
+
+")).
+Eval vm_compute in ("<<<T1420>>>" ++ terms [mkTok 1 "options" 1 0 false; mkTok 2 "{" 1 8 false; mkTok 3 "}" 1 9 false; mkTok 0 "<EOF>" 3 0 false] (mkPacket (mkPtok 1 "options" 1 0 0) (Some (mkPtok 3 "}" 1 9 2)) [(DOption (mkOptionDef (mkSpan (mkPtok 1 "options" 1 0 0) (mkPtok 3 "}" 1 9 2)) (mkPtok 1 "options" 1 0 0) (mkPtok 2 "{" 1 8 1) [] (mkPtok 3 "}" 1 9 2)))])).
+Eval vm_compute in ("<<<M1452>>>" ++ check (runes_of_ascii "
+MetaData
+Foo
+{
+    }MetaData leftPad {// c
+uint8 repeatCount `{ , }`	,
+    }
+// " ++ [27880; 37322]%N ++ runes_of_ascii "
+// trailing space 
+options { asx= ""CRC32"";
+MetaDataX =	char[ 4294967296 ]	; _x = '0' ;
+    trueish =	""a	b""; }
+")).
+Eval vm_compute in ("<<<M1484>>>" ++ check (runes_of_ascii "packet tag
+    {uint64 _x, @lengthOf( rootA
+    ) int32
+    calculatedFrom  ,
+/// triple
+/// triple
+uint32 Packet `say ""hi""` , @tag(
+    255) len@lengthOf( Foo
+)
+, BodyLength,zchar[	42] packetx @lengthOf( a1)
+,  i16 packetx, @leftPad( ' '
+)// @lengthOf(
+matchKey
+{ zchar[ 007 ] pack, i32 chars  ,
+    //
+    Packet {repeat uint16
+    options1`100% of %d` , }
+// packet A { u8 x, }
+// c
+,
+    /// triple
+    repeat
+msg_type , }, }")).
+Eval vm_compute in ("<<<M1516>>>" ++ check (runes_of_ascii "
+MetaData charz { }
+// c
+")).
+Eval vm_compute in ("<<<M1548>>>" ++ check (runes_of_ascii "// c
+packet  i8i8 //	t
+{	}
+")).
+Eval vm_compute in ("<<<M1580>>>" ++ check (runes_of_ascii "// " ++ [128512]%N ++ runes_of_ascii " emoji
+root packet msg_type { match
+    Pad as
+options1	{ ""`tick`"":charz
+,}, repeat f32a A `" ++ [233]%N ++ runes_of_ascii "`
+,
+    @lengthOf(	i8i8 )@tag( 255 ) chars leftPad
+, crc
+trueish , @leftPad
+('0' ) repeat asx f32a
+    , Z9_ ``
+    ,
+i8 options1/// triple
+,
+}MetaData
+    len { chars Logon , // 50% %s
+matchKey Header `crlf
+line`
+//	t
+// packet A { u8 x, }
+,
+charz
+    BodyLength// trailing space 
+`{ , }`, uint64 i8i8,
+falsey A	,i8
+f32a // `tick` ""quote"" 'q'
+, } options {  x
+='\x00' ;  leftPad=7 u8x =uint16 ;
+}
+")).
+Eval vm_compute in ("<<<M1612>>>" ++ check (runes_of_ascii "MetaData
+roots
+    {  u32 f32a
+    ,
+    // `tick` ""quote"" 'q'
+    } 	 ")).
+Eval vm_compute in ("<<<M1644>>>" ++ check (runes_of_ascii "
+
+")).
+Eval vm_compute in ("<<<T1644>>>" ++ terms [mkTok 0 "<EOF>" 3 0 false] (mkPacket (mkPtok 0 "<EOF>" 3 0 0) None [])).
+Eval vm_compute in ("<<<M1676>>>" ++ check (runes_of_ascii "packet x{ @rightPad	( '0' )
+char[] body ,int  {	repeat Pad { repeat i64_ `it's`
+    // a // b
+    , repeat string
+As`" ++ [28040; 24687; 31867; 22411]%N ++ runes_of_ascii "`
+, Foo  @lengthOf(
+_x)
+, },},//	t
+BodyLength
+// " ++ [27880; 37322]%N ++ runes_of_ascii "
+// c
+metadata
+,repeat
+string_  {char
+    // " ++ [128512]%N ++ runes_of_ascii " emoji
+    stringy ,
+leftPad Foo ,}
+, match zchar	as //
+Packet
+    { ""it's""
+:	pack ,  00: len } ,@calculatedFrom( ""CRC32"" )	crc@lengthOf(A
+//
+// trailing space 
+) ,charz@calculatedFrom(
+"""" )
+, } MetaData options1 { zchar[ 0123456789] As `a\` , char[] u128 , uint8 packetx , zchar[
+65535
+    //	t
+    ] msg_type
+, uint32
+falsey `say ""hi""`, }
+MetaData o
+    { f32
+    zchar
+    ,	uint16 charz , //x
+calculatedFrom len `a\` ,	}
+    MetaData o { char[ 255
+    ] lengthOf	, char[]  i8i8 , zchar[ 65535
+]	MetaDataX	`line1
+line2` , char[// 50% %s
+7 ]Logon ,
+    // " ++ [128512]%N ++ runes_of_ascii " emoji
+    } MetaData metadata{}")).
+Eval vm_compute in ("<<<M1708>>>" ++ check (runes_of_ascii "packet  T {
+@leftPad ( '\x00' // " ++ [27880; 37322]%N ++ runes_of_ascii "
+) @lengthOf( roots) x{ zchar[ 65535]
+leftPad @lengthOf( repeatCount ) `two words` , i8
+u
+@calculatedFrom(""x y"" )	`a\`
+    , roots
+{ repeat
+Z9_ Logon ,
+    i32  float , uint8x roots // 50% %s
+`
+` , string // c
+body @lengthOf( crc
+    )
+, } ,} ,
+repeat i16
+x_y_z
+`u8 x,` ,
+Z9_ , f64 string_ /// triple
+@calculatedFrom( ""it's"" )
+    `doc` , f64 MetaDataX`line1
+line2` , roots @lengthOf(
+    u
+    ), // " ++ [128512]%N ++ runes_of_ascii " emoji
+@leftPad
+    (
+'0'  )
+    string int
+@calculatedFrom(
+""" ++ [128512]%N ++ runes_of_ascii """
+    )	, char[  65535 ]
+    f32a // a // b
+,repeat leftPad {char[] uint8x
+@calculatedFrom( ""a\\""
+)
+, match	packetx
+as BodyLength // `tick` ""quote"" 'q'
+{ [ ""\" ++ [233]%N ++ runes_of_ascii """
+    //	t
+    , 4294967296 ,0123456789
+    // 50% %s
+    ] :
+    calculatedFrom , ""\" ++ [233]%N ++ runes_of_ascii """: u128 , }
+, repeat// 50% %s
+string leftPad `two words`, zchar[ 3 ] string_ , } , }
+")).
+Eval vm_compute in ("<<<M1740>>>" ++ check (runes_of_ascii "options
+    {
+// c
+//x
+i8i8 // c
+=
+    // 50% %s
+    ""1""// 50% %s
+; }  MetaData int {
+char[] zchar  `" ++ [233]%N ++ runes_of_ascii "` ,	} //")).
+Eval vm_compute in ("<<<M1772>>>" ++ check (runes_of_ascii "packet Header { match roots as
+chars { 3 : T ,""CRC32""
+    :	trueish
+    // c
+    ,10  : i8i8
+, 0
+: repeatCount , ""`tick`"" :options1 } , char[] //x
+i8i8 @calculatedFrom( """ ++ [128512]%N ++ runes_of_ascii """)	,
+zchar[ 255  ] msg_type ,
+//	t
+// trailing space 
+char[]
+    MetaDataX `u8 x,`,uint8 BodyLength `// not a comment`,@rightPad (
+    ) repeat packetx `two words`
+    , @rightPad
+    ( /// triple
+) char[ 007 ]
+tag , float , body
+    @lengthOf(
+    // trailing space 
+    float //	t
+) , }
+")).
+Eval vm_compute in ("<<<M1804>>>" ++ check (runes_of_ascii "packet Foo { crc  @lengthOf( options1 )
+`a\`
+    ,
+@lengthOf( charz)
+char[]	u8x, @tag( 65535 )@tag( 10)u16 stringy
+`crlf
+line`
+    , match
+    // `tick` ""quote"" 'q'
+    lengthOf as
+    packetx	{ [ 7 , ""a\\"" ]
+    : string_// 50% %s
+, 00 :packetx , [ ""\" ++ [233]%N ++ runes_of_ascii """
+// packet A { u8 x, }
+/// triple
+]: // `tick` ""quote"" 'q'
+f32a	}, falsey , u64
+falsey	@lengthOf(// a // b
+chars// @lengthOf(
+)`tab	here`,	@calculatedFrom(
+""abc"" ) match T as zchar
+{ 3 : u8x ,4294967296 :
+tag
+, [ 0123456789 ]
+    :
+    x  ,
+    [ """ ++ [28040; 24687]%N ++ runes_of_ascii """ ,""`tick`"" , 255 ,
+""abc""	, 0 ,
+// `tick` ""quote"" 'q'
+//	t
+4294967296	] : /// triple
+_x , 65535 :
+    charz
+    , [
+    """ ++ [233]%N ++ runes_of_ascii "t" ++ [233]%N ++ runes_of_ascii """
+] : len },
+    calculatedFrom { i16 zchar , }
+, } MetaData MetaDataX{ int64
+x_y_z ,
+Packet leftPad
+// trailing space 
+// a // b
+,
+    }root packet u8x// `tick` ""quote"" 'q'
+{
+    repeat leftPad
+    {Z9_, } ,} MetaData
+A { // @lengthOf(
+u8x
+    /// triple
+    charz , f64 charz `
+` ,Z9_
+//	t
+// trailing space 
+packetx
+,
+string int `line1
+line2` ,zchar[1
+] crc `{ , }`
+, } packet
+// trailing space 
+//x
+Foo{ @lengthOf( u128 )@rightPad(
+    /// triple
+    )// 50% %s
+char[00 ]T
+    @lengthOf(tag ) `tab	here`	,// @lengthOf(
+}
+")).
+Eval vm_compute in ("<<<M1836>>>" ++ check (runes_of_ascii "
+")).
+Eval vm_compute in ("<<<M1868>>>" ++ check (runes_of_ascii "
+")).
+Eval vm_compute in ("<<<T1868>>>" ++ terms [mkTok 0 "<EOF>" 2 0 false] (mkPacket (mkPtok 0 "<EOF>" 2 0 0) None [])).
+Eval vm_compute in ("<<<M1900>>>" ++ check (runes_of_ascii "options
+{ o = true ;
+calculatedFrom
+= int32; As
+=""\" ++ [233]%N ++ runes_of_ascii """; }  packet i8i8{
+}root
+// a // b
+// `tick` ""quote"" 'q'
+packet u {x_y_z{char[ 00 ] T`a\`
+    // a // b
+    , } ,char[]
+repeatCount
+    , @calculatedFrom( ""a	b"" )A { // `tick` ""quote"" 'q'
+repeat zchar[
+0123456789
+    ] falsey , asx trueish , rootA
+// `tick` ""quote"" 'q'
+//	t
+{char[
+3 ] matchKey
+/// triple
+// @lengthOf(
+@lengthOf( x
+    ) `doc` , repeat int16
+falsey `100% of %d` ,
+}
+, }	,
+    repeat u8
+    //
+    u , repeat zchar
+`" ++ [233]%N ++ runes_of_ascii "` , o @calculatedFrom(""\" ++ [233]%N ++ runes_of_ascii """
+    )// " ++ [27880; 37322]%N ++ runes_of_ascii "
+,x
+    { string
+    A
+`say ""hi""`
+,
+    char[] A
+    ,
+f32a `line1
+line2`,
+} , @calculatedFrom( //	t
+""`tick`"")
+    uint8  matchKey , _x , @calculatedFrom( // " ++ [27880; 37322]%N ++ runes_of_ascii "
+""a\\""  )
+    // " ++ [128512]%N ++ runes_of_ascii " emoji
+    @leftPad
+(
+    // a // b
+    )
+    zchar[ 10
+    ]
+body@calculatedFrom(
+    ""packet"" ) `" ++ [28040; 24687; 31867; 22411]%N ++ runes_of_ascii "` ,
+    } packet
+    f32a {
+    @leftPad ( )
+uint32
+string_ `doc` ,chars Logon , @calculatedFrom( """"//
+) @lengthOf(
+    Z9_	)
+uint16 stringy , match
+Logon
+// packet A { u8 x, }
+/// triple
+as	_x{ [  10 , ""packet""]
+    :
+    i8i8""// no comment"" : o
+    ,""" ++ [233]%N ++ runes_of_ascii "t" ++ [233]%N ++ runes_of_ascii """ :
+matchKey , }
+    // trailing space 
+    ,
+// " ++ [27880; 37322]%N ++ runes_of_ascii "
+// " ++ [128512]%N ++ runes_of_ascii " emoji
+} // " ++ [128512]%N ++ runes_of_ascii " emoji")).
+Eval vm_compute in ("<<<M1932>>>" ++ check (runes_of_ascii "MetaData
+u8x { roots uint8x, msg_type	zchar
+, tag
+calculatedFrom ,u64
+chars `// not a comment` , char[] body , }
+")).
+Eval vm_compute in ("<<<M1964>>>" ++ check (runes_of_ascii "packet // trailing space 
+_x {
+    // " ++ [27880; 37322]%N ++ runes_of_ascii "
+    calculatedFrom @lengthOf(
+// " ++ [27880; 37322]%N ++ runes_of_ascii "
+// c
+crc ) //	t
+, } packet BodyLength {@lengthOf( packetx ) uint16 MetaDataX @lengthOf( Packet ) , @rightPad( ' '
+//	t
+// packet A { u8 x, }
+)  u8x @calculatedFrom( ""it's""
+)
+/// triple
+// " ++ [27880; 37322]%N ++ runes_of_ascii "
+,
+// `tick` ""quote"" 'q'
+// packet A { u8 x, }
+@lengthOf(Z9_) @calculatedFrom( /// triple
+""" ++ [233]%N ++ runes_of_ascii "t" ++ [233]%N ++ runes_of_ascii """  )
+repeat matchKey	falsey `// not a comment`
+, match u128 as charz	{[ ""\n""
+    ,65535 ]
+    // packet A { u8 x, }
+    : i64_
+// `tick` ""quote"" 'q'
+// a // b
+,
+},@calculatedFrom(	""packet"" )repeat zchar[ 4294967296 ] f32a , @rightPad
+// packet A { u8 x, }
+// trailing space 
+(
+' ' ) string
+    u @lengthOf( roots
+// packet A { u8 x, }
+// trailing space 
+)
+`u8 x,`
+    ,
+    @calculatedFrom( """ ++ [233]%N ++ runes_of_ascii "t" ++ [233]%N ++ runes_of_ascii """ )
+@calculatedFrom(
+    """"
+    )  @lengthOf(
+f32a ) // " ++ [27880; 37322]%N ++ runes_of_ascii "
+a1 `" ++ [28040; 24687; 31867; 22411]%N ++ runes_of_ascii "` , repeat int{ calculatedFrom @lengthOf( charz ) `say ""hi""`
+//x
+// " ++ [128512]%N ++ runes_of_ascii " emoji
+, } , i32
+u //
+@lengthOf( Pad
+) , char Logon@calculatedFrom( // `tick` ""quote"" 'q'
+""x y"" ) /// triple
+, }
+    // c
+    packet
+metadata {@rightPad ( '0' )
+// a // b
+// @lengthOf(
+zchar tag`" ++ [28040; 24687; 31867; 22411]%N ++ runes_of_ascii "` , options1 { u64	pack `doc`, // a // b
+int8
+    a1
+    // " ++ [27880; 37322]%N ++ runes_of_ascii "
+    @lengthOf( packetx ) `100% of %d`	, float Header , repeat string_ /// triple
+,
+}, @leftPad ( )match stringy as calculatedFrom
+    //	t
+    { [
+007, ""x y"" ,0123456789
+,
+3 ,""packet""
+,  007 ]
+    : // trailing space 
+matchKey	,	4294967296:
+roots, [
+0123456789 ,65535
+    ,
+1 , 7]  : repeatCount , [
+""a\\"" ] :charz // a // b
+, [ /// triple
+""x y""  ,"""", ""CRC32"" ,  1 ] : Foo,
+}//
+,
+    // `tick` ""quote"" 'q'
+    T
+pack
+,	@tag(4294967296 ) match x_y_z
+as Packet { ""a\\"" :
+Foo , }
+    , }")).
+Eval vm_compute in ("<<<M1996>>>" ++ check (runes_of_ascii "packet
+Packet { } MetaData len {// `tick` ""quote"" 'q'
+} root packet
+    A
+{@calculatedFrom( ""x y"")
+    uint64
+lengthOf @lengthOf( body // " ++ [128512]%N ++ runes_of_ascii " emoji
+) `line1
+line2` ,// trailing space 
+} // c")).
+Eval vm_compute in ("<<<M2028>>>" ++ check (runes_of_ascii "MetaData repeatCount {")).
+Eval vm_compute in ("<<<M2060>>>" ++ check (runes_of_ascii "MetaData repeatCount { float64 packetx,
+} root packet  metadata { {
+char _x @lengthOf( trueish ), @leftPad
+( ' '// " ++ [27880; 37322]%N ++ runes_of_ascii "
+)/// triple
+char[] len`doc` , // packet A { u8 x, }
+repeatCount , }
+")).
+Eval vm_compute in ("<<<M2092>>>" ++ check (runes_of_ascii "MetaData repeatCount { float64 packetx,
+} root packet  metadata {
+char _x @lengthOf( trueish )( @leftPad
+( ' '// " ++ [27880; 37322]%N ++ runes_of_ascii "
+)/// triple
+char[] len`doc` , // packet A { u8 x, }
+repeatCount , }
+")).
+Eval vm_compute in ("<<<M2124>>>" ++ check (runes_of_ascii "MetaData repeatCount { float64 packetx,
+} root packet  metadata {
+char _x @lengthOf( trueish ), @leftPad
+( ' '// " ++ [27880; 37322]%N ++ runes_of_ascii "
+)/// triple
+char[] len , // packet A { u8 x, }
+repeatCount , }
+")).
+Eval vm_compute in ("<<<M2156>>>" ++ check (runes_of_ascii "MetaData repeatCount { float64 packetx,
+} root packet  metadata {
+char _x @lengthOf( trueish ), @leftPad
+( ' '// " ++ [27880; 37322]%N ++ runes_of_ascii "
+)/// triple
+char[] len/`doc` , // packet A { u8 x, }
+repeatCount , }
+")).
+Eval vm_compute in ("<<<M2188>>>" ++ check (runes_of_ascii "options{
+leftPad
+    @lengthOf(65535
+;
+a1 = true ; packetx=  '\x00' ; packetx
+=  """ ++ [28040; 24687]%N ++ runes_of_ascii """MetaDataX= // " ++ [27880; 37322]%N ++ runes_of_ascii "
+false }root // c
+packet // packet A { u8 x, }
+Pad { repeat
+u8 Header
+// packet A { u8 x, }
+//	t
+`{ , }`
+// a // b
+//x
+, }
+")).
+Eval vm_compute in ("<<<M2220>>>" ++ check (runes_of_ascii "options{
+leftPad
+    =65535
+;
+a1 = true ; =  '\x00' ; packetx
+=  """ ++ [28040; 24687]%N ++ runes_of_ascii """MetaDataX= // " ++ [27880; 37322]%N ++ runes_of_ascii "
+false }root // c
+packet // packet A { u8 x, }
+Pad { repeat
+u8 Header
+// packet A { u8 x, }
+//	t
+`{ , }`
+// a // b
+//x
+, }
+")).
+Eval vm_compute in ("<<<M2252>>>" ++ check (runes_of_ascii "options{
+leftPad
+    =65535
+;
+a1 = true ; packetx=  '\x00' ; packetx
+=  MetaDataX""" ++ [28040; 24687]%N ++ runes_of_ascii """= // " ++ [27880; 37322]%N ++ runes_of_ascii "
+false }root // c
+packet // packet A { u8 x, }
+Pad { repeat
+u8 Header
+// packet A { u8 x, }
+//	t
+`{ , }`
+// a // b
+//x
+, }
+")).
+Eval vm_compute in ("<<<M2284>>>" ++ check (runes_of_ascii "options{
+leftPad
+    =65535
+;
+a1 = true ; packetx=  '\x00' ; packetx
+=  """ ++ [28040; 24687]%N ++ runes_of_ascii """MetaDataX= // " ++ [27880; 37322]%N ++ runes_of_ascii "
+false }root")).
+Eval vm_compute in ("<<<M2316>>>" ++ check (runes_of_ascii "options{
+leftPad
+    =65535
+;
+a1 = true ; packetx=  '\x00' ; packetx
+=  """ ++ [28040; 24687]%N ++ runes_of_ascii """MetaDataX= // " ++ [27880; 37322]%N ++ runes_of_ascii "
+false }root // c
+packet // packet A { u8 x, }
+Pad { repeat
+u8 Header
+// packet A { u8 x, }
+//	t
+`{ , }`
+// a // b
+//x
+, , }
+")).
+Eval vm_compute in ("<<<M2348>>>" ++ check (runes_of_ascii "
+float packet
+{	@calculatedFrom( """ ++ [233]%N ++ runes_of_ascii "t" ++ [233]%N ++ runes_of_ascii """ )
+@rightPad ( '\x00' )
+    @calculatedFrom( ""x y"" ) string chars  ,
+    // a // b
+    char[0 ]
+    u	@lengthOf( i8i8 ) `{ , }` ,repeat char[] o //x
+`// not a comment`, } // c")).
+Eval vm_compute in ("<<<M2380>>>" ++ check (runes_of_ascii "
+packet float
+{	@calculatedFrom( """ ++ [233]%N ++ runes_of_ascii "t" ++ [233]%N ++ runes_of_ascii """ )")).
+Eval vm_compute in ("<<<M2412>>>" ++ check (runes_of_ascii "
+packet float
+{	@calculatedFrom( """ ++ [233]%N ++ runes_of_ascii "t" ++ [233]%N ++ runes_of_ascii """ )
+@rightPad ( '\x00' )
+    @calculatedFrom( ""x y"" ) string string chars  ,
+    // a // b
+    char[0 ]
+    u	@lengthOf( i8i8 ) `{ , }` ,repeat char[] o //x
+`// not a comment`, } // c")).
+Eval vm_compute in ("<<<M2444>>>" ++ check (runes_of_ascii "
+packet float
+{	@calculatedFrom( """ ++ [233]%N ++ runes_of_ascii "t" ++ [233]%N ++ runes_of_ascii """ )
+@rightPad ( '\x00' )
+    @calculatedFrom( ""x y"" ) string chars  ,
+    // a // b
+    char[0 ]
+    zchar[	@lengthOf( i8i8 ) `{ , }` ,repeat char[] o //x
+`// not a comment`, } // c")).
+Eval vm_compute in ("<<<M2476>>>" ++ check (runes_of_ascii "
+packet float
+{	@calculatedFrom( """ ++ [233]%N ++ runes_of_ascii "t" ++ [233]%N ++ runes_of_ascii """ )
+@rightPad ( '\x00' )
+    @calculatedFrom( ""x y"" ) string chars  ,
+    // a // b
+    char[0 ]
+    u	@lengthOf( i8i8 ) `{ , }` ,repeat  o //x
+`// not a comment`, } // c")).
+Eval vm_compute in ("<<<M2508>>>" ++ check (runes_of_ascii "
+packet float
+{	@calculatedFrom( """ ++ [233]%N ++ runes_of_ascii "t" ++ [233]%N ++ runes_of_ascii """ )
+@rightPad ( '\""x00' )
+    @calculatedFrom( ""x y"" ) string chars  ,
+    // a // b
+    char[0 ]
+    u	@lengthOf( i8i8 ) `{ , }` ,repeat char[] o //x
+`// not a comment`, } // c")).
+Eval vm_compute in ("<<<M2540>>>" ++ check (runes_of_ascii "root packet u128 options
+    repeat
+    zchar[ 65535 ] u `" ++ [28040; 24687; 31867; 22411]%N ++ runes_of_ascii "` ,// `tick` ""quote"" 'q'
+} packet i64_ {repeatCount
+    `
+` ,	} // " ++ [128512]%N ++ runes_of_ascii " emoji")).
+Eval vm_compute in ("<<<M2572>>>" ++ check (runes_of_ascii "root packet u128{
+    repeat
+    zchar[ 65535 ] u `" ++ [28040; 24687; 31867; 22411]%N ++ runes_of_ascii "` // `tick` ""quote"" 'q'
+} packet i64_ {repeatCount
+    `
+` ,	} // " ++ [128512]%N ++ runes_of_ascii " emoji")).
+Eval vm_compute in ("<<<M2604>>>" ++ check (runes_of_ascii "root packet u128{
+    repeat
+    zchar[ 65535 ] u `" ++ [28040; 24687; 31867; 22411]%N ++ runes_of_ascii "` ,// `tick` ""quote"" 'q'
+} packet i64_ {repeatCount
+    , `
+`	} // " ++ [128512]%N ++ runes_of_ascii " emoji")).
+Eval vm_compute in ("<<<M2636>>>" ++ check (runes_of_ascii "root packet u128{
+    repeat
+    zchar[ 65535 ] u `" ++ [28040; 24687; 31867; 22411]%N ++ runes_of_ascii "` ,// `tick` ""quote"" 'q'
+} packet " ++ [252]%N ++ runes_of_ascii "ber {repeatCount
+    `
+` ,	} // " ++ [128512]%N ++ runes_of_ascii " emoji")).
+Eval vm_compute in ("<<<M2668>>>" ++ check (runes_of_ascii "
+MetaData
+roots { int8
+    BodyLength ,//	t
+
+")).
+Eval vm_compute in ("<<<M2700>>>" ++ check (runes_of_ascii "options { {Packet = ""CRC32""i8i8 = false; leftPad =
+    '\x00'
+    // `tick` ""quote"" 'q'
+    ; o=255  ;
+    // packet A { u8 x, }
+    }")).
+Eval vm_compute in ("<<<M2732>>>" ++ check (runes_of_ascii "options {Packet = ""CRC32""i8i8 = {; leftPad =
+    '\x00'
+    // `tick` ""quote"" 'q'
+    ; o=255  ;
+    // packet A { u8 x, }
+    }")).
+Eval vm_compute in ("<<<M2764>>>" ++ check (runes_of_ascii "options {Packet = ""CRC32""i8i8 = false; leftPad =
+    '\x00'
+    // `tick` ""quote"" 'q'
+    ; o 255  ;
+    // packet A { u8 x, }
+    }")).
+Eval vm_compute in ("<<<M2796>>>" ++ check (runes_of_ascii "options " ++ [127]%N ++ runes_of_ascii "{Packet = ""CRC32""i8i8 = false; leftPad =
+    '\x00'
+    // `tick` ""quote"" 'q'
+    ; o=255  ;
+    // packet A { u8 x, }
+    }")).
 Eval vm_compute in ("<<<M2828>>>" ++ check (runes_of_ascii "
-options
-    {msg_type float32
-    =  }root
-packet Z9_{ char /// triple
-crc @lengthOf(
-options1 ) //
-,} MetaData a1{}
-")).
+packet metadata { @rightPad true
+    // packet A { u8 x, }
+    ' ' ) repeat u32	A
+,matchKey ,
+    @lengthOf( string_ ) @lengthOf( body )
+    // a // b
+    @lengthOf(float  )	repeat
+int32 u8x
+    // c
+    `tab	here`
+, } // a // b")).
 Eval vm_compute in ("<<<M2860>>>" ++ check (runes_of_ascii "
-options
-    {msg_type =
-    float32  }root
-packet Z9_")).
+packet metadata { @rightPad (
+    // packet A { u8 x, }
+    ' ' ) repeat u32	A
+, ,
+    @lengthOf( string_ ) @lengthOf( body )
+    // a // b
+    @lengthOf(float  )	repeat
+int32 u8x
+    // c
+    `tab	here`
+, } // a // b")).
 Eval vm_compute in ("<<<M2892>>>" ++ check (runes_of_ascii "
-options
-    {msg_type =
-    float32  }root
-packet Z9_{ char /// triple
-crc @lengthOf(
-options1 ) //
-,} } MetaData a1{}
-")).
+packet metadata { @rightPad (
+    // packet A { u8 x, }
+    ' ' ) repeat u32	A
+,matchKey ,
+    @lengthOf( string_ ) @lengthOf( ) body
+    // a // b
+    @lengthOf(float  )	repeat
+int32 u8x
+    // c
+    `tab	here`
+, } // a // b")).
 Eval vm_compute in ("<<<M2924>>>" ++ check (runes_of_ascii "
-options
-    {msg_type =
-    float32  }root
-packet Z9_{ char /// triple
-crc @lengthOf(
-options1 ) //
-@lengthOf ,} MetaData a1{}
+packet metadata { @rightPad (
+    // packet A { u8 x, }
+    ' ' ) repeat u32	A
+,matchKey ,
+    @lengthOf( string_ ) @lengthOf( body )
+    // a // b
+    @lengthOf(float  )	repeat")).
+Eval vm_compute in ("<<<M2956>>>" ++ check (runes_of_ascii "
+packet metadata { @righ''tPad (
+    // packet A { u8 x, }
+    ' ' ) repeat u32	A
+,matchKey ,
+    @lengthOf( string_ ) @lengthOf( body )
+    // a // b
+    @lengthOf(float  )	repeat
+int32 u8x
+    // c
+    `tab	here`
+, } // a // b")).
+Eval vm_compute in ("<<<M2988>>>" ++ check (runes_of_ascii "packet x{
+string
+, zchar //	t
+}
 ")).
-Eval vm_compute in ("<<<M2956>>>" ++ check (runes_of_ascii "packet crc{")).
-Eval vm_compute in ("<<<M2988>>>" ++ check (runes_of_ascii "packet crc{ // " ++ [128512]%N ++ runes_of_ascii " emoji
-repeat string i8i8
-`a\`, }
-@leftpad")).
-Eval vm_compute in ("<<<M3020>>>" ++ check (runes_of_ascii "packet BodyLength {MetaData } zchar{ zchar[// @lengthOf(
-42 ]
-    pack , string_
-A , char[]crc , _x trueish ,
-// " ++ [27880; 37322]%N ++ runes_of_ascii "
-// " ++ [128512]%N ++ runes_of_ascii " emoji
-zchar[
-    3 ]	T // trailing space 
-, } packet body
+Eval vm_compute in ("<<<M3020>>>" ++ check (runes_of_ascii "packet x{
+string
+a" ++ [769]%N ++ runes_of_ascii "b , //	t
+}
+")).
+Eval vm_compute in ("<<<M3052>>>" ++ check (runes_of_ascii "
+MetaData Logon
+{ // c
+}root packet
+     {
+    } options
 {
-    }
-")).
-Eval vm_compute in ("<<<M3052>>>" ++ check (runes_of_ascii "packet BodyLength {} MetaData zchar{ zchar[// @lengthOf(
-42")).
-Eval vm_compute in ("<<<M3084>>>" ++ check (runes_of_ascii "packet BodyLength {} MetaData zchar{ zchar[// @lengthOf(
-42 ]
-    pack , string_
-A , char[]crc crc , _x trueish ,
-// " ++ [27880; 37322]%N ++ runes_of_ascii "
-// " ++ [128512]%N ++ runes_of_ascii " emoji
-zchar[
-    3 ]	T // trailing space 
-, } packet body
+u
+    =
+    ""CRC32""
+    // " ++ [128512]%N ++ runes_of_ascii " emoji
+    i64_ = u16;
+T =65535 x = ' '
+    ; u128
+= true ; }")).
+Eval vm_compute in ("<<<M3084>>>" ++ check (runes_of_ascii "
+MetaData Logon
+{ // c
+}root packet
+    Pad {
+    } options
 {
-    }
-")).
-Eval vm_compute in ("<<<M3116>>>" ++ check (runes_of_ascii "packet BodyLength {} MetaData zchar{ zchar[// @lengthOf(
-42 ]
-    pack , string_
-A , char[]crc , _x trueish ,
-// " ++ [27880; 37322]%N ++ runes_of_ascii "
-// " ++ [128512]%N ++ runes_of_ascii " emoji
-zchar[
-    int32 ]	T // trailing space 
-, } packet body
+u
+    ""CRC32""
+    =
+    // " ++ [128512]%N ++ runes_of_ascii " emoji
+    i64_ = u16;
+T =65535 x = ' '
+    ; u128
+= true ; }")).
+Eval vm_compute in ("<<<M3116>>>" ++ check (runes_of_ascii "
+MetaData Logon
+{ // c
+}root packet
+    Pad {
+    } options
 {
-    }
+u
+    =
+    ""CRC32""
+    // " ++ [128512]%N ++ runes_of_ascii " emoji
+    i64_ = u16;")).
+Eval vm_compute in ("<<<M3148>>>" ++ check (runes_of_ascii "
+MetaData Logon
+{ // c
+}root packet
+    Pad {
+    } options
+{
+u
+    =
+    ""CRC32""
+    // " ++ [128512]%N ++ runes_of_ascii " emoji
+    i64_ = u16;
+T =65535 x = ' '
+    ; u128 u128
+= true ; }")).
+Eval vm_compute in ("<<<M3180>>>" ++ check (runes_of_ascii "
+MetaData Logon
+{ // c
+}root packet
+    Pad {
+    } options
+{
+u
+    =
+    ""CRC32""
+    // " ++ [128512]%N ++ runes_of_ascii " emoji
+    i64_ = u16;
+T =65535 x = ' '
+    ; u128
+= " ++ [8232]%N ++ runes_of_ascii " true ; }")).
+Eval vm_compute in ("<<<M3212>>>" ++ check (runes_of_ascii "MetaData body{")).
+Eval vm_compute in ("<<<M3244>>>" ++ check (runes_of_ascii "MetaData body{}
+packet	Packet { x_y_z @calculatedFrom(  ""a\\"") )// `tick` ""quote"" 'q'
+, }
 ")).
-Eval vm_compute in ("<<<M3148>>>" ++ check (runes_of_ascii "packet BodyLength {} MetaData zchar{ zchar[// @lengthOf(
-42 ]
-    pack , string_
-A , char[]crc , _x trueish ,
-// " ++ [27880; 37322]%N ++ runes_of_ascii "
-// " ++ [128512]%N ++ runes_of_ascii " emoji
-zchar[
-    3 ]	T // trailing space 
-, } packet body
-
-    }
+Eval vm_compute in ("<<<M3276>>>" ++ check (runes_of_ascii "MetaData " ++ [252]%N ++ runes_of_ascii "ber{}
+packet	Packet { x_y_z @calculatedFrom(  ""a\\"")// `tick` ""quote"" 'q'
+, }
 ")).
-Eval vm_compute in ("<<<M3180>>>" ++ check (runes_of_ascii "packet packet
-string_ {@lengthOf( int ) match packetx as f32a {
-    1 :	calculatedFrom , }  ,
-    } packet len
-    //	t
-    { @calculatedFrom( """ ++ [233]%N ++ runes_of_ascii "t" ++ [233]%N ++ runes_of_ascii """ ) body Header , char[] lengthOf  `two words` ,chars{repeat string_ matchKey ,
-    } ,
-    }
+Eval vm_compute in ("<<<M3308>>>" ++ check (runes_of_ascii "packet f32a {} root")).
+Eval vm_compute in ("<<<M3340>>>" ++ check (runes_of_ascii "packet f32a {} root packet len {repeat u // " ++ [128512]%N ++ runes_of_ascii " emoji
+`{ , }` , } }
 ")).
-Eval vm_compute in ("<<<M3212>>>" ++ check (runes_of_ascii "packet
-string_ {@lengthOf( int ) i16 packetx as f32a {
-    1 :	calculatedFrom , }  ,
-    } packet len
-    //	t
-    { @calculatedFrom( """ ++ [233]%N ++ runes_of_ascii "t" ++ [233]%N ++ runes_of_ascii """ ) body Header , char[] lengthOf  `two words` ,chars{repeat string_ matchKey ,
-    } ,
-    }
-")).
-Eval vm_compute in ("<<<M3244>>>" ++ check (runes_of_ascii "packet
-string_ {@lengthOf( int ) match packetx as f32a {
-    1 :	 , }  ,
-    } packet len
-    //	t
-    { @calculatedFrom( """ ++ [233]%N ++ runes_of_ascii "t" ++ [233]%N ++ runes_of_ascii """ ) body Header , char[] lengthOf  `two words` ,chars{repeat string_ matchKey ,
-    } ,
-    }
-")).
-Eval vm_compute in ("<<<M3276>>>" ++ check (runes_of_ascii "packet
-string_ {@lengthOf( int ) match packetx as f32a {
-    1 :	calculatedFrom , }  ,
-    } packet {
-    //	t
-    len @calculatedFrom( """ ++ [233]%N ++ runes_of_ascii "t" ++ [233]%N ++ runes_of_ascii """ ) body Header , char[] lengthOf  `two words` ,chars{repeat string_ matchKey ,
-    } ,
-    }
-")).
-Eval vm_compute in ("<<<M3308>>>" ++ check (runes_of_ascii "packet
-string_ {@lengthOf( int ) match packetx as f32a {
-    1 :	calculatedFrom , }  ,
-    } packet len
-    //	t
-    { @calculatedFrom( """ ++ [233]%N ++ runes_of_ascii "t" ++ [233]%N ++ runes_of_ascii """ ) body")).
-Eval vm_compute in ("<<<M3340>>>" ++ check (runes_of_ascii "packet
-string_ {@lengthOf( int ) match packetx as f32a {
-    1 :	calculatedFrom , }  ,
-    } packet len
-    //	t
-    { @calculatedFrom( """ ++ [233]%N ++ runes_of_ascii "t" ++ [233]%N ++ runes_of_ascii """ ) body Header , char[] lengthOf  `two words` ,chars{ {repeat string_ matchKey ,
-    } ,
-    }
-")).
-Eval vm_compute in ("<<<M3372>>>" ++ check (runes_of_ascii "packet
-string_ {@lengthOf( int ) match packetx as f32a {
-    1 :	calculatedFrom , }  ,
-    } packet len
-    //	t
-    { @calculatedFrom( """ ++ [233]%N ++ runes_of_ascii "t" ++ [233]%N ++ runes_of_ascii """ ) body Header , char[] lengthOf  `two words` ,chars{repeat string_ matchKey ,
-    } root
-    }
-")).
-Eval vm_compute in ("<<<M3404>>>" ++ check (runes_of_ascii "/// triple
-root
-packet // packet A { u8 x, }
-chars { @lengthOf(charz )
-stringy,  @tag(  0 ) // a // b
-asx
-    As
-,
-// trailing space 
-// trailing space 
-x_y_z {
-repeat i16 charz , , }	int16  crc ,}
-")).
-Eval vm_compute in ("<<<M3436>>>" ++ check (runes_of_ascii "/// triple
-root
-packet // packet A { u8 x, }
-chars { @lengthOf(charz )
-stringy,  @tag(  0 ) // a // b
-asx
-    As
-,
-// trailing space 
-// trailing space 
-x_y_z {
-repeat i16 'charz , } ,	int16  crc ,}
-")).
-Eval vm_compute in ("<<<M3468>>>" ++ check (runes_of_ascii "/// triple
-root
-packet // packet A { u8 x, }
-chars { @lengthOf(charz )
-stringy,  @tag(  0 ) // a // b
-asx
-    As
-
-// trailing space 
-// trailing space 
-x_y_z {
-repeat i16 charz , } ,	int16  crc ,}
-")).
+Eval vm_compute in ("<<<M3372>>>" ++ check (runes_of_ascii "options{ _x=""\" ++ [233]%N ++ runes_of_ascii """;
+    Logon = 10	; Foo= 7;
+i64_= char[]} options {
+matchKey = ""// no comment"" // a // b
+falsey = string
+; trueish =
+    4294967296
+options1=
+    ""it's"" string_	= true } { options
+    /// triple
+    }")).
+Eval vm_compute in ("<<<M3404>>>" ++ check (runes_of_ascii "options{ _x=""\" ++ [233]%N ++ runes_of_ascii """;
+    Logon = 10	; Foo= 7;
+i64_= char[]} options {
+matchKey = ""// no comment"" // a // b
+falsey = string
+; trueish @tag(
+    4294967296
+options1=
+    ""it's"" string_	= true } options {
+    /// triple
+    }")).
+Eval vm_compute in ("<<<M3436>>>" ++ check (runes_of_ascii "options{ _x=""\" ++ [233]%N ++ runes_of_ascii """;
+    Logon = 10	; Foo= 7;
+i64_= char[]} options {
+matchKey = = ""// no comment"" // a // b
+falsey = string
+; trueish =
+    4294967296
+options1=
+    ""it's"" string_	= true } options {
+    /// triple
+    }")).
+Eval vm_compute in ("<<<M3468>>>" ++ check (runes_of_ascii "options{ _x=""\" ++ [233]%N ++ runes_of_ascii """;
+    Logon = 10	; Foo= 7; ;
+i64_= char[]} options {
+matchKey = ""// no comment"" // a // b
+falsey = string
+; trueish =
+    4294967296
+options1=
+    ""it's"" string_	= true } options {
+    /// triple
+    }")).
 Eval vm_compute in ("<<<M3500>>>" ++ check (runes_of_ascii "zchar[]")).
 Eval vm_compute in ("<<<M3532>>>" ++ check (runes_of_ascii "metadata")).
 Eval vm_compute in ("<<<M3564>>>" ++ check (runes_of_ascii "//")).
@@ -1541,12 +1851,12 @@ Eval vm_compute in ("<<<M3628>>>" ++ check (runes_of_ascii "packet A { repeat ma
 Eval vm_compute in ("<<<M3660>>>" ++ check (runes_of_ascii "packet A { u8 x @tag(1), }")).
 Eval vm_compute in ("<<<M3692>>>" ++ check (runes_of_ascii "packet A { @leftPad('0' '0') char[2] x, }")).
 Eval vm_compute in ("<<<M3724>>>" ++ check (runes_of_ascii "options { }")).
-Eval vm_compute in ("<<<T3724>>>" ++ terms [mkTok 1 "options" 1 0 false; mkTok 2 "{" 1 8 false; mkTok 3 "}" 1 10 false; mkTok 0 "<EOF>" 1 11 false] (mkPacket (mkPtok 1 "options" 1 0 0) (Some (mkPtok 3 "}" 1 10 2)) [(DOption (mkOptionDef (mkSpan (mkPtok 1 "options" 1 0 0) (mkPtok 3 "}" 1 10 2)) (mkPtok 1 "options" 1 0 0) (mkPtok 2 "{" 1 8 1) [] (mkPtok 3 "}" 1 10 2)))])).
 Eval vm_compute in ("<<<M3756>>>" ++ check (runes_of_ascii "// only a comment")).
-Eval vm_compute in ("<<<M3788>>>" ++ check ([65533; 17; 65533; 65533; 0; 65533]%N ++ runes_of_ascii "2LJ" ++ [65533; 65533; 29555; 65533]%N ++ runes_of_ascii "k" ++ [65533; 12; 65533; 24]%N ++ runes_of_ascii "'" ++ [65533]%N ++ runes_of_ascii "J" ++ [65533]%N ++ runes_of_ascii "o" ++ [18]%N ++ runes_of_ascii "7" ++ [65533; 65533; 5]%N ++ runes_of_ascii "C" ++ [29]%N ++ runes_of_ascii "9" ++ [65533; 27; 65533]%N)).
-Eval vm_compute in ("<<<M3820>>>" ++ check ([65533]%N)).
-Eval vm_compute in ("<<<M3852>>>" ++ check ([408; 65533]%N ++ runes_of_ascii "Hl." ++ [65533; 5]%N ++ runes_of_ascii "O" ++ [29; 65533]%N ++ runes_of_ascii "Zu" ++ [30; 65533; 19; 65533; 65533; 65533]%N ++ runes_of_ascii "r" ++ [65533]%N ++ runes_of_ascii "j" ++ [65533]%N)).
-Eval vm_compute in ("<<<M3884>>>" ++ check ([65533; 18; 65533]%N ++ runes_of_ascii "C" ++ [65533]%N ++ runes_of_ascii "G8" ++ [65533; 1141; 65533; 65533; 65533]%N ++ runes_of_ascii "G" ++ [65533]%N ++ runes_of_ascii "D" ++ [65533; 65533]%N)).
-Eval vm_compute in ("<<<M3916>>>" ++ check ([65533; 6; 65533; 65533]%N ++ runes_of_ascii "i0P#" ++ [65533]%N ++ runes_of_ascii "_;," ++ [29]%N ++ runes_of_ascii "!" ++ [65533; 65533; 65533]%N ++ runes_of_ascii "_" ++ [14]%N ++ runes_of_ascii "j2" ++ [65533]%N ++ runes_of_ascii "sG" ++ [65533]%N ++ runes_of_ascii "D" ++ [65533; 8]%N ++ runes_of_ascii "Z" ++ [65533]%N ++ runes_of_ascii "\W" ++ [65533; 65533]%N ++ runes_of_ascii "Dm")).
-Eval vm_compute in ("<<<M3948>>>" ++ check (runes_of_ascii "=Q" ++ [65533; 65533]%N ++ runes_of_ascii "h" ++ [65533]%N ++ runes_of_ascii "T" ++ [31177; 65533]%N ++ runes_of_ascii "#" ++ [15; 65533]%N ++ runes_of_ascii "Q." ++ [65533]%N ++ runes_of_ascii "%" ++ [65533]%N ++ runes_of_ascii "X" ++ [65533]%N ++ runes_of_ascii "J5;" ++ [65533]%N ++ runes_of_ascii "l" ++ [65533; 65533]%N ++ runes_of_ascii "J" ++ [65533]%N ++ runes_of_ascii "A>" ++ [65533]%N ++ runes_of_ascii ":" ++ [1642; 65533; 65533]%N)).
-Eval vm_compute in ("<<<M3980>>>" ++ check (runes_of_ascii "|" ++ [65533]%N ++ runes_of_ascii "9" ++ [65533; 2; 65533; 65533; 815]%N ++ runes_of_ascii "8T_" ++ [65533]%N ++ runes_of_ascii "x" ++ [65533]%N ++ runes_of_ascii "`" ++ [65533; 0; 65533]%N ++ runes_of_ascii "w" ++ [65533; 65533; 31; 4]%N ++ runes_of_ascii "^" ++ [65533; 65533; 65533]%N ++ runes_of_ascii "X" ++ [65533; 65533]%N ++ runes_of_ascii "J%" ++ [65533]%N ++ runes_of_ascii "d" ++ [65533]%N)).
+Eval vm_compute in ("<<<T3756>>>" ++ terms [mkTok 44 "// only a comment" 1 0 true; mkTok 0 "<EOF>" 1 17 false] (mkPacket (mkPtok 0 "<EOF>" 1 17 1) None [])).
+Eval vm_compute in ("<<<M3788>>>" ++ check ([65533; 27; 65533]%N ++ runes_of_ascii "p" ++ [65533; 65533]%N ++ runes_of_ascii "W" ++ [65533]%N ++ runes_of_ascii "^82" ++ [65533; 65533]%N ++ runes_of_ascii "*jp")).
+Eval vm_compute in ("<<<M3820>>>" ++ check ([65533]%N ++ runes_of_ascii "rW" ++ [65533]%N ++ runes_of_ascii "-" ++ [65533]%N ++ runes_of_ascii "Qa" ++ [28]%N ++ runes_of_ascii "k%Y}G" ++ [65533]%N ++ runes_of_ascii "7" ++ [65533; 23; 65533; 2; 65533]%N)).
+Eval vm_compute in ("<<<M3852>>>" ++ check ([127]%N ++ runes_of_ascii "=" ++ [65533]%N ++ runes_of_ascii "m5d_$""][" ++ [65533; 65533; 65533]%N)).
+Eval vm_compute in ("<<<M3884>>>" ++ check (runes_of_ascii "1")).
+Eval vm_compute in ("<<<M3916>>>" ++ check (runes_of_ascii "P" ++ [65533; 65533]%N)).
+Eval vm_compute in ("<<<M3948>>>" ++ check (runes_of_ascii "^" ++ [65533; 65533]%N ++ runes_of_ascii "us" ++ [425501]%N ++ runes_of_ascii "o" ++ [65533; 65533; 24; 65533; 65533]%N ++ runes_of_ascii "V" ++ [65533; 23]%N ++ runes_of_ascii "3bm)" ++ [18; 26; 65533]%N ++ runes_of_ascii "c~" ++ [65533; 65533; 65533]%N ++ runes_of_ascii "_" ++ [65533; 3; 65533]%N ++ runes_of_ascii "t" ++ [65533]%N ++ runes_of_ascii "^" ++ [65533; 12]%N)).
+Eval vm_compute in ("<<<M3980>>>" ++ check ([65533; 65533]%N ++ runes_of_ascii "`#" ++ [65533]%N ++ runes_of_ascii "y" ++ [27; 65533; 65533; 65533]%N ++ runes_of_ascii "j54" ++ [550; 65533]%N ++ runes_of_ascii "=UB" ++ [1668; 65533; 65533; 65533]%N ++ runes_of_ascii ">" ++ [65533; 15; 26; 65533; 31]%N ++ runes_of_ascii "BFm" ++ [65533; 65533]%N ++ runes_of_ascii ">." ++ [3]%N)).
